@@ -168,7 +168,7 @@ procedure tag(vp, vc)
 }
 
 \* ---- store_object(vp, vc) / store_object(None, vc) -----------------------------------
-procedure store(vp, vc)
+procedure store(vp, vc, vval)
   variables vx = FALSE; {
  st1: if (vp # "-") {
         \* `with condition: if pid in locked: raise StoreObjectForPidAlreadyInProgress`
@@ -178,12 +178,27 @@ procedure store(vp, vc)
       };
       \* _move_and_get_checksums: stage in tmp (local), then the existence probe
  st3: vx := obj[vc] = "ok"; ev := Ev(self, "stat", P("obj", vc), NoPath, FN(vx));
-      if (~vx) {
+      \* validation against the staged file: a mismatch removes the staged file (local) and raises
+      if (vval \in {"badsum", "badsize"}) { result[self] := vval; goto st7; };
+ st3b: if (~vx) {
  st4:   ev := Ev(self, "stat", P("obj", vc), NoPath, FN(obj[vc] = "ok"));
  st5:   obj[vc] := "ok"; ev := Ev(self, "rename", P("tmp", "objects"), P("obj", vc), "ok");
       };
  st6: if (vp = "-") { result[self] := "ok"; rdata[self] := vc; return; }
       else { call tag(vp, vc); };
+      \* the object may have been removed between the probe / publish above and the tagging:
+      \* once the pid is tagged nobody else can remove it, so look again and store the data again
+ st6b: if (result[self] = "ok") {
+        vx := obj[vc] = "ok"; ev := Ev(self, "stat", P("obj", vc), NoPath, FN(vx));
+        if (~vx) {
+ st6c:    ev := Ev(self, "stat", P("obj", vc), NoPath, FN(obj[vc] = "ok"));   \* objects/<cid> unsharded
+ st6d:    vx := obj[vc] = "ok"; ev := Ev(self, "stat", P("obj", vc), NoPath, FN(vx));
+          if (~vx) {
+ st6e:      ev := Ev(self, "stat", P("obj", vc), NoPath, FN(obj[vc] = "ok"));
+ st6f:      obj[vc] := "ok"; ev := Ev(self, "rename", P("tmp", "objects"), P("obj", vc), "ok");
+          };
+        };
+      };
  st7: call release("objpid", vp);
  st8: return;
 }
@@ -439,8 +454,8 @@ procedure retrieve(vp)
 }
 
 fair process (proc \in Thread) {
- run: if (Job[self].op = "store") { call store(Job[self].pid, Job[self].c); }
-      else if (Job[self].op = "storenp") { call store("-", Job[self].c); }
+ run: if (Job[self].op = "store") { call store(Job[self].pid, Job[self].c, Job[self].val); }
+      else if (Job[self].op = "storenp") { call store("-", Job[self].c, "none"); }
       else if (Job[self].op = "tag") { call tag(Job[self].pid, Job[self].c); }
       else if (Job[self].op = "delete") { call delete(Job[self].pid); }
       else if (Job[self].op = "dii") {
@@ -456,36 +471,36 @@ fair process (proc \in Thread) {
  fin: skip;
 }
 } *)
-\* BEGIN TRANSLATION (chksum(pcal) = "b540f5d8" /\ chksum(tla) = "e0b192d")
+\* BEGIN TRANSLATION (chksum(pcal) = "60636db3" /\ chksum(tla) = "f9f74a40")
 \* Procedure variable va of procedure tag at line 97 col 13 changed to va_
 \* Procedure variable vb of procedure tag at line 97 col 25 changed to vb_
 \* Procedure variable vrl of procedure tag at line 97 col 77 changed to vrl_
 \* Procedure variable vx of procedure store at line 172 col 13 changed to vx_
-\* Procedure variable vb of procedure diibad at line 193 col 13 changed to vb_d
-\* Procedure variable vx of procedure diibad at line 193 col 25 changed to vx_d
-\* Procedure variable vc of procedure delete at line 213 col 13 changed to vc_
-\* Procedure variable vrl of procedure delete at line 213 col 36 changed to vrl_d
-\* Procedure variable va of procedure delete at line 213 col 48 changed to va_d
-\* Procedure variable vb of procedure delete at line 213 col 60 changed to vb_de
-\* Procedure variable vx of procedure delete at line 213 col 72 changed to vx_de
-\* Procedure variable vf of procedure delete at line 214 col 25 changed to vf_
-\* Procedure variable vx of procedure getmeta at line 376 col 13 changed to vx_g
-\* Procedure variable vx of procedure delmeta_one at line 389 col 13 changed to vx_del
-\* Procedure variable vc of procedure retrieve at line 410 col 13 changed to vc_r
+\* Procedure variable vb of procedure diibad at line 208 col 13 changed to vb_d
+\* Procedure variable vx of procedure diibad at line 208 col 25 changed to vx_d
+\* Procedure variable vc of procedure delete at line 228 col 13 changed to vc_
+\* Procedure variable vrl of procedure delete at line 228 col 36 changed to vrl_d
+\* Procedure variable va of procedure delete at line 228 col 48 changed to va_d
+\* Procedure variable vb of procedure delete at line 228 col 60 changed to vb_de
+\* Procedure variable vx of procedure delete at line 228 col 72 changed to vx_de
+\* Procedure variable vf of procedure delete at line 229 col 25 changed to vf_
+\* Procedure variable vx of procedure getmeta at line 391 col 13 changed to vx_g
+\* Procedure variable vx of procedure delmeta_one at line 404 col 13 changed to vx_del
+\* Procedure variable vc of procedure retrieve at line 425 col 13 changed to vc_r
 \* Parameter vtb of procedure claim at line 65 col 17 changed to vtb_
 \* Parameter vid of procedure claim at line 65 col 22 changed to vid_
 \* Parameter vp of procedure tag at line 96 col 15 changed to vp_
 \* Parameter vc of procedure tag at line 96 col 19 changed to vc_t
 \* Parameter vp of procedure store at line 171 col 17 changed to vp_s
 \* Parameter vc of procedure store at line 171 col 21 changed to vc_s
-\* Parameter vp of procedure delete at line 212 col 18 changed to vp_d
-\* Parameter vp of procedure delmeta_all at line 316 col 23 changed to vp_de
-\* Parameter vp of procedure putmeta at line 365 col 19 changed to vp_p
-\* Parameter vf of procedure putmeta at line 365 col 23 changed to vf_p
-\* Parameter vp of procedure getmeta at line 375 col 19 changed to vp_g
-\* Parameter vf of procedure getmeta at line 375 col 23 changed to vf_g
-\* Parameter vp of procedure delmeta_one at line 388 col 23 changed to vp_del
-\* Parameter vp of procedure delmeta_top at line 402 col 23 changed to vp_delm
+\* Parameter vp of procedure delete at line 227 col 18 changed to vp_d
+\* Parameter vp of procedure delmeta_all at line 331 col 23 changed to vp_de
+\* Parameter vp of procedure putmeta at line 380 col 19 changed to vp_p
+\* Parameter vf of procedure putmeta at line 380 col 23 changed to vf_p
+\* Parameter vp of procedure getmeta at line 390 col 19 changed to vp_g
+\* Parameter vf of procedure getmeta at line 390 col 23 changed to vf_g
+\* Parameter vp of procedure delmeta_one at line 403 col 23 changed to vp_del
+\* Parameter vp of procedure delmeta_top at line 417 col 23 changed to vp_delm
 CONSTANT defaultInitValue
 VARIABLES pc, obj, pref, cref, doc, mark, keep, locked, waitq, woken, ev, 
           result, rdata, stack
@@ -503,17 +518,17 @@ Abs         == [obj |-> obj, pref |-> pref, cref |-> cref, doc |-> doc,
                 junk |-> Cardinality(mark)]
 
 VARIABLES vtb_, vid_, vtb, vid, vp_, vc_t, va_, vb_, vout, vmade, vrp, vrl_, 
-          vp_s, vc_s, vx_, vc, vb_d, vx_d, vp_d, vc_, vcls, vrl_d, va_d, 
+          vp_s, vc_s, vval, vx_, vc, vb_d, vx_d, vp_d, vc_, vcls, vrl_d, va_d, 
           vb_de, vx_de, vdels, vdocs, vf_, vp_de, vtodo, vkeepl, vmarked, ve, 
           vp_p, vf_p, vver, vp_g, vf_g, vx_g, vp_del, vf, vx_del, vp_delm, vp, 
           vc_r, vrl, va, vb, vx
 
 vars == << pc, obj, pref, cref, doc, mark, keep, locked, waitq, woken, ev, 
            result, rdata, stack, vtb_, vid_, vtb, vid, vp_, vc_t, va_, vb_, 
-           vout, vmade, vrp, vrl_, vp_s, vc_s, vx_, vc, vb_d, vx_d, vp_d, vc_, 
-           vcls, vrl_d, va_d, vb_de, vx_de, vdels, vdocs, vf_, vp_de, vtodo, 
-           vkeepl, vmarked, ve, vp_p, vf_p, vver, vp_g, vf_g, vx_g, vp_del, 
-           vf, vx_del, vp_delm, vp, vc_r, vrl, va, vb, vx >>
+           vout, vmade, vrp, vrl_, vp_s, vc_s, vval, vx_, vc, vb_d, vx_d, 
+           vp_d, vc_, vcls, vrl_d, va_d, vb_de, vx_de, vdels, vdocs, vf_, 
+           vp_de, vtodo, vkeepl, vmarked, ve, vp_p, vf_p, vver, vp_g, vf_g, 
+           vx_g, vp_del, vf, vx_del, vp_delm, vp, vc_r, vrl, va, vb, vx >>
 
 ProcSet == (Thread)
 
@@ -548,6 +563,7 @@ Init == (* Global variables *)
         (* Procedure store *)
         /\ vp_s = [ self \in ProcSet |-> defaultInitValue]
         /\ vc_s = [ self \in ProcSet |-> defaultInitValue]
+        /\ vval = [ self \in ProcSet |-> defaultInitValue]
         /\ vx_ = [ self \in ProcSet |-> FALSE]
         (* Procedure diibad *)
         /\ vc = [ self \in ProcSet |-> defaultInitValue]
@@ -606,12 +622,12 @@ cl1(self) == /\ pc[self] = "cl1"
                         /\ waitq' = waitq
              /\ UNCHANGED << obj, pref, cref, doc, mark, keep, woken, result, 
                              rdata, stack, vtb_, vid_, vtb, vid, vp_, vc_t, 
-                             va_, vb_, vout, vmade, vrp, vrl_, vp_s, vc_s, vx_, 
-                             vc, vb_d, vx_d, vp_d, vc_, vcls, vrl_d, va_d, 
-                             vb_de, vx_de, vdels, vdocs, vf_, vp_de, vtodo, 
-                             vkeepl, vmarked, ve, vp_p, vf_p, vver, vp_g, vf_g, 
-                             vx_g, vp_del, vf, vx_del, vp_delm, vp, vc_r, vrl, 
-                             va, vb, vx >>
+                             va_, vb_, vout, vmade, vrp, vrl_, vp_s, vc_s, 
+                             vval, vx_, vc, vb_d, vx_d, vp_d, vc_, vcls, vrl_d, 
+                             va_d, vb_de, vx_de, vdels, vdocs, vf_, vp_de, 
+                             vtodo, vkeepl, vmarked, ve, vp_p, vf_p, vver, 
+                             vp_g, vf_g, vx_g, vp_del, vf, vx_del, vp_delm, vp, 
+                             vc_r, vrl, va, vb, vx >>
 
 cl2(self) == /\ pc[self] = "cl2"
              /\ self \in woken
@@ -627,11 +643,12 @@ cl2(self) == /\ pc[self] = "cl2"
                         /\ waitq' = waitq
              /\ UNCHANGED << obj, pref, cref, doc, mark, keep, result, rdata, 
                              stack, vtb_, vid_, vtb, vid, vp_, vc_t, va_, vb_, 
-                             vout, vmade, vrp, vrl_, vp_s, vc_s, vx_, vc, vb_d, 
-                             vx_d, vp_d, vc_, vcls, vrl_d, va_d, vb_de, vx_de, 
-                             vdels, vdocs, vf_, vp_de, vtodo, vkeepl, vmarked, 
-                             ve, vp_p, vf_p, vver, vp_g, vf_g, vx_g, vp_del, 
-                             vf, vx_del, vp_delm, vp, vc_r, vrl, va, vb, vx >>
+                             vout, vmade, vrp, vrl_, vp_s, vc_s, vval, vx_, vc, 
+                             vb_d, vx_d, vp_d, vc_, vcls, vrl_d, va_d, vb_de, 
+                             vx_de, vdels, vdocs, vf_, vp_de, vtodo, vkeepl, 
+                             vmarked, ve, vp_p, vf_p, vver, vp_g, vf_g, vx_g, 
+                             vp_del, vf, vx_del, vp_delm, vp, vc_r, vrl, va, 
+                             vb, vx >>
 
 cl3(self) == /\ pc[self] = "cl3"
              /\ pc' = [pc EXCEPT ![self] = Head(stack[self]).pc]
@@ -640,12 +657,12 @@ cl3(self) == /\ pc[self] = "cl3"
              /\ stack' = [stack EXCEPT ![self] = Tail(stack[self])]
              /\ UNCHANGED << obj, pref, cref, doc, mark, keep, locked, waitq, 
                              woken, ev, result, rdata, vtb, vid, vp_, vc_t, 
-                             va_, vb_, vout, vmade, vrp, vrl_, vp_s, vc_s, vx_, 
-                             vc, vb_d, vx_d, vp_d, vc_, vcls, vrl_d, va_d, 
-                             vb_de, vx_de, vdels, vdocs, vf_, vp_de, vtodo, 
-                             vkeepl, vmarked, ve, vp_p, vf_p, vver, vp_g, vf_g, 
-                             vx_g, vp_del, vf, vx_del, vp_delm, vp, vc_r, vrl, 
-                             va, vb, vx >>
+                             va_, vb_, vout, vmade, vrp, vrl_, vp_s, vc_s, 
+                             vval, vx_, vc, vb_d, vx_d, vp_d, vc_, vcls, vrl_d, 
+                             va_d, vb_de, vx_de, vdels, vdocs, vf_, vp_de, 
+                             vtodo, vkeepl, vmarked, ve, vp_p, vf_p, vver, 
+                             vp_g, vf_g, vx_g, vp_del, vf, vx_del, vp_delm, vp, 
+                             vc_r, vrl, va, vb, vx >>
 
 claim(self) == cl1(self) \/ cl2(self) \/ cl3(self)
 
@@ -663,11 +680,11 @@ rl1(self) == /\ pc[self] = "rl1"
              /\ stack' = [stack EXCEPT ![self] = Tail(stack[self])]
              /\ UNCHANGED << obj, pref, cref, doc, mark, keep, result, rdata, 
                              vtb_, vid_, vp_, vc_t, va_, vb_, vout, vmade, vrp, 
-                             vrl_, vp_s, vc_s, vx_, vc, vb_d, vx_d, vp_d, vc_, 
-                             vcls, vrl_d, va_d, vb_de, vx_de, vdels, vdocs, 
-                             vf_, vp_de, vtodo, vkeepl, vmarked, ve, vp_p, 
-                             vf_p, vver, vp_g, vf_g, vx_g, vp_del, vf, vx_del, 
-                             vp_delm, vp, vc_r, vrl, va, vb, vx >>
+                             vrl_, vp_s, vc_s, vval, vx_, vc, vb_d, vx_d, vp_d, 
+                             vc_, vcls, vrl_d, va_d, vb_de, vx_de, vdels, 
+                             vdocs, vf_, vp_de, vtodo, vkeepl, vmarked, ve, 
+                             vp_p, vf_p, vver, vp_g, vf_g, vx_g, vp_del, vf, 
+                             vx_del, vp_delm, vp, vc_r, vrl, va, vb, vx >>
 
 release(self) == rl1(self)
 
@@ -682,12 +699,12 @@ tg1(self) == /\ pc[self] = "tg1"
              /\ pc' = [pc EXCEPT ![self] = "cl1"]
              /\ UNCHANGED << obj, pref, cref, doc, mark, keep, locked, waitq, 
                              woken, ev, result, rdata, vtb, vid, vp_, vc_t, 
-                             va_, vb_, vout, vmade, vrp, vrl_, vp_s, vc_s, vx_, 
-                             vc, vb_d, vx_d, vp_d, vc_, vcls, vrl_d, va_d, 
-                             vb_de, vx_de, vdels, vdocs, vf_, vp_de, vtodo, 
-                             vkeepl, vmarked, ve, vp_p, vf_p, vver, vp_g, vf_g, 
-                             vx_g, vp_del, vf, vx_del, vp_delm, vp, vc_r, vrl, 
-                             va, vb, vx >>
+                             va_, vb_, vout, vmade, vrp, vrl_, vp_s, vc_s, 
+                             vval, vx_, vc, vb_d, vx_d, vp_d, vc_, vcls, vrl_d, 
+                             va_d, vb_de, vx_de, vdels, vdocs, vf_, vp_de, 
+                             vtodo, vkeepl, vmarked, ve, vp_p, vf_p, vver, 
+                             vp_g, vf_g, vx_g, vp_del, vf, vx_del, vp_delm, vp, 
+                             vc_r, vrl, va, vb, vx >>
 
 tg2(self) == /\ pc[self] = "tg2"
              /\ /\ stack' = [stack EXCEPT ![self] = << [ procedure |->  "claim",
@@ -700,12 +717,12 @@ tg2(self) == /\ pc[self] = "tg2"
              /\ pc' = [pc EXCEPT ![self] = "cl1"]
              /\ UNCHANGED << obj, pref, cref, doc, mark, keep, locked, waitq, 
                              woken, ev, result, rdata, vtb, vid, vp_, vc_t, 
-                             va_, vb_, vout, vmade, vrp, vrl_, vp_s, vc_s, vx_, 
-                             vc, vb_d, vx_d, vp_d, vc_, vcls, vrl_d, va_d, 
-                             vb_de, vx_de, vdels, vdocs, vf_, vp_de, vtodo, 
-                             vkeepl, vmarked, ve, vp_p, vf_p, vver, vp_g, vf_g, 
-                             vx_g, vp_del, vf, vx_del, vp_delm, vp, vc_r, vrl, 
-                             va, vb, vx >>
+                             va_, vb_, vout, vmade, vrp, vrl_, vp_s, vc_s, 
+                             vval, vx_, vc, vb_d, vx_d, vp_d, vc_, vcls, vrl_d, 
+                             va_d, vb_de, vx_de, vdels, vdocs, vf_, vp_de, 
+                             vtodo, vkeepl, vmarked, ve, vp_p, vf_p, vver, 
+                             vp_g, vf_g, vx_g, vp_del, vf, vx_del, vp_delm, vp, 
+                             vc_r, vrl, va, vb, vx >>
 
 e1a(self) == /\ pc[self] = "e1a"
              /\ va_' = [va_ EXCEPT ![self] = pref[vp_[self]] # None]
@@ -716,11 +733,11 @@ e1a(self) == /\ pc[self] = "e1a"
              /\ UNCHANGED << obj, pref, cref, doc, mark, keep, locked, waitq, 
                              woken, result, rdata, stack, vtb_, vid_, vtb, vid, 
                              vp_, vc_t, vb_, vout, vmade, vrp, vrl_, vp_s, 
-                             vc_s, vx_, vc, vb_d, vx_d, vp_d, vc_, vcls, vrl_d, 
-                             va_d, vb_de, vx_de, vdels, vdocs, vf_, vp_de, 
-                             vtodo, vkeepl, vmarked, ve, vp_p, vf_p, vver, 
-                             vp_g, vf_g, vx_g, vp_del, vf, vx_del, vp_delm, vp, 
-                             vc_r, vrl, va, vb, vx >>
+                             vc_s, vval, vx_, vc, vb_d, vx_d, vp_d, vc_, vcls, 
+                             vrl_d, va_d, vb_de, vx_de, vdels, vdocs, vf_, 
+                             vp_de, vtodo, vkeepl, vmarked, ve, vp_p, vf_p, 
+                             vver, vp_g, vf_g, vx_g, vp_del, vf, vx_del, 
+                             vp_delm, vp, vc_r, vrl, va, vb, vx >>
 
 e1b(self) == /\ pc[self] = "e1b"
              /\ vb_' = [vb_ EXCEPT ![self] = cref[vc_t[self]].has]
@@ -731,11 +748,11 @@ e1b(self) == /\ pc[self] = "e1b"
              /\ UNCHANGED << obj, pref, cref, doc, mark, keep, locked, waitq, 
                              woken, result, rdata, stack, vtb_, vid_, vtb, vid, 
                              vp_, vc_t, va_, vout, vmade, vrp, vrl_, vp_s, 
-                             vc_s, vx_, vc, vb_d, vx_d, vp_d, vc_, vcls, vrl_d, 
-                             va_d, vb_de, vx_de, vdels, vdocs, vf_, vp_de, 
-                             vtodo, vkeepl, vmarked, ve, vp_p, vf_p, vver, 
-                             vp_g, vf_g, vx_g, vp_del, vf, vx_del, vp_delm, vp, 
-                             vc_r, vrl, va, vb, vx >>
+                             vc_s, vval, vx_, vc, vb_d, vx_d, vp_d, vc_, vcls, 
+                             vrl_d, va_d, vb_de, vx_de, vdels, vdocs, vf_, 
+                             vp_de, vtodo, vkeepl, vmarked, ve, vp_p, vf_p, 
+                             vver, vp_g, vf_g, vx_g, vp_del, vf, vx_del, 
+                             vp_delm, vp, vc_r, vrl, va, vb, vx >>
 
 e2a(self) == /\ pc[self] = "e2a"
              /\ va_' = [va_ EXCEPT ![self] = pref[vp_[self]] # None]
@@ -746,11 +763,11 @@ e2a(self) == /\ pc[self] = "e2a"
              /\ UNCHANGED << obj, pref, cref, doc, mark, keep, locked, waitq, 
                              woken, result, rdata, stack, vtb_, vid_, vtb, vid, 
                              vp_, vc_t, vb_, vout, vmade, vrp, vrl_, vp_s, 
-                             vc_s, vx_, vc, vb_d, vx_d, vp_d, vc_, vcls, vrl_d, 
-                             va_d, vb_de, vx_de, vdels, vdocs, vf_, vp_de, 
-                             vtodo, vkeepl, vmarked, ve, vp_p, vf_p, vver, 
-                             vp_g, vf_g, vx_g, vp_del, vf, vx_del, vp_delm, vp, 
-                             vc_r, vrl, va, vb, vx >>
+                             vc_s, vval, vx_, vc, vb_d, vx_d, vp_d, vc_, vcls, 
+                             vrl_d, va_d, vb_de, vx_de, vdels, vdocs, vf_, 
+                             vp_de, vtodo, vkeepl, vmarked, ve, vp_p, vf_p, 
+                             vver, vp_g, vf_g, vx_g, vp_del, vf, vx_del, 
+                             vp_delm, vp, vc_r, vrl, va, vb, vx >>
 
 e2b(self) == /\ pc[self] = "e2b"
              /\ vb_' = [vb_ EXCEPT ![self] = cref[vc_t[self]].has]
@@ -762,12 +779,12 @@ e2b(self) == /\ pc[self] = "e2b"
                         /\ vout' = vout
              /\ UNCHANGED << obj, pref, cref, doc, mark, keep, locked, waitq, 
                              woken, result, rdata, stack, vtb_, vid_, vtb, vid, 
-                             vp_, vc_t, va_, vmade, vrp, vrl_, vp_s, vc_s, vx_, 
-                             vc, vb_d, vx_d, vp_d, vc_, vcls, vrl_d, va_d, 
-                             vb_de, vx_de, vdels, vdocs, vf_, vp_de, vtodo, 
-                             vkeepl, vmarked, ve, vp_p, vf_p, vver, vp_g, vf_g, 
-                             vx_g, vp_del, vf, vx_del, vp_delm, vp, vc_r, vrl, 
-                             va, vb, vx >>
+                             vp_, vc_t, va_, vmade, vrp, vrl_, vp_s, vc_s, 
+                             vval, vx_, vc, vb_d, vx_d, vp_d, vc_, vcls, vrl_d, 
+                             va_d, vb_de, vx_de, vdels, vdocs, vf_, vp_de, 
+                             vtodo, vkeepl, vmarked, ve, vp_p, vf_p, vver, 
+                             vp_g, vf_g, vx_g, vp_del, vf, vx_del, vp_delm, vp, 
+                             vc_r, vrl, va, vb, vx >>
 
 e3a(self) == /\ pc[self] = "e3a"
              /\ va_' = [va_ EXCEPT ![self] = pref[vp_[self]] # None]
@@ -778,11 +795,11 @@ e3a(self) == /\ pc[self] = "e3a"
              /\ UNCHANGED << obj, pref, cref, doc, mark, keep, locked, waitq, 
                              woken, result, rdata, stack, vtb_, vid_, vtb, vid, 
                              vp_, vc_t, vb_, vout, vmade, vrp, vrl_, vp_s, 
-                             vc_s, vx_, vc, vb_d, vx_d, vp_d, vc_, vcls, vrl_d, 
-                             va_d, vb_de, vx_de, vdels, vdocs, vf_, vp_de, 
-                             vtodo, vkeepl, vmarked, ve, vp_p, vf_p, vver, 
-                             vp_g, vf_g, vx_g, vp_del, vf, vx_del, vp_delm, vp, 
-                             vc_r, vrl, va, vb, vx >>
+                             vc_s, vval, vx_, vc, vb_d, vx_d, vp_d, vc_, vcls, 
+                             vrl_d, va_d, vb_de, vx_de, vdels, vdocs, vf_, 
+                             vp_de, vtodo, vkeepl, vmarked, ve, vp_p, vf_p, 
+                             vver, vp_g, vf_g, vx_g, vp_del, vf, vx_del, 
+                             vp_delm, vp, vc_r, vrl, va, vb, vx >>
 
 e3b(self) == /\ pc[self] = "e3b"
              /\ vb_' = [vb_ EXCEPT ![self] = cref[vc_t[self]].has]
@@ -793,11 +810,11 @@ e3b(self) == /\ pc[self] = "e3b"
              /\ UNCHANGED << obj, pref, cref, doc, mark, keep, locked, waitq, 
                              woken, result, rdata, stack, vtb_, vid_, vtb, vid, 
                              vp_, vc_t, va_, vout, vmade, vrp, vrl_, vp_s, 
-                             vc_s, vx_, vc, vb_d, vx_d, vp_d, vc_, vcls, vrl_d, 
-                             va_d, vb_de, vx_de, vdels, vdocs, vf_, vp_de, 
-                             vtodo, vkeepl, vmarked, ve, vp_p, vf_p, vver, 
-                             vp_g, vf_g, vx_g, vp_del, vf, vx_del, vp_delm, vp, 
-                             vc_r, vrl, va, vb, vx >>
+                             vc_s, vval, vx_, vc, vb_d, vx_d, vp_d, vc_, vcls, 
+                             vrl_d, va_d, vb_de, vx_de, vdels, vdocs, vf_, 
+                             vp_de, vtodo, vkeepl, vmarked, ve, vp_p, vf_p, 
+                             vver, vp_g, vf_g, vx_g, vp_del, vf, vx_del, 
+                             vp_delm, vp, vc_r, vrl, va, vb, vx >>
 
 n1(self) == /\ pc[self] = "n1"
             /\ vmade' = [vmade EXCEPT ![self] = TRUE]
@@ -806,11 +823,11 @@ n1(self) == /\ pc[self] = "n1"
             /\ UNCHANGED << obj, pref, cref, doc, mark, keep, locked, waitq, 
                             woken, result, rdata, stack, vtb_, vid_, vtb, vid, 
                             vp_, vc_t, va_, vb_, vout, vrp, vrl_, vp_s, vc_s, 
-                            vx_, vc, vb_d, vx_d, vp_d, vc_, vcls, vrl_d, va_d, 
-                            vb_de, vx_de, vdels, vdocs, vf_, vp_de, vtodo, 
-                            vkeepl, vmarked, ve, vp_p, vf_p, vver, vp_g, vf_g, 
-                            vx_g, vp_del, vf, vx_del, vp_delm, vp, vc_r, vrl, 
-                            va, vb, vx >>
+                            vval, vx_, vc, vb_d, vx_d, vp_d, vc_, vcls, vrl_d, 
+                            va_d, vb_de, vx_de, vdels, vdocs, vf_, vp_de, 
+                            vtodo, vkeepl, vmarked, ve, vp_p, vf_p, vver, vp_g, 
+                            vf_g, vx_g, vp_del, vf, vx_del, vp_delm, vp, vc_r, 
+                            vrl, va, vb, vx >>
 
 n2(self) == /\ pc[self] = "n2"
             /\ pref' = [pref EXCEPT ![vp_[self]] = vc_t[self]]
@@ -819,11 +836,11 @@ n2(self) == /\ pc[self] = "n2"
             /\ UNCHANGED << obj, cref, doc, mark, keep, locked, waitq, woken, 
                             result, rdata, stack, vtb_, vid_, vtb, vid, vp_, 
                             vc_t, va_, vb_, vout, vmade, vrp, vrl_, vp_s, vc_s, 
-                            vx_, vc, vb_d, vx_d, vp_d, vc_, vcls, vrl_d, va_d, 
-                            vb_de, vx_de, vdels, vdocs, vf_, vp_de, vtodo, 
-                            vkeepl, vmarked, ve, vp_p, vf_p, vver, vp_g, vf_g, 
-                            vx_g, vp_del, vf, vx_del, vp_delm, vp, vc_r, vrl, 
-                            va, vb, vx >>
+                            vval, vx_, vc, vb_d, vx_d, vp_d, vc_, vcls, vrl_d, 
+                            va_d, vb_de, vx_de, vdels, vdocs, vf_, vp_de, 
+                            vtodo, vkeepl, vmarked, ve, vp_p, vf_p, vver, vp_g, 
+                            vf_g, vx_g, vp_del, vf, vx_del, vp_delm, vp, vc_r, 
+                            vrl, va, vb, vx >>
 
 n3(self) == /\ pc[self] = "n3"
             /\ ev' = Ev(self, "stat", P("cidref", vc_t[self]), NoPath, StatCid(vc_t[self]))
@@ -831,11 +848,11 @@ n3(self) == /\ pc[self] = "n3"
             /\ UNCHANGED << obj, pref, cref, doc, mark, keep, locked, waitq, 
                             woken, result, rdata, stack, vtb_, vid_, vtb, vid, 
                             vp_, vc_t, va_, vb_, vout, vmade, vrp, vrl_, vp_s, 
-                            vc_s, vx_, vc, vb_d, vx_d, vp_d, vc_, vcls, vrl_d, 
-                            va_d, vb_de, vx_de, vdels, vdocs, vf_, vp_de, 
-                            vtodo, vkeepl, vmarked, ve, vp_p, vf_p, vver, vp_g, 
-                            vf_g, vx_g, vp_del, vf, vx_del, vp_delm, vp, vc_r, 
-                            vrl, va, vb, vx >>
+                            vc_s, vval, vx_, vc, vb_d, vx_d, vp_d, vc_, vcls, 
+                            vrl_d, va_d, vb_de, vx_de, vdels, vdocs, vf_, 
+                            vp_de, vtodo, vkeepl, vmarked, ve, vp_p, vf_p, 
+                            vver, vp_g, vf_g, vx_g, vp_del, vf, vx_del, 
+                            vp_delm, vp, vc_r, vrl, va, vb, vx >>
 
 n4(self) == /\ pc[self] = "n4"
             /\ cref' = [cref EXCEPT ![vc_t[self]] = List(<<vp_[self]>>)]
@@ -844,11 +861,11 @@ n4(self) == /\ pc[self] = "n4"
             /\ UNCHANGED << obj, pref, doc, mark, keep, locked, waitq, woken, 
                             result, rdata, stack, vtb_, vid_, vtb, vid, vp_, 
                             vc_t, va_, vb_, vout, vmade, vrp, vrl_, vp_s, vc_s, 
-                            vx_, vc, vb_d, vx_d, vp_d, vc_, vcls, vrl_d, va_d, 
-                            vb_de, vx_de, vdels, vdocs, vf_, vp_de, vtodo, 
-                            vkeepl, vmarked, ve, vp_p, vf_p, vver, vp_g, vf_g, 
-                            vx_g, vp_del, vf, vx_del, vp_delm, vp, vc_r, vrl, 
-                            va, vb, vx >>
+                            vval, vx_, vc, vb_d, vx_d, vp_d, vc_, vcls, vrl_d, 
+                            va_d, vb_de, vx_de, vdels, vdocs, vf_, vp_de, 
+                            vtodo, vkeepl, vmarked, ve, vp_p, vf_p, vver, vp_g, 
+                            vf_g, vx_g, vp_del, vf, vx_del, vp_delm, vp, vc_r, 
+                            vrl, va, vb, vx >>
 
 cidonly(self) == /\ pc[self] = "cidonly"
                  /\ vmade' = [vmade EXCEPT ![self] = TRUE]
@@ -857,12 +874,12 @@ cidonly(self) == /\ pc[self] = "cidonly"
                  /\ UNCHANGED << obj, pref, cref, doc, mark, keep, locked, 
                                  waitq, woken, result, rdata, stack, vtb_, 
                                  vid_, vtb, vid, vp_, vc_t, va_, vb_, vout, 
-                                 vrp, vrl_, vp_s, vc_s, vx_, vc, vb_d, vx_d, 
-                                 vp_d, vc_, vcls, vrl_d, va_d, vb_de, vx_de, 
-                                 vdels, vdocs, vf_, vp_de, vtodo, vkeepl, 
-                                 vmarked, ve, vp_p, vf_p, vver, vp_g, vf_g, 
-                                 vx_g, vp_del, vf, vx_del, vp_delm, vp, vc_r, 
-                                 vrl, va, vb, vx >>
+                                 vrp, vrl_, vp_s, vc_s, vval, vx_, vc, vb_d, 
+                                 vx_d, vp_d, vc_, vcls, vrl_d, va_d, vb_de, 
+                                 vx_de, vdels, vdocs, vf_, vp_de, vtodo, 
+                                 vkeepl, vmarked, ve, vp_p, vf_p, vver, vp_g, 
+                                 vf_g, vx_g, vp_del, vf, vx_del, vp_delm, vp, 
+                                 vc_r, vrl, va, vb, vx >>
 
 c2(self) == /\ pc[self] = "c2"
             /\ pref' = [pref EXCEPT ![vp_[self]] = vc_t[self]]
@@ -871,11 +888,11 @@ c2(self) == /\ pc[self] = "c2"
             /\ UNCHANGED << obj, cref, doc, mark, keep, locked, waitq, woken, 
                             result, rdata, stack, vtb_, vid_, vtb, vid, vp_, 
                             vc_t, va_, vb_, vout, vmade, vrp, vrl_, vp_s, vc_s, 
-                            vx_, vc, vb_d, vx_d, vp_d, vc_, vcls, vrl_d, va_d, 
-                            vb_de, vx_de, vdels, vdocs, vf_, vp_de, vtodo, 
-                            vkeepl, vmarked, ve, vp_p, vf_p, vver, vp_g, vf_g, 
-                            vx_g, vp_del, vf, vx_del, vp_delm, vp, vc_r, vrl, 
-                            va, vb, vx >>
+                            vval, vx_, vc, vb_d, vx_d, vp_d, vc_, vcls, vrl_d, 
+                            va_d, vb_de, vx_de, vdels, vdocs, vf_, vp_de, 
+                            vtodo, vkeepl, vmarked, ve, vp_p, vf_p, vver, vp_g, 
+                            vf_g, vx_g, vp_del, vf, vx_del, vp_delm, vp, vc_r, 
+                            vrl, va, vb, vx >>
 
 c3(self) == /\ pc[self] = "c3"
             /\ IF ~cref[vc_t[self]].has
@@ -889,8 +906,8 @@ c3(self) == /\ pc[self] = "c3"
                        /\ vout' = vout
             /\ UNCHANGED << obj, pref, cref, doc, mark, keep, locked, waitq, 
                             woken, result, rdata, stack, vtb_, vid_, vtb, vid, 
-                            vp_, vc_t, va_, vb_, vmade, vrp, vp_s, vc_s, vx_, 
-                            vc, vb_d, vx_d, vp_d, vc_, vcls, vrl_d, va_d, 
+                            vp_, vc_t, va_, vb_, vmade, vrp, vp_s, vc_s, vval, 
+                            vx_, vc, vb_d, vx_d, vp_d, vc_, vcls, vrl_d, va_d, 
                             vb_de, vx_de, vdels, vdocs, vf_, vp_de, vtodo, 
                             vkeepl, vmarked, ve, vp_p, vf_p, vver, vp_g, vf_g, 
                             vx_g, vp_del, vf, vx_del, vp_delm, vp, vc_r, vrl, 
@@ -909,8 +926,8 @@ c4(self) == /\ pc[self] = "c4"
                        /\ UNCHANGED << ev, vb_, vout >>
             /\ UNCHANGED << obj, pref, cref, doc, mark, keep, locked, waitq, 
                             woken, result, rdata, stack, vtb_, vid_, vtb, vid, 
-                            vp_, vc_t, va_, vmade, vrp, vrl_, vp_s, vc_s, vx_, 
-                            vc, vb_d, vx_d, vp_d, vc_, vcls, vrl_d, va_d, 
+                            vp_, vc_t, va_, vmade, vrp, vrl_, vp_s, vc_s, vval, 
+                            vx_, vc, vb_d, vx_d, vp_d, vc_, vcls, vrl_d, va_d, 
                             vb_de, vx_de, vdels, vdocs, vf_, vp_de, vtodo, 
                             vkeepl, vmarked, ve, vp_p, vf_p, vver, vp_g, vf_g, 
                             vx_g, vp_del, vf, vx_del, vp_delm, vp, vc_r, vrl, 
@@ -928,8 +945,8 @@ c5(self) == /\ pc[self] = "c5"
                        /\ vout' = vout
             /\ UNCHANGED << obj, pref, cref, doc, mark, keep, locked, waitq, 
                             woken, result, rdata, stack, vtb_, vid_, vtb, vid, 
-                            vp_, vc_t, va_, vb_, vmade, vrp, vp_s, vc_s, vx_, 
-                            vc, vb_d, vx_d, vp_d, vc_, vcls, vrl_d, va_d, 
+                            vp_, vc_t, va_, vb_, vmade, vrp, vp_s, vc_s, vval, 
+                            vx_, vc, vb_d, vx_d, vp_d, vc_, vcls, vrl_d, va_d, 
                             vb_de, vx_de, vdels, vdocs, vf_, vp_de, vtodo, 
                             vkeepl, vmarked, ve, vp_p, vf_p, vver, vp_g, vf_g, 
                             vx_g, vp_del, vf, vx_del, vp_delm, vp, vc_r, vrl, 
@@ -950,8 +967,8 @@ c6(self) == /\ pc[self] = "c6"
                        /\ UNCHANGED << cref, ev, vout >>
             /\ UNCHANGED << obj, pref, doc, mark, keep, locked, waitq, woken, 
                             result, rdata, stack, vtb_, vid_, vtb, vid, vp_, 
-                            vc_t, va_, vb_, vmade, vrp, vrl_, vp_s, vc_s, vx_, 
-                            vc, vb_d, vx_d, vp_d, vc_, vcls, vrl_d, va_d, 
+                            vc_t, va_, vb_, vmade, vrp, vrl_, vp_s, vc_s, vval, 
+                            vx_, vc, vb_d, vx_d, vp_d, vc_, vcls, vrl_d, va_d, 
                             vb_de, vx_de, vdels, vdocs, vf_, vp_de, vtodo, 
                             vkeepl, vmarked, ve, vp_p, vf_p, vver, vp_g, vf_g, 
                             vx_g, vp_del, vf, vx_del, vp_delm, vp, vc_r, vrl, 
@@ -962,8 +979,8 @@ c7(self) == /\ pc[self] = "c7"
             /\ UNCHANGED << obj, pref, cref, doc, mark, keep, locked, waitq, 
                             woken, ev, result, rdata, stack, vtb_, vid_, vtb, 
                             vid, vp_, vc_t, va_, vb_, vout, vmade, vrp, vrl_, 
-                            vp_s, vc_s, vx_, vc, vb_d, vx_d, vp_d, vc_, vcls, 
-                            vrl_d, va_d, vb_de, vx_de, vdels, vdocs, vf_, 
+                            vp_s, vc_s, vval, vx_, vc, vb_d, vx_d, vp_d, vc_, 
+                            vcls, vrl_d, va_d, vb_de, vx_de, vdels, vdocs, vf_, 
                             vp_de, vtodo, vkeepl, vmarked, ve, vp_p, vf_p, 
                             vver, vp_g, vf_g, vx_g, vp_del, vf, vx_del, 
                             vp_delm, vp, vc_r, vrl, va, vb, vx >>
@@ -974,7 +991,7 @@ both(self) == /\ pc[self] = "both"
               /\ UNCHANGED << obj, pref, cref, doc, mark, keep, locked, waitq, 
                               woken, ev, result, rdata, stack, vtb_, vid_, vtb, 
                               vid, vp_, vc_t, va_, vb_, vmade, vrp, vrl_, vp_s, 
-                              vc_s, vx_, vc, vb_d, vx_d, vp_d, vc_, vcls, 
+                              vc_s, vval, vx_, vc, vb_d, vx_d, vp_d, vc_, vcls, 
                               vrl_d, va_d, vb_de, vx_de, vdels, vdocs, vf_, 
                               vp_de, vtodo, vkeepl, vmarked, ve, vp_p, vf_p, 
                               vver, vp_g, vf_g, vx_g, vp_del, vf, vx_del, 
@@ -994,10 +1011,10 @@ verify(self) == /\ pc[self] = "verify"
                 /\ UNCHANGED << obj, pref, cref, doc, mark, keep, locked, 
                                 waitq, woken, result, rdata, stack, vtb_, vid_, 
                                 vtb, vid, vp_, vc_t, vb_, vmade, vrp, vrl_, 
-                                vp_s, vc_s, vx_, vc, vb_d, vx_d, vp_d, vc_, 
-                                vcls, vrl_d, va_d, vb_de, vx_de, vdels, vdocs, 
-                                vf_, vp_de, vtodo, vkeepl, vmarked, ve, vp_p, 
-                                vf_p, vver, vp_g, vf_g, vx_g, vp_del, vf, 
+                                vp_s, vc_s, vval, vx_, vc, vb_d, vx_d, vp_d, 
+                                vc_, vcls, vrl_d, va_d, vb_de, vx_de, vdels, 
+                                vdocs, vf_, vp_de, vtodo, vkeepl, vmarked, ve, 
+                                vp_p, vf_p, vver, vp_g, vf_g, vx_g, vp_del, vf, 
                                 vx_del, vp_delm, vp, vc_r, vrl, va, vb, vx >>
 
 v2(self) == /\ pc[self] = "v2"
@@ -1013,8 +1030,8 @@ v2(self) == /\ pc[self] = "v2"
                        /\ vout' = vout
             /\ UNCHANGED << obj, pref, cref, doc, mark, keep, locked, waitq, 
                             woken, result, rdata, stack, vtb_, vid_, vtb, vid, 
-                            vp_, vc_t, va_, vmade, vrp, vrl_, vp_s, vc_s, vx_, 
-                            vc, vb_d, vx_d, vp_d, vc_, vcls, vrl_d, va_d, 
+                            vp_, vc_t, va_, vmade, vrp, vrl_, vp_s, vc_s, vval, 
+                            vx_, vc, vb_d, vx_d, vp_d, vc_, vcls, vrl_d, va_d, 
                             vb_de, vx_de, vdels, vdocs, vf_, vp_de, vtodo, 
                             vkeepl, vmarked, ve, vp_p, vf_p, vver, vp_g, vf_g, 
                             vx_g, vp_del, vf, vx_del, vp_delm, vp, vc_r, vrl, 
@@ -1035,8 +1052,8 @@ v3(self) == /\ pc[self] = "v3"
                        /\ vout' = vout
             /\ UNCHANGED << obj, pref, cref, doc, mark, keep, locked, waitq, 
                             woken, result, rdata, stack, vtb_, vid_, vtb, vid, 
-                            vp_, vc_t, va_, vb_, vmade, vrl_, vp_s, vc_s, vx_, 
-                            vc, vb_d, vx_d, vp_d, vc_, vcls, vrl_d, va_d, 
+                            vp_, vc_t, va_, vb_, vmade, vrl_, vp_s, vc_s, vval, 
+                            vx_, vc, vb_d, vx_d, vp_d, vc_, vcls, vrl_d, va_d, 
                             vb_de, vx_de, vdels, vdocs, vf_, vp_de, vtodo, 
                             vkeepl, vmarked, ve, vp_p, vf_p, vver, vp_g, vf_g, 
                             vx_g, vp_del, vf, vx_del, vp_delm, vp, vc_r, vrl, 
@@ -1054,11 +1071,11 @@ v3b(self) == /\ pc[self] = "v3b"
              /\ UNCHANGED << obj, pref, cref, doc, mark, keep, locked, waitq, 
                              woken, ev, result, rdata, stack, vtb_, vid_, vtb, 
                              vid, vp_, vc_t, va_, vb_, vmade, vrp, vrl_, vp_s, 
-                             vc_s, vx_, vc, vb_d, vx_d, vp_d, vc_, vcls, vrl_d, 
-                             va_d, vb_de, vx_de, vdels, vdocs, vf_, vp_de, 
-                             vtodo, vkeepl, vmarked, ve, vp_p, vf_p, vver, 
-                             vp_g, vf_g, vx_g, vp_del, vf, vx_del, vp_delm, vp, 
-                             vc_r, vrl, va, vb, vx >>
+                             vc_s, vval, vx_, vc, vb_d, vx_d, vp_d, vc_, vcls, 
+                             vrl_d, va_d, vb_de, vx_de, vdels, vdocs, vf_, 
+                             vp_de, vtodo, vkeepl, vmarked, ve, vp_p, vf_p, 
+                             vver, vp_g, vf_g, vx_g, vp_del, vf, vx_del, 
+                             vp_delm, vp, vc_r, vrl, va, vb, vx >>
 
 v4(self) == /\ pc[self] = "v4"
             /\ IF ~cref[vc_t[self]].has
@@ -1075,8 +1092,8 @@ v4(self) == /\ pc[self] = "v4"
                        /\ vout' = vout
             /\ UNCHANGED << obj, pref, cref, doc, mark, keep, locked, waitq, 
                             woken, result, rdata, stack, vtb_, vid_, vtb, vid, 
-                            vp_, vc_t, va_, vb_, vmade, vrp, vp_s, vc_s, vx_, 
-                            vc, vb_d, vx_d, vp_d, vc_, vcls, vrl_d, va_d, 
+                            vp_, vc_t, va_, vb_, vmade, vrp, vp_s, vc_s, vval, 
+                            vx_, vc, vb_d, vx_d, vp_d, vc_, vcls, vrl_d, va_d, 
                             vb_de, vx_de, vdels, vdocs, vf_, vp_de, vtodo, 
                             vkeepl, vmarked, ve, vp_p, vf_p, vver, vp_g, vf_g, 
                             vx_g, vp_del, vf, vx_del, vp_delm, vp, vc_r, vrl, 
@@ -1091,19 +1108,19 @@ v4b(self) == /\ pc[self] = "v4b"
              /\ UNCHANGED << obj, pref, cref, doc, mark, keep, locked, waitq, 
                              woken, ev, result, rdata, stack, vtb_, vid_, vtb, 
                              vid, vp_, vc_t, va_, vb_, vmade, vrp, vrl_, vp_s, 
-                             vc_s, vx_, vc, vb_d, vx_d, vp_d, vc_, vcls, vrl_d, 
-                             va_d, vb_de, vx_de, vdels, vdocs, vf_, vp_de, 
-                             vtodo, vkeepl, vmarked, ve, vp_p, vf_p, vver, 
-                             vp_g, vf_g, vx_g, vp_del, vf, vx_del, vp_delm, vp, 
-                             vc_r, vrl, va, vb, vx >>
+                             vc_s, vval, vx_, vc, vb_d, vx_d, vp_d, vc_, vcls, 
+                             vrl_d, va_d, vb_de, vx_de, vdels, vdocs, vf_, 
+                             vp_de, vtodo, vkeepl, vmarked, ve, vp_p, vf_p, 
+                             vver, vp_g, vf_g, vx_g, vp_del, vf, vx_del, 
+                             vp_delm, vp, vc_r, vrl, va, vb, vx >>
 
 v5(self) == /\ pc[self] = "v5"
             /\ pc' = [pc EXCEPT ![self] = "tgfin"]
             /\ UNCHANGED << obj, pref, cref, doc, mark, keep, locked, waitq, 
                             woken, ev, result, rdata, stack, vtb_, vid_, vtb, 
                             vid, vp_, vc_t, va_, vb_, vout, vmade, vrp, vrl_, 
-                            vp_s, vc_s, vx_, vc, vb_d, vx_d, vp_d, vc_, vcls, 
-                            vrl_d, va_d, vb_de, vx_de, vdels, vdocs, vf_, 
+                            vp_s, vc_s, vval, vx_, vc, vb_d, vx_d, vp_d, vc_, 
+                            vcls, vrl_d, va_d, vb_de, vx_de, vdels, vdocs, vf_, 
                             vp_de, vtodo, vkeepl, vmarked, ve, vp_p, vf_p, 
                             vver, vp_g, vf_g, vx_g, vp_del, vf, vx_del, 
                             vp_delm, vp, vc_r, vrl, va, vb, vx >>
@@ -1118,11 +1135,12 @@ untag(self) == /\ pc[self] = "untag"
                /\ UNCHANGED << obj, cref, doc, mark, keep, locked, waitq, 
                                woken, result, rdata, stack, vtb_, vid_, vtb, 
                                vid, vp_, vc_t, va_, vb_, vout, vmade, vrp, 
-                               vrl_, vp_s, vc_s, vx_, vc, vb_d, vx_d, vp_d, 
-                               vc_, vcls, vrl_d, va_d, vb_de, vx_de, vdels, 
-                               vdocs, vf_, vp_de, vtodo, vkeepl, vmarked, ve, 
-                               vp_p, vf_p, vver, vp_g, vf_g, vx_g, vp_del, vf, 
-                               vx_del, vp_delm, vp, vc_r, vrl, va, vb, vx >>
+                               vrl_, vp_s, vc_s, vval, vx_, vc, vb_d, vx_d, 
+                               vp_d, vc_, vcls, vrl_d, va_d, vb_de, vx_de, 
+                               vdels, vdocs, vf_, vp_de, vtodo, vkeepl, 
+                               vmarked, ve, vp_p, vf_p, vver, vp_g, vf_g, vx_g, 
+                               vp_del, vf, vx_del, vp_delm, vp, vc_r, vrl, va, 
+                               vb, vx >>
 
 u2(self) == /\ pc[self] = "u2"
             /\ IF vmade[self] /\ cref[vc_t[self]].has /\ InSeq(vp_[self], cref[vc_t[self]].pids)
@@ -1134,11 +1152,11 @@ u2(self) == /\ pc[self] = "u2"
             /\ UNCHANGED << obj, pref, doc, mark, keep, locked, waitq, woken, 
                             result, rdata, stack, vtb_, vid_, vtb, vid, vp_, 
                             vc_t, va_, vb_, vout, vmade, vrp, vrl_, vp_s, vc_s, 
-                            vx_, vc, vb_d, vx_d, vp_d, vc_, vcls, vrl_d, va_d, 
-                            vb_de, vx_de, vdels, vdocs, vf_, vp_de, vtodo, 
-                            vkeepl, vmarked, ve, vp_p, vf_p, vver, vp_g, vf_g, 
-                            vx_g, vp_del, vf, vx_del, vp_delm, vp, vc_r, vrl, 
-                            va, vb, vx >>
+                            vval, vx_, vc, vb_d, vx_d, vp_d, vc_, vcls, vrl_d, 
+                            va_d, vb_de, vx_de, vdels, vdocs, vf_, vp_de, 
+                            vtodo, vkeepl, vmarked, ve, vp_p, vf_p, vver, vp_g, 
+                            vf_g, vx_g, vp_del, vf, vx_del, vp_delm, vp, vc_r, 
+                            vrl, va, vb, vx >>
 
 tgfin(self) == /\ pc[self] = "tgfin"
                /\ /\ stack' = [stack EXCEPT ![self] = << [ procedure |->  "release",
@@ -1152,11 +1170,11 @@ tgfin(self) == /\ pc[self] = "tgfin"
                /\ UNCHANGED << obj, pref, cref, doc, mark, keep, locked, waitq, 
                                woken, ev, result, rdata, vtb_, vid_, vp_, vc_t, 
                                va_, vb_, vout, vmade, vrp, vrl_, vp_s, vc_s, 
-                               vx_, vc, vb_d, vx_d, vp_d, vc_, vcls, vrl_d, 
-                               va_d, vb_de, vx_de, vdels, vdocs, vf_, vp_de, 
-                               vtodo, vkeepl, vmarked, ve, vp_p, vf_p, vver, 
-                               vp_g, vf_g, vx_g, vp_del, vf, vx_del, vp_delm, 
-                               vp, vc_r, vrl, va, vb, vx >>
+                               vval, vx_, vc, vb_d, vx_d, vp_d, vc_, vcls, 
+                               vrl_d, va_d, vb_de, vx_de, vdels, vdocs, vf_, 
+                               vp_de, vtodo, vkeepl, vmarked, ve, vp_p, vf_p, 
+                               vver, vp_g, vf_g, vx_g, vp_del, vf, vx_del, 
+                               vp_delm, vp, vc_r, vrl, va, vb, vx >>
 
 tg9(self) == /\ pc[self] = "tg9"
              /\ /\ stack' = [stack EXCEPT ![self] = << [ procedure |->  "release",
@@ -1169,12 +1187,12 @@ tg9(self) == /\ pc[self] = "tg9"
              /\ pc' = [pc EXCEPT ![self] = "rl1"]
              /\ UNCHANGED << obj, pref, cref, doc, mark, keep, locked, waitq, 
                              woken, ev, result, rdata, vtb_, vid_, vp_, vc_t, 
-                             va_, vb_, vout, vmade, vrp, vrl_, vp_s, vc_s, vx_, 
-                             vc, vb_d, vx_d, vp_d, vc_, vcls, vrl_d, va_d, 
-                             vb_de, vx_de, vdels, vdocs, vf_, vp_de, vtodo, 
-                             vkeepl, vmarked, ve, vp_p, vf_p, vver, vp_g, vf_g, 
-                             vx_g, vp_del, vf, vx_del, vp_delm, vp, vc_r, vrl, 
-                             va, vb, vx >>
+                             va_, vb_, vout, vmade, vrp, vrl_, vp_s, vc_s, 
+                             vval, vx_, vc, vb_d, vx_d, vp_d, vc_, vcls, vrl_d, 
+                             va_d, vb_de, vx_de, vdels, vdocs, vf_, vp_de, 
+                             vtodo, vkeepl, vmarked, ve, vp_p, vf_p, vver, 
+                             vp_g, vf_g, vx_g, vp_del, vf, vx_del, vp_delm, vp, 
+                             vc_r, vrl, va, vb, vx >>
 
 tg10(self) == /\ pc[self] = "tg10"
               /\ result' = [result EXCEPT ![self] = vout[self]]
@@ -1193,12 +1211,12 @@ tg10(self) == /\ pc[self] = "tg10"
               /\ vc_t' = [vc_t EXCEPT ![self] = Head(stack[self]).vc_t]
               /\ stack' = [stack EXCEPT ![self] = Tail(stack[self])]
               /\ UNCHANGED << obj, pref, cref, doc, mark, keep, locked, waitq, 
-                              woken, ev, vtb_, vid_, vtb, vid, vp_s, vc_s, vx_, 
-                              vc, vb_d, vx_d, vp_d, vc_, vcls, vrl_d, va_d, 
-                              vb_de, vx_de, vdels, vdocs, vf_, vp_de, vtodo, 
-                              vkeepl, vmarked, ve, vp_p, vf_p, vver, vp_g, 
-                              vf_g, vx_g, vp_del, vf, vx_del, vp_delm, vp, 
-                              vc_r, vrl, va, vb, vx >>
+                              woken, ev, vtb_, vid_, vtb, vid, vp_s, vc_s, 
+                              vval, vx_, vc, vb_d, vx_d, vp_d, vc_, vcls, 
+                              vrl_d, va_d, vb_de, vx_de, vdels, vdocs, vf_, 
+                              vp_de, vtodo, vkeepl, vmarked, ve, vp_p, vf_p, 
+                              vver, vp_g, vf_g, vx_g, vp_del, vf, vx_del, 
+                              vp_delm, vp, vc_r, vrl, va, vb, vx >>
 
 tag(self) == tg1(self) \/ tg2(self) \/ e1a(self) \/ e1b(self) \/ e2a(self)
                 \/ e2b(self) \/ e3a(self) \/ e3b(self) \/ n1(self)
@@ -1218,12 +1236,14 @@ st1(self) == /\ pc[self] = "st1"
                                    /\ vx_' = [vx_ EXCEPT ![self] = Head(stack[self]).vx_]
                                    /\ vp_s' = [vp_s EXCEPT ![self] = Head(stack[self]).vp_s]
                                    /\ vc_s' = [vc_s EXCEPT ![self] = Head(stack[self]).vc_s]
+                                   /\ vval' = [vval EXCEPT ![self] = Head(stack[self]).vval]
                                    /\ stack' = [stack EXCEPT ![self] = Tail(stack[self])]
                               ELSE /\ pc' = [pc EXCEPT ![self] = "st2"]
                                    /\ UNCHANGED << result, stack, vp_s, vc_s, 
-                                                   vx_ >>
+                                                   vval, vx_ >>
                    ELSE /\ pc' = [pc EXCEPT ![self] = "st3"]
-                        /\ UNCHANGED << ev, result, stack, vp_s, vc_s, vx_ >>
+                        /\ UNCHANGED << ev, result, stack, vp_s, vc_s, vval, 
+                                        vx_ >>
              /\ UNCHANGED << obj, pref, cref, doc, mark, keep, locked, waitq, 
                              woken, rdata, vtb_, vid_, vtb, vid, vp_, vc_t, 
                              va_, vb_, vout, vmade, vrp, vrl_, vc, vb_d, vx_d, 
@@ -1243,27 +1263,42 @@ st2(self) == /\ pc[self] = "st2"
              /\ pc' = [pc EXCEPT ![self] = "cl1"]
              /\ UNCHANGED << obj, pref, cref, doc, mark, keep, locked, waitq, 
                              woken, ev, result, rdata, vtb, vid, vp_, vc_t, 
-                             va_, vb_, vout, vmade, vrp, vrl_, vp_s, vc_s, vx_, 
-                             vc, vb_d, vx_d, vp_d, vc_, vcls, vrl_d, va_d, 
-                             vb_de, vx_de, vdels, vdocs, vf_, vp_de, vtodo, 
-                             vkeepl, vmarked, ve, vp_p, vf_p, vver, vp_g, vf_g, 
-                             vx_g, vp_del, vf, vx_del, vp_delm, vp, vc_r, vrl, 
-                             va, vb, vx >>
-
-st3(self) == /\ pc[self] = "st3"
-             /\ vx_' = [vx_ EXCEPT ![self] = obj[vc_s[self]] = "ok"]
-             /\ ev' = Ev(self, "stat", P("obj", vc_s[self]), NoPath, FN(vx_'[self]))
-             /\ IF ~vx_'[self]
-                   THEN /\ pc' = [pc EXCEPT ![self] = "st4"]
-                   ELSE /\ pc' = [pc EXCEPT ![self] = "st6"]
-             /\ UNCHANGED << obj, pref, cref, doc, mark, keep, locked, waitq, 
-                             woken, result, rdata, stack, vtb_, vid_, vtb, vid, 
-                             vp_, vc_t, va_, vb_, vout, vmade, vrp, vrl_, vp_s, 
-                             vc_s, vc, vb_d, vx_d, vp_d, vc_, vcls, vrl_d, 
+                             va_, vb_, vout, vmade, vrp, vrl_, vp_s, vc_s, 
+                             vval, vx_, vc, vb_d, vx_d, vp_d, vc_, vcls, vrl_d, 
                              va_d, vb_de, vx_de, vdels, vdocs, vf_, vp_de, 
                              vtodo, vkeepl, vmarked, ve, vp_p, vf_p, vver, 
                              vp_g, vf_g, vx_g, vp_del, vf, vx_del, vp_delm, vp, 
                              vc_r, vrl, va, vb, vx >>
+
+st3(self) == /\ pc[self] = "st3"
+             /\ vx_' = [vx_ EXCEPT ![self] = obj[vc_s[self]] = "ok"]
+             /\ ev' = Ev(self, "stat", P("obj", vc_s[self]), NoPath, FN(vx_'[self]))
+             /\ IF vval[self] \in {"badsum", "badsize"}
+                   THEN /\ result' = [result EXCEPT ![self] = vval[self]]
+                        /\ pc' = [pc EXCEPT ![self] = "st7"]
+                   ELSE /\ pc' = [pc EXCEPT ![self] = "st3b"]
+                        /\ UNCHANGED result
+             /\ UNCHANGED << obj, pref, cref, doc, mark, keep, locked, waitq, 
+                             woken, rdata, stack, vtb_, vid_, vtb, vid, vp_, 
+                             vc_t, va_, vb_, vout, vmade, vrp, vrl_, vp_s, 
+                             vc_s, vval, vc, vb_d, vx_d, vp_d, vc_, vcls, 
+                             vrl_d, va_d, vb_de, vx_de, vdels, vdocs, vf_, 
+                             vp_de, vtodo, vkeepl, vmarked, ve, vp_p, vf_p, 
+                             vver, vp_g, vf_g, vx_g, vp_del, vf, vx_del, 
+                             vp_delm, vp, vc_r, vrl, va, vb, vx >>
+
+st3b(self) == /\ pc[self] = "st3b"
+              /\ IF ~vx_[self]
+                    THEN /\ pc' = [pc EXCEPT ![self] = "st4"]
+                    ELSE /\ pc' = [pc EXCEPT ![self] = "st6"]
+              /\ UNCHANGED << obj, pref, cref, doc, mark, keep, locked, waitq, 
+                              woken, ev, result, rdata, stack, vtb_, vid_, vtb, 
+                              vid, vp_, vc_t, va_, vb_, vout, vmade, vrp, vrl_, 
+                              vp_s, vc_s, vval, vx_, vc, vb_d, vx_d, vp_d, vc_, 
+                              vcls, vrl_d, va_d, vb_de, vx_de, vdels, vdocs, 
+                              vf_, vp_de, vtodo, vkeepl, vmarked, ve, vp_p, 
+                              vf_p, vver, vp_g, vf_g, vx_g, vp_del, vf, vx_del, 
+                              vp_delm, vp, vc_r, vrl, va, vb, vx >>
 
 st4(self) == /\ pc[self] = "st4"
              /\ ev' = Ev(self, "stat", P("obj", vc_s[self]), NoPath, FN(obj[vc_s[self]] = "ok"))
@@ -1271,11 +1306,11 @@ st4(self) == /\ pc[self] = "st4"
              /\ UNCHANGED << obj, pref, cref, doc, mark, keep, locked, waitq, 
                              woken, result, rdata, stack, vtb_, vid_, vtb, vid, 
                              vp_, vc_t, va_, vb_, vout, vmade, vrp, vrl_, vp_s, 
-                             vc_s, vx_, vc, vb_d, vx_d, vp_d, vc_, vcls, vrl_d, 
-                             va_d, vb_de, vx_de, vdels, vdocs, vf_, vp_de, 
-                             vtodo, vkeepl, vmarked, ve, vp_p, vf_p, vver, 
-                             vp_g, vf_g, vx_g, vp_del, vf, vx_del, vp_delm, vp, 
-                             vc_r, vrl, va, vb, vx >>
+                             vc_s, vval, vx_, vc, vb_d, vx_d, vp_d, vc_, vcls, 
+                             vrl_d, va_d, vb_de, vx_de, vdels, vdocs, vf_, 
+                             vp_de, vtodo, vkeepl, vmarked, ve, vp_p, vf_p, 
+                             vver, vp_g, vf_g, vx_g, vp_del, vf, vx_del, 
+                             vp_delm, vp, vc_r, vrl, va, vb, vx >>
 
 st5(self) == /\ pc[self] = "st5"
              /\ obj' = [obj EXCEPT ![vc_s[self]] = "ok"]
@@ -1284,11 +1319,11 @@ st5(self) == /\ pc[self] = "st5"
              /\ UNCHANGED << pref, cref, doc, mark, keep, locked, waitq, woken, 
                              result, rdata, stack, vtb_, vid_, vtb, vid, vp_, 
                              vc_t, va_, vb_, vout, vmade, vrp, vrl_, vp_s, 
-                             vc_s, vx_, vc, vb_d, vx_d, vp_d, vc_, vcls, vrl_d, 
-                             va_d, vb_de, vx_de, vdels, vdocs, vf_, vp_de, 
-                             vtodo, vkeepl, vmarked, ve, vp_p, vf_p, vver, 
-                             vp_g, vf_g, vx_g, vp_del, vf, vx_del, vp_delm, vp, 
-                             vc_r, vrl, va, vb, vx >>
+                             vc_s, vval, vx_, vc, vb_d, vx_d, vp_d, vc_, vcls, 
+                             vrl_d, va_d, vb_de, vx_de, vdels, vdocs, vf_, 
+                             vp_de, vtodo, vkeepl, vmarked, ve, vp_p, vf_p, 
+                             vver, vp_g, vf_g, vx_g, vp_del, vf, vx_del, 
+                             vp_delm, vp, vc_r, vrl, va, vb, vx >>
 
 st6(self) == /\ pc[self] = "st6"
              /\ IF vp_s[self] = "-"
@@ -1298,11 +1333,12 @@ st6(self) == /\ pc[self] = "st6"
                         /\ vx_' = [vx_ EXCEPT ![self] = Head(stack[self]).vx_]
                         /\ vp_s' = [vp_s EXCEPT ![self] = Head(stack[self]).vp_s]
                         /\ vc_s' = [vc_s EXCEPT ![self] = Head(stack[self]).vc_s]
+                        /\ vval' = [vval EXCEPT ![self] = Head(stack[self]).vval]
                         /\ stack' = [stack EXCEPT ![self] = Tail(stack[self])]
                         /\ UNCHANGED << vp_, vc_t, va_, vb_, vout, vmade, vrp, 
                                         vrl_ >>
                    ELSE /\ /\ stack' = [stack EXCEPT ![self] = << [ procedure |->  "tag",
-                                                                    pc        |->  "st7",
+                                                                    pc        |->  "st6b",
                                                                     va_       |->  va_[self],
                                                                     vb_       |->  vb_[self],
                                                                     vout      |->  vout[self],
@@ -1321,13 +1357,83 @@ st6(self) == /\ pc[self] = "st6"
                         /\ vrp' = [vrp EXCEPT ![self] = None]
                         /\ vrl_' = [vrl_ EXCEPT ![self] = <<>>]
                         /\ pc' = [pc EXCEPT ![self] = "tg1"]
-                        /\ UNCHANGED << result, rdata, vp_s, vc_s, vx_ >>
+                        /\ UNCHANGED << result, rdata, vp_s, vc_s, vval, vx_ >>
              /\ UNCHANGED << obj, pref, cref, doc, mark, keep, locked, waitq, 
                              woken, ev, vtb_, vid_, vtb, vid, vc, vb_d, vx_d, 
                              vp_d, vc_, vcls, vrl_d, va_d, vb_de, vx_de, vdels, 
                              vdocs, vf_, vp_de, vtodo, vkeepl, vmarked, ve, 
                              vp_p, vf_p, vver, vp_g, vf_g, vx_g, vp_del, vf, 
                              vx_del, vp_delm, vp, vc_r, vrl, va, vb, vx >>
+
+st6b(self) == /\ pc[self] = "st6b"
+              /\ IF result[self] = "ok"
+                    THEN /\ vx_' = [vx_ EXCEPT ![self] = obj[vc_s[self]] = "ok"]
+                         /\ ev' = Ev(self, "stat", P("obj", vc_s[self]), NoPath, FN(vx_'[self]))
+                         /\ IF ~vx_'[self]
+                               THEN /\ pc' = [pc EXCEPT ![self] = "st6c"]
+                               ELSE /\ pc' = [pc EXCEPT ![self] = "st7"]
+                    ELSE /\ pc' = [pc EXCEPT ![self] = "st7"]
+                         /\ UNCHANGED << ev, vx_ >>
+              /\ UNCHANGED << obj, pref, cref, doc, mark, keep, locked, waitq, 
+                              woken, result, rdata, stack, vtb_, vid_, vtb, 
+                              vid, vp_, vc_t, va_, vb_, vout, vmade, vrp, vrl_, 
+                              vp_s, vc_s, vval, vc, vb_d, vx_d, vp_d, vc_, 
+                              vcls, vrl_d, va_d, vb_de, vx_de, vdels, vdocs, 
+                              vf_, vp_de, vtodo, vkeepl, vmarked, ve, vp_p, 
+                              vf_p, vver, vp_g, vf_g, vx_g, vp_del, vf, vx_del, 
+                              vp_delm, vp, vc_r, vrl, va, vb, vx >>
+
+st6c(self) == /\ pc[self] = "st6c"
+              /\ ev' = Ev(self, "stat", P("obj", vc_s[self]), NoPath, FN(obj[vc_s[self]] = "ok"))
+              /\ pc' = [pc EXCEPT ![self] = "st6d"]
+              /\ UNCHANGED << obj, pref, cref, doc, mark, keep, locked, waitq, 
+                              woken, result, rdata, stack, vtb_, vid_, vtb, 
+                              vid, vp_, vc_t, va_, vb_, vout, vmade, vrp, vrl_, 
+                              vp_s, vc_s, vval, vx_, vc, vb_d, vx_d, vp_d, vc_, 
+                              vcls, vrl_d, va_d, vb_de, vx_de, vdels, vdocs, 
+                              vf_, vp_de, vtodo, vkeepl, vmarked, ve, vp_p, 
+                              vf_p, vver, vp_g, vf_g, vx_g, vp_del, vf, vx_del, 
+                              vp_delm, vp, vc_r, vrl, va, vb, vx >>
+
+st6d(self) == /\ pc[self] = "st6d"
+              /\ vx_' = [vx_ EXCEPT ![self] = obj[vc_s[self]] = "ok"]
+              /\ ev' = Ev(self, "stat", P("obj", vc_s[self]), NoPath, FN(vx_'[self]))
+              /\ IF ~vx_'[self]
+                    THEN /\ pc' = [pc EXCEPT ![self] = "st6e"]
+                    ELSE /\ pc' = [pc EXCEPT ![self] = "st7"]
+              /\ UNCHANGED << obj, pref, cref, doc, mark, keep, locked, waitq, 
+                              woken, result, rdata, stack, vtb_, vid_, vtb, 
+                              vid, vp_, vc_t, va_, vb_, vout, vmade, vrp, vrl_, 
+                              vp_s, vc_s, vval, vc, vb_d, vx_d, vp_d, vc_, 
+                              vcls, vrl_d, va_d, vb_de, vx_de, vdels, vdocs, 
+                              vf_, vp_de, vtodo, vkeepl, vmarked, ve, vp_p, 
+                              vf_p, vver, vp_g, vf_g, vx_g, vp_del, vf, vx_del, 
+                              vp_delm, vp, vc_r, vrl, va, vb, vx >>
+
+st6e(self) == /\ pc[self] = "st6e"
+              /\ ev' = Ev(self, "stat", P("obj", vc_s[self]), NoPath, FN(obj[vc_s[self]] = "ok"))
+              /\ pc' = [pc EXCEPT ![self] = "st6f"]
+              /\ UNCHANGED << obj, pref, cref, doc, mark, keep, locked, waitq, 
+                              woken, result, rdata, stack, vtb_, vid_, vtb, 
+                              vid, vp_, vc_t, va_, vb_, vout, vmade, vrp, vrl_, 
+                              vp_s, vc_s, vval, vx_, vc, vb_d, vx_d, vp_d, vc_, 
+                              vcls, vrl_d, va_d, vb_de, vx_de, vdels, vdocs, 
+                              vf_, vp_de, vtodo, vkeepl, vmarked, ve, vp_p, 
+                              vf_p, vver, vp_g, vf_g, vx_g, vp_del, vf, vx_del, 
+                              vp_delm, vp, vc_r, vrl, va, vb, vx >>
+
+st6f(self) == /\ pc[self] = "st6f"
+              /\ obj' = [obj EXCEPT ![vc_s[self]] = "ok"]
+              /\ ev' = Ev(self, "rename", P("tmp", "objects"), P("obj", vc_s[self]), "ok")
+              /\ pc' = [pc EXCEPT ![self] = "st7"]
+              /\ UNCHANGED << pref, cref, doc, mark, keep, locked, waitq, 
+                              woken, result, rdata, stack, vtb_, vid_, vtb, 
+                              vid, vp_, vc_t, va_, vb_, vout, vmade, vrp, vrl_, 
+                              vp_s, vc_s, vval, vx_, vc, vb_d, vx_d, vp_d, vc_, 
+                              vcls, vrl_d, va_d, vb_de, vx_de, vdels, vdocs, 
+                              vf_, vp_de, vtodo, vkeepl, vmarked, ve, vp_p, 
+                              vf_p, vver, vp_g, vf_g, vx_g, vp_del, vf, vx_del, 
+                              vp_delm, vp, vc_r, vrl, va, vb, vx >>
 
 st7(self) == /\ pc[self] = "st7"
              /\ /\ stack' = [stack EXCEPT ![self] = << [ procedure |->  "release",
@@ -1340,18 +1446,19 @@ st7(self) == /\ pc[self] = "st7"
              /\ pc' = [pc EXCEPT ![self] = "rl1"]
              /\ UNCHANGED << obj, pref, cref, doc, mark, keep, locked, waitq, 
                              woken, ev, result, rdata, vtb_, vid_, vp_, vc_t, 
-                             va_, vb_, vout, vmade, vrp, vrl_, vp_s, vc_s, vx_, 
-                             vc, vb_d, vx_d, vp_d, vc_, vcls, vrl_d, va_d, 
-                             vb_de, vx_de, vdels, vdocs, vf_, vp_de, vtodo, 
-                             vkeepl, vmarked, ve, vp_p, vf_p, vver, vp_g, vf_g, 
-                             vx_g, vp_del, vf, vx_del, vp_delm, vp, vc_r, vrl, 
-                             va, vb, vx >>
+                             va_, vb_, vout, vmade, vrp, vrl_, vp_s, vc_s, 
+                             vval, vx_, vc, vb_d, vx_d, vp_d, vc_, vcls, vrl_d, 
+                             va_d, vb_de, vx_de, vdels, vdocs, vf_, vp_de, 
+                             vtodo, vkeepl, vmarked, ve, vp_p, vf_p, vver, 
+                             vp_g, vf_g, vx_g, vp_del, vf, vx_del, vp_delm, vp, 
+                             vc_r, vrl, va, vb, vx >>
 
 st8(self) == /\ pc[self] = "st8"
              /\ pc' = [pc EXCEPT ![self] = Head(stack[self]).pc]
              /\ vx_' = [vx_ EXCEPT ![self] = Head(stack[self]).vx_]
              /\ vp_s' = [vp_s EXCEPT ![self] = Head(stack[self]).vp_s]
              /\ vc_s' = [vc_s EXCEPT ![self] = Head(stack[self]).vc_s]
+             /\ vval' = [vval EXCEPT ![self] = Head(stack[self]).vval]
              /\ stack' = [stack EXCEPT ![self] = Tail(stack[self])]
              /\ UNCHANGED << obj, pref, cref, doc, mark, keep, locked, waitq, 
                              woken, ev, result, rdata, vtb_, vid_, vtb, vid, 
@@ -1362,8 +1469,10 @@ st8(self) == /\ pc[self] = "st8"
                              vp_del, vf, vx_del, vp_delm, vp, vc_r, vrl, va, 
                              vb, vx >>
 
-store(self) == st1(self) \/ st2(self) \/ st3(self) \/ st4(self)
-                  \/ st5(self) \/ st6(self) \/ st7(self) \/ st8(self)
+store(self) == st1(self) \/ st2(self) \/ st3(self) \/ st3b(self)
+                  \/ st4(self) \/ st5(self) \/ st6(self) \/ st6b(self)
+                  \/ st6c(self) \/ st6d(self) \/ st6e(self) \/ st6f(self)
+                  \/ st7(self) \/ st8(self)
 
 di1(self) == /\ pc[self] = "di1"
              /\ /\ stack' = [stack EXCEPT ![self] = << [ procedure |->  "claim",
@@ -1376,12 +1485,12 @@ di1(self) == /\ pc[self] = "di1"
              /\ pc' = [pc EXCEPT ![self] = "cl1"]
              /\ UNCHANGED << obj, pref, cref, doc, mark, keep, locked, waitq, 
                              woken, ev, result, rdata, vtb, vid, vp_, vc_t, 
-                             va_, vb_, vout, vmade, vrp, vrl_, vp_s, vc_s, vx_, 
-                             vc, vb_d, vx_d, vp_d, vc_, vcls, vrl_d, va_d, 
-                             vb_de, vx_de, vdels, vdocs, vf_, vp_de, vtodo, 
-                             vkeepl, vmarked, ve, vp_p, vf_p, vver, vp_g, vf_g, 
-                             vx_g, vp_del, vf, vx_del, vp_delm, vp, vc_r, vrl, 
-                             va, vb, vx >>
+                             va_, vb_, vout, vmade, vrp, vrl_, vp_s, vc_s, 
+                             vval, vx_, vc, vb_d, vx_d, vp_d, vc_, vcls, vrl_d, 
+                             va_d, vb_de, vx_de, vdels, vdocs, vf_, vp_de, 
+                             vtodo, vkeepl, vmarked, ve, vp_p, vf_p, vver, 
+                             vp_g, vf_g, vx_g, vp_del, vf, vx_del, vp_delm, vp, 
+                             vc_r, vrl, va, vb, vx >>
 
 di2(self) == /\ pc[self] = "di2"
              /\ vb_d' = [vb_d EXCEPT ![self] = cref[vc[self]].has]
@@ -1394,11 +1503,11 @@ di2(self) == /\ pc[self] = "di2"
              /\ UNCHANGED << obj, pref, cref, doc, mark, keep, locked, waitq, 
                              woken, rdata, stack, vtb_, vid_, vtb, vid, vp_, 
                              vc_t, va_, vb_, vout, vmade, vrp, vrl_, vp_s, 
-                             vc_s, vx_, vc, vx_d, vp_d, vc_, vcls, vrl_d, va_d, 
-                             vb_de, vx_de, vdels, vdocs, vf_, vp_de, vtodo, 
-                             vkeepl, vmarked, ve, vp_p, vf_p, vver, vp_g, vf_g, 
-                             vx_g, vp_del, vf, vx_del, vp_delm, vp, vc_r, vrl, 
-                             va, vb, vx >>
+                             vc_s, vval, vx_, vc, vx_d, vp_d, vc_, vcls, vrl_d, 
+                             va_d, vb_de, vx_de, vdels, vdocs, vf_, vp_de, 
+                             vtodo, vkeepl, vmarked, ve, vp_p, vf_p, vver, 
+                             vp_g, vf_g, vx_g, vp_del, vf, vx_del, vp_delm, vp, 
+                             vc_r, vrl, va, vb, vx >>
 
 di3(self) == /\ pc[self] = "di3"
              /\ vx_d' = [vx_d EXCEPT ![self] = obj[vc[self]] = "ok"]
@@ -1409,11 +1518,11 @@ di3(self) == /\ pc[self] = "di3"
              /\ UNCHANGED << obj, pref, cref, doc, mark, keep, locked, waitq, 
                              woken, result, rdata, stack, vtb_, vid_, vtb, vid, 
                              vp_, vc_t, va_, vb_, vout, vmade, vrp, vrl_, vp_s, 
-                             vc_s, vx_, vc, vb_d, vp_d, vc_, vcls, vrl_d, va_d, 
-                             vb_de, vx_de, vdels, vdocs, vf_, vp_de, vtodo, 
-                             vkeepl, vmarked, ve, vp_p, vf_p, vver, vp_g, vf_g, 
-                             vx_g, vp_del, vf, vx_del, vp_delm, vp, vc_r, vrl, 
-                             va, vb, vx >>
+                             vc_s, vval, vx_, vc, vb_d, vp_d, vc_, vcls, vrl_d, 
+                             va_d, vb_de, vx_de, vdels, vdocs, vf_, vp_de, 
+                             vtodo, vkeepl, vmarked, ve, vp_p, vf_p, vver, 
+                             vp_g, vf_g, vx_g, vp_del, vf, vx_del, vp_delm, vp, 
+                             vc_r, vrl, va, vb, vx >>
 
 di4(self) == /\ pc[self] = "di4"
              /\ IF obj[vc[self]] = "ok"
@@ -1426,12 +1535,12 @@ di4(self) == /\ pc[self] = "di4"
              /\ pc' = [pc EXCEPT ![self] = "di5"]
              /\ UNCHANGED << pref, cref, doc, mark, keep, locked, waitq, woken, 
                              rdata, stack, vtb_, vid_, vtb, vid, vp_, vc_t, 
-                             va_, vb_, vout, vmade, vrp, vrl_, vp_s, vc_s, vx_, 
-                             vc, vb_d, vx_d, vp_d, vc_, vcls, vrl_d, va_d, 
-                             vb_de, vx_de, vdels, vdocs, vf_, vp_de, vtodo, 
-                             vkeepl, vmarked, ve, vp_p, vf_p, vver, vp_g, vf_g, 
-                             vx_g, vp_del, vf, vx_del, vp_delm, vp, vc_r, vrl, 
-                             va, vb, vx >>
+                             va_, vb_, vout, vmade, vrp, vrl_, vp_s, vc_s, 
+                             vval, vx_, vc, vb_d, vx_d, vp_d, vc_, vcls, vrl_d, 
+                             va_d, vb_de, vx_de, vdels, vdocs, vf_, vp_de, 
+                             vtodo, vkeepl, vmarked, ve, vp_p, vf_p, vver, 
+                             vp_g, vf_g, vx_g, vp_del, vf, vx_del, vp_delm, vp, 
+                             vc_r, vrl, va, vb, vx >>
 
 di3b(self) == /\ pc[self] = "di3b"
               /\ ev' = Ev(self, "stat", P("obj", vc[self]), NoPath, FN(obj[vc[self]] = "ok"))
@@ -1440,7 +1549,7 @@ di3b(self) == /\ pc[self] = "di3b"
               /\ UNCHANGED << obj, pref, cref, doc, mark, keep, locked, waitq, 
                               woken, rdata, stack, vtb_, vid_, vtb, vid, vp_, 
                               vc_t, va_, vb_, vout, vmade, vrp, vrl_, vp_s, 
-                              vc_s, vx_, vc, vb_d, vx_d, vp_d, vc_, vcls, 
+                              vc_s, vval, vx_, vc, vb_d, vx_d, vp_d, vc_, vcls, 
                               vrl_d, va_d, vb_de, vx_de, vdels, vdocs, vf_, 
                               vp_de, vtodo, vkeepl, vmarked, ve, vp_p, vf_p, 
                               vver, vp_g, vf_g, vx_g, vp_del, vf, vx_del, 
@@ -1457,12 +1566,12 @@ di5(self) == /\ pc[self] = "di5"
              /\ pc' = [pc EXCEPT ![self] = "rl1"]
              /\ UNCHANGED << obj, pref, cref, doc, mark, keep, locked, waitq, 
                              woken, ev, result, rdata, vtb_, vid_, vp_, vc_t, 
-                             va_, vb_, vout, vmade, vrp, vrl_, vp_s, vc_s, vx_, 
-                             vc, vb_d, vx_d, vp_d, vc_, vcls, vrl_d, va_d, 
-                             vb_de, vx_de, vdels, vdocs, vf_, vp_de, vtodo, 
-                             vkeepl, vmarked, ve, vp_p, vf_p, vver, vp_g, vf_g, 
-                             vx_g, vp_del, vf, vx_del, vp_delm, vp, vc_r, vrl, 
-                             va, vb, vx >>
+                             va_, vb_, vout, vmade, vrp, vrl_, vp_s, vc_s, 
+                             vval, vx_, vc, vb_d, vx_d, vp_d, vc_, vcls, vrl_d, 
+                             va_d, vb_de, vx_de, vdels, vdocs, vf_, vp_de, 
+                             vtodo, vkeepl, vmarked, ve, vp_p, vf_p, vver, 
+                             vp_g, vf_g, vx_g, vp_del, vf, vx_del, vp_delm, vp, 
+                             vc_r, vrl, va, vb, vx >>
 
 di6(self) == /\ pc[self] = "di6"
              /\ pc' = [pc EXCEPT ![self] = Head(stack[self]).pc]
@@ -1473,11 +1582,11 @@ di6(self) == /\ pc[self] = "di6"
              /\ UNCHANGED << obj, pref, cref, doc, mark, keep, locked, waitq, 
                              woken, ev, result, rdata, vtb_, vid_, vtb, vid, 
                              vp_, vc_t, va_, vb_, vout, vmade, vrp, vrl_, vp_s, 
-                             vc_s, vx_, vp_d, vc_, vcls, vrl_d, va_d, vb_de, 
-                             vx_de, vdels, vdocs, vf_, vp_de, vtodo, vkeepl, 
-                             vmarked, ve, vp_p, vf_p, vver, vp_g, vf_g, vx_g, 
-                             vp_del, vf, vx_del, vp_delm, vp, vc_r, vrl, va, 
-                             vb, vx >>
+                             vc_s, vval, vx_, vp_d, vc_, vcls, vrl_d, va_d, 
+                             vb_de, vx_de, vdels, vdocs, vf_, vp_de, vtodo, 
+                             vkeepl, vmarked, ve, vp_p, vf_p, vver, vp_g, vf_g, 
+                             vx_g, vp_del, vf, vx_del, vp_delm, vp, vc_r, vrl, 
+                             va, vb, vx >>
 
 diibad(self) == di1(self) \/ di2(self) \/ di3(self) \/ di4(self)
                    \/ di3b(self) \/ di5(self) \/ di6(self)
@@ -1493,12 +1602,12 @@ d1(self) == /\ pc[self] = "d1"
             /\ pc' = [pc EXCEPT ![self] = "cl1"]
             /\ UNCHANGED << obj, pref, cref, doc, mark, keep, locked, waitq, 
                             woken, ev, result, rdata, vtb, vid, vp_, vc_t, va_, 
-                            vb_, vout, vmade, vrp, vrl_, vp_s, vc_s, vx_, vc, 
-                            vb_d, vx_d, vp_d, vc_, vcls, vrl_d, va_d, vb_de, 
-                            vx_de, vdels, vdocs, vf_, vp_de, vtodo, vkeepl, 
-                            vmarked, ve, vp_p, vf_p, vver, vp_g, vf_g, vx_g, 
-                            vp_del, vf, vx_del, vp_delm, vp, vc_r, vrl, va, vb, 
-                            vx >>
+                            vb_, vout, vmade, vrp, vrl_, vp_s, vc_s, vval, vx_, 
+                            vc, vb_d, vx_d, vp_d, vc_, vcls, vrl_d, va_d, 
+                            vb_de, vx_de, vdels, vdocs, vf_, vp_de, vtodo, 
+                            vkeepl, vmarked, ve, vp_p, vf_p, vver, vp_g, vf_g, 
+                            vx_g, vp_del, vf, vx_del, vp_delm, vp, vc_r, vrl, 
+                            va, vb, vx >>
 
 d2(self) == /\ pc[self] = "d2"
             /\ /\ stack' = [stack EXCEPT ![self] = << [ procedure |->  "claim",
@@ -1511,12 +1620,12 @@ d2(self) == /\ pc[self] = "d2"
             /\ pc' = [pc EXCEPT ![self] = "cl1"]
             /\ UNCHANGED << obj, pref, cref, doc, mark, keep, locked, waitq, 
                             woken, ev, result, rdata, vtb, vid, vp_, vc_t, va_, 
-                            vb_, vout, vmade, vrp, vrl_, vp_s, vc_s, vx_, vc, 
-                            vb_d, vx_d, vp_d, vc_, vcls, vrl_d, va_d, vb_de, 
-                            vx_de, vdels, vdocs, vf_, vp_de, vtodo, vkeepl, 
-                            vmarked, ve, vp_p, vf_p, vver, vp_g, vf_g, vx_g, 
-                            vp_del, vf, vx_del, vp_delm, vp, vc_r, vrl, va, vb, 
-                            vx >>
+                            vb_, vout, vmade, vrp, vrl_, vp_s, vc_s, vval, vx_, 
+                            vc, vb_d, vx_d, vp_d, vc_, vcls, vrl_d, va_d, 
+                            vb_de, vx_de, vdels, vdocs, vf_, vp_de, vtodo, 
+                            vkeepl, vmarked, ve, vp_p, vf_p, vver, vp_g, vf_g, 
+                            vx_g, vp_del, vf, vx_del, vp_delm, vp, vc_r, vrl, 
+                            va, vb, vx >>
 
 f1(self) == /\ pc[self] = "f1"
             /\ va_d' = [va_d EXCEPT ![self] = pref[vp_d[self]] # None]
@@ -1529,11 +1638,11 @@ f1(self) == /\ pc[self] = "f1"
             /\ UNCHANGED << obj, pref, cref, doc, mark, keep, locked, waitq, 
                             woken, result, rdata, stack, vtb_, vid_, vtb, vid, 
                             vp_, vc_t, va_, vb_, vout, vmade, vrp, vrl_, vp_s, 
-                            vc_s, vx_, vc, vb_d, vx_d, vp_d, vc_, vrl_d, vb_de, 
-                            vx_de, vdels, vdocs, vf_, vp_de, vtodo, vkeepl, 
-                            vmarked, ve, vp_p, vf_p, vver, vp_g, vf_g, vx_g, 
-                            vp_del, vf, vx_del, vp_delm, vp, vc_r, vrl, va, vb, 
-                            vx >>
+                            vc_s, vval, vx_, vc, vb_d, vx_d, vp_d, vc_, vrl_d, 
+                            vb_de, vx_de, vdels, vdocs, vf_, vp_de, vtodo, 
+                            vkeepl, vmarked, ve, vp_p, vf_p, vver, vp_g, vf_g, 
+                            vx_g, vp_del, vf, vx_del, vp_delm, vp, vc_r, vrl, 
+                            va, vb, vx >>
 
 f2(self) == /\ pc[self] = "f2"
             /\ IF pref[vp_d[self]] = None
@@ -1548,7 +1657,7 @@ f2(self) == /\ pc[self] = "f2"
             /\ UNCHANGED << obj, pref, cref, doc, mark, keep, locked, waitq, 
                             woken, result, rdata, stack, vtb_, vid_, vtb, vid, 
                             vp_, vc_t, va_, vb_, vout, vmade, vrp, vrl_, vp_s, 
-                            vc_s, vx_, vc, vb_d, vx_d, vp_d, vrl_d, va_d, 
+                            vc_s, vval, vx_, vc, vb_d, vx_d, vp_d, vrl_d, va_d, 
                             vb_de, vx_de, vdels, vdocs, vf_, vp_de, vtodo, 
                             vkeepl, vmarked, ve, vp_p, vf_p, vver, vp_g, vf_g, 
                             vx_g, vp_del, vf, vx_del, vp_delm, vp, vc_r, vrl, 
@@ -1565,11 +1674,11 @@ f3(self) == /\ pc[self] = "f3"
             /\ UNCHANGED << obj, pref, cref, doc, mark, keep, locked, waitq, 
                             woken, result, rdata, stack, vtb_, vid_, vtb, vid, 
                             vp_, vc_t, va_, vb_, vout, vmade, vrp, vrl_, vp_s, 
-                            vc_s, vx_, vc, vb_d, vx_d, vp_d, vc_, vrl_d, va_d, 
-                            vx_de, vdels, vdocs, vf_, vp_de, vtodo, vkeepl, 
-                            vmarked, ve, vp_p, vf_p, vver, vp_g, vf_g, vx_g, 
-                            vp_del, vf, vx_del, vp_delm, vp, vc_r, vrl, va, vb, 
-                            vx >>
+                            vc_s, vval, vx_, vc, vb_d, vx_d, vp_d, vc_, vrl_d, 
+                            va_d, vx_de, vdels, vdocs, vf_, vp_de, vtodo, 
+                            vkeepl, vmarked, ve, vp_p, vf_p, vver, vp_g, vf_g, 
+                            vx_g, vp_del, vf, vx_del, vp_delm, vp, vc_r, vrl, 
+                            va, vb, vx >>
 
 f4(self) == /\ pc[self] = "f4"
             /\ IF ~cref[vc_[self]].has
@@ -1584,11 +1693,11 @@ f4(self) == /\ pc[self] = "f4"
             /\ UNCHANGED << obj, pref, cref, doc, mark, keep, locked, waitq, 
                             woken, result, rdata, stack, vtb_, vid_, vtb, vid, 
                             vp_, vc_t, va_, vb_, vout, vmade, vrp, vrl_, vp_s, 
-                            vc_s, vx_, vc, vb_d, vx_d, vp_d, vc_, va_d, vb_de, 
-                            vx_de, vdels, vdocs, vf_, vp_de, vtodo, vkeepl, 
-                            vmarked, ve, vp_p, vf_p, vver, vp_g, vf_g, vx_g, 
-                            vp_del, vf, vx_del, vp_delm, vp, vc_r, vrl, va, vb, 
-                            vx >>
+                            vc_s, vval, vx_, vc, vb_d, vx_d, vp_d, vc_, va_d, 
+                            vb_de, vx_de, vdels, vdocs, vf_, vp_de, vtodo, 
+                            vkeepl, vmarked, ve, vp_p, vf_p, vver, vp_g, vf_g, 
+                            vx_g, vp_del, vf, vx_del, vp_delm, vp, vc_r, vrl, 
+                            va, vb, vx >>
 
 f5(self) == /\ pc[self] = "f5"
             /\ IF ~InSeq(vp_d[self], vrl_d[self])
@@ -1599,11 +1708,11 @@ f5(self) == /\ pc[self] = "f5"
             /\ UNCHANGED << obj, pref, cref, doc, mark, keep, locked, waitq, 
                             woken, ev, result, rdata, stack, vtb_, vid_, vtb, 
                             vid, vp_, vc_t, va_, vb_, vout, vmade, vrp, vrl_, 
-                            vp_s, vc_s, vx_, vc, vb_d, vx_d, vp_d, vc_, vrl_d, 
-                            va_d, vb_de, vx_de, vdels, vdocs, vf_, vp_de, 
-                            vtodo, vkeepl, vmarked, ve, vp_p, vf_p, vver, vp_g, 
-                            vf_g, vx_g, vp_del, vf, vx_del, vp_delm, vp, vc_r, 
-                            vrl, va, vb, vx >>
+                            vp_s, vc_s, vval, vx_, vc, vb_d, vx_d, vp_d, vc_, 
+                            vrl_d, va_d, vb_de, vx_de, vdels, vdocs, vf_, 
+                            vp_de, vtodo, vkeepl, vmarked, ve, vp_p, vf_p, 
+                            vver, vp_g, vf_g, vx_g, vp_del, vf, vx_del, 
+                            vp_delm, vp, vc_r, vrl, va, vb, vx >>
 
 f6(self) == /\ pc[self] = "f6"
             /\ vx_de' = [vx_de EXCEPT ![self] = obj[vc_[self]] = "ok"]
@@ -1616,11 +1725,11 @@ f6(self) == /\ pc[self] = "f6"
             /\ UNCHANGED << obj, pref, cref, doc, mark, keep, locked, waitq, 
                             woken, result, rdata, stack, vtb_, vid_, vtb, vid, 
                             vp_, vc_t, va_, vb_, vout, vmade, vrp, vrl_, vp_s, 
-                            vc_s, vx_, vc, vb_d, vx_d, vp_d, vc_, vrl_d, va_d, 
-                            vb_de, vdels, vdocs, vf_, vp_de, vtodo, vkeepl, 
-                            vmarked, ve, vp_p, vf_p, vver, vp_g, vf_g, vx_g, 
-                            vp_del, vf, vx_del, vp_delm, vp, vc_r, vrl, va, vb, 
-                            vx >>
+                            vc_s, vval, vx_, vc, vb_d, vx_d, vp_d, vc_, vrl_d, 
+                            va_d, vb_de, vdels, vdocs, vf_, vp_de, vtodo, 
+                            vkeepl, vmarked, ve, vp_p, vf_p, vver, vp_g, vf_g, 
+                            vx_g, vp_del, vf, vx_del, vp_delm, vp, vc_r, vrl, 
+                            va, vb, vx >>
 
 f7(self) == /\ pc[self] = "f7"
             /\ ev' = Ev(self, "stat", P("obj", vc_[self]), NoPath, FN(obj[vc_[self]] = "ok"))
@@ -1628,11 +1737,11 @@ f7(self) == /\ pc[self] = "f7"
             /\ UNCHANGED << obj, pref, cref, doc, mark, keep, locked, waitq, 
                             woken, result, rdata, stack, vtb_, vid_, vtb, vid, 
                             vp_, vc_t, va_, vb_, vout, vmade, vrp, vrl_, vp_s, 
-                            vc_s, vx_, vc, vb_d, vx_d, vp_d, vc_, vcls, vrl_d, 
-                            va_d, vb_de, vx_de, vdels, vdocs, vf_, vp_de, 
-                            vtodo, vkeepl, vmarked, ve, vp_p, vf_p, vver, vp_g, 
-                            vf_g, vx_g, vp_del, vf, vx_del, vp_delm, vp, vc_r, 
-                            vrl, va, vb, vx >>
+                            vc_s, vval, vx_, vc, vb_d, vx_d, vp_d, vc_, vcls, 
+                            vrl_d, va_d, vb_de, vx_de, vdels, vdocs, vf_, 
+                            vp_de, vtodo, vkeepl, vmarked, ve, vp_p, vf_p, 
+                            vver, vp_g, vf_g, vx_g, vp_del, vf, vx_del, 
+                            vp_delm, vp, vc_r, vrl, va, vb, vx >>
 
 f8(self) == /\ pc[self] = "f8"
             /\ ev' = Ev(self, "stat", P("doc", vp_d[self] \o "/" \o DefaultNs), NoPath, FN(doc[vp_d[self]][DefaultNs] # None))
@@ -1641,11 +1750,11 @@ f8(self) == /\ pc[self] = "f8"
             /\ UNCHANGED << obj, pref, cref, doc, mark, keep, locked, waitq, 
                             woken, result, rdata, stack, vtb_, vid_, vtb, vid, 
                             vp_, vc_t, va_, vb_, vout, vmade, vrp, vrl_, vp_s, 
-                            vc_s, vx_, vc, vb_d, vx_d, vp_d, vc_, vrl_d, va_d, 
-                            vb_de, vx_de, vdels, vdocs, vf_, vp_de, vtodo, 
-                            vkeepl, vmarked, ve, vp_p, vf_p, vver, vp_g, vf_g, 
-                            vx_g, vp_del, vf, vx_del, vp_delm, vp, vc_r, vrl, 
-                            va, vb, vx >>
+                            vc_s, vval, vx_, vc, vb_d, vx_d, vp_d, vc_, vrl_d, 
+                            va_d, vb_de, vx_de, vdels, vdocs, vf_, vp_de, 
+                            vtodo, vkeepl, vmarked, ve, vp_p, vf_p, vver, vp_g, 
+                            vf_g, vx_g, vp_del, vf, vx_del, vp_delm, vp, vc_r, 
+                            vrl, va, vb, vx >>
 
 m1(self) == /\ pc[self] = "m1"
             /\ /\ stack' = [stack EXCEPT ![self] = << [ procedure |->  "claim",
@@ -1658,12 +1767,12 @@ m1(self) == /\ pc[self] = "m1"
             /\ pc' = [pc EXCEPT ![self] = "cl1"]
             /\ UNCHANGED << obj, pref, cref, doc, mark, keep, locked, waitq, 
                             woken, ev, result, rdata, vtb, vid, vp_, vc_t, va_, 
-                            vb_, vout, vmade, vrp, vrl_, vp_s, vc_s, vx_, vc, 
-                            vb_d, vx_d, vp_d, vc_, vcls, vrl_d, va_d, vb_de, 
-                            vx_de, vdels, vdocs, vf_, vp_de, vtodo, vkeepl, 
-                            vmarked, ve, vp_p, vf_p, vver, vp_g, vf_g, vx_g, 
-                            vp_del, vf, vx_del, vp_delm, vp, vc_r, vrl, va, vb, 
-                            vx >>
+                            vb_, vout, vmade, vrp, vrl_, vp_s, vc_s, vval, vx_, 
+                            vc, vb_d, vx_d, vp_d, vc_, vcls, vrl_d, va_d, 
+                            vb_de, vx_de, vdels, vdocs, vf_, vp_de, vtodo, 
+                            vkeepl, vmarked, ve, vp_p, vf_p, vver, vp_g, vf_g, 
+                            vx_g, vp_del, vf, vx_del, vp_delm, vp, vc_r, vrl, 
+                            va, vb, vx >>
 
 m2(self) == /\ pc[self] = "m2"
             /\ ev' = Ev(self, "stat", P("pidrefdel", vp_d[self]), NoPath, FN(P("pidrefdel", vp_d[self]) \in mark))
@@ -1671,11 +1780,11 @@ m2(self) == /\ pc[self] = "m2"
             /\ UNCHANGED << obj, pref, cref, doc, mark, keep, locked, waitq, 
                             woken, result, rdata, stack, vtb_, vid_, vtb, vid, 
                             vp_, vc_t, va_, vb_, vout, vmade, vrp, vrl_, vp_s, 
-                            vc_s, vx_, vc, vb_d, vx_d, vp_d, vc_, vcls, vrl_d, 
-                            va_d, vb_de, vx_de, vdels, vdocs, vf_, vp_de, 
-                            vtodo, vkeepl, vmarked, ve, vp_p, vf_p, vver, vp_g, 
-                            vf_g, vx_g, vp_del, vf, vx_del, vp_delm, vp, vc_r, 
-                            vrl, va, vb, vx >>
+                            vc_s, vval, vx_, vc, vb_d, vx_d, vp_d, vc_, vcls, 
+                            vrl_d, va_d, vb_de, vx_de, vdels, vdocs, vf_, 
+                            vp_de, vtodo, vkeepl, vmarked, ve, vp_p, vf_p, 
+                            vver, vp_g, vf_g, vx_g, vp_del, vf, vx_del, 
+                            vp_delm, vp, vc_r, vrl, va, vb, vx >>
 
 m3(self) == /\ pc[self] = "m3"
             /\ IF pref[vp_d[self]] = None
@@ -1691,10 +1800,10 @@ m3(self) == /\ pc[self] = "m3"
                        /\ vcls' = vcls
             /\ UNCHANGED << obj, cref, doc, keep, locked, waitq, woken, result, 
                             rdata, stack, vtb_, vid_, vtb, vid, vp_, vc_t, va_, 
-                            vb_, vout, vmade, vrp, vrl_, vp_s, vc_s, vx_, vc, 
-                            vb_d, vx_d, vp_d, vc_, vrl_d, va_d, vb_de, vx_de, 
-                            vdocs, vf_, vp_de, vtodo, vkeepl, vmarked, ve, 
-                            vp_p, vf_p, vver, vp_g, vf_g, vx_g, vp_del, vf, 
+                            vb_, vout, vmade, vrp, vrl_, vp_s, vc_s, vval, vx_, 
+                            vc, vb_d, vx_d, vp_d, vc_, vrl_d, va_d, vb_de, 
+                            vx_de, vdocs, vf_, vp_de, vtodo, vkeepl, vmarked, 
+                            ve, vp_p, vf_p, vver, vp_g, vf_g, vx_g, vp_del, vf, 
                             vx_del, vp_delm, vp, vc_r, vrl, va, vb, vx >>
 
 m4(self) == /\ pc[self] = "m4"
@@ -1708,11 +1817,11 @@ m4(self) == /\ pc[self] = "m4"
             /\ UNCHANGED << obj, pref, cref, doc, mark, keep, locked, waitq, 
                             woken, result, rdata, stack, vtb_, vid_, vtb, vid, 
                             vp_, vc_t, va_, vb_, vout, vmade, vrp, vrl_, vp_s, 
-                            vc_s, vx_, vc, vb_d, vx_d, vp_d, vc_, vrl_d, va_d, 
-                            vx_de, vdels, vdocs, vf_, vp_de, vtodo, vkeepl, 
-                            vmarked, ve, vp_p, vf_p, vver, vp_g, vf_g, vx_g, 
-                            vp_del, vf, vx_del, vp_delm, vp, vc_r, vrl, va, vb, 
-                            vx >>
+                            vc_s, vval, vx_, vc, vb_d, vx_d, vp_d, vc_, vrl_d, 
+                            va_d, vx_de, vdels, vdocs, vf_, vp_de, vtodo, 
+                            vkeepl, vmarked, ve, vp_p, vf_p, vver, vp_g, vf_g, 
+                            vx_g, vp_del, vf, vx_del, vp_delm, vp, vc_r, vrl, 
+                            va, vb, vx >>
 
 m5(self) == /\ pc[self] = "m5"
             /\ IF ~cref[vc_[self]].has
@@ -1727,11 +1836,11 @@ m5(self) == /\ pc[self] = "m5"
             /\ UNCHANGED << obj, pref, cref, doc, mark, keep, locked, waitq, 
                             woken, result, rdata, stack, vtb_, vid_, vtb, vid, 
                             vp_, vc_t, va_, vb_, vout, vmade, vrp, vrl_, vp_s, 
-                            vc_s, vx_, vc, vb_d, vx_d, vp_d, vc_, va_d, vb_de, 
-                            vx_de, vdels, vdocs, vf_, vp_de, vtodo, vkeepl, 
-                            vmarked, ve, vp_p, vf_p, vver, vp_g, vf_g, vx_g, 
-                            vp_del, vf, vx_del, vp_delm, vp, vc_r, vrl, va, vb, 
-                            vx >>
+                            vc_s, vval, vx_, vc, vb_d, vx_d, vp_d, vc_, va_d, 
+                            vb_de, vx_de, vdels, vdocs, vf_, vp_de, vtodo, 
+                            vkeepl, vmarked, ve, vp_p, vf_p, vver, vp_g, vf_g, 
+                            vx_g, vp_del, vf, vx_del, vp_delm, vp, vc_r, vrl, 
+                            va, vb, vx >>
 
 m6(self) == /\ pc[self] = "m6"
             /\ cref' = [cref EXCEPT ![vc_[self]] = List(Without(vrl_d[self], vp_d[self]))]
@@ -1740,11 +1849,11 @@ m6(self) == /\ pc[self] = "m6"
             /\ UNCHANGED << obj, pref, doc, mark, keep, locked, waitq, woken, 
                             result, rdata, stack, vtb_, vid_, vtb, vid, vp_, 
                             vc_t, va_, vb_, vout, vmade, vrp, vrl_, vp_s, vc_s, 
-                            vx_, vc, vb_d, vx_d, vp_d, vc_, vcls, vrl_d, va_d, 
-                            vb_de, vx_de, vdels, vdocs, vf_, vp_de, vtodo, 
-                            vkeepl, vmarked, ve, vp_p, vf_p, vver, vp_g, vf_g, 
-                            vx_g, vp_del, vf, vx_del, vp_delm, vp, vc_r, vrl, 
-                            va, vb, vx >>
+                            vval, vx_, vc, vb_d, vx_d, vp_d, vc_, vcls, vrl_d, 
+                            va_d, vb_de, vx_de, vdels, vdocs, vf_, vp_de, 
+                            vtodo, vkeepl, vmarked, ve, vp_p, vf_p, vver, vp_g, 
+                            vf_g, vx_g, vp_del, vf, vx_del, vp_delm, vp, vc_r, 
+                            vrl, va, vb, vx >>
 
 m7(self) == /\ pc[self] = "m7"
             /\ ev' = Ev(self, "truncate", P("cidref", vc_[self]), NoPath, "ok")
@@ -1752,11 +1861,11 @@ m7(self) == /\ pc[self] = "m7"
             /\ UNCHANGED << obj, pref, cref, doc, mark, keep, locked, waitq, 
                             woken, result, rdata, stack, vtb_, vid_, vtb, vid, 
                             vp_, vc_t, va_, vb_, vout, vmade, vrp, vrl_, vp_s, 
-                            vc_s, vx_, vc, vb_d, vx_d, vp_d, vc_, vcls, vrl_d, 
-                            va_d, vb_de, vx_de, vdels, vdocs, vf_, vp_de, 
-                            vtodo, vkeepl, vmarked, ve, vp_p, vf_p, vver, vp_g, 
-                            vf_g, vx_g, vp_del, vf, vx_del, vp_delm, vp, vc_r, 
-                            vrl, va, vb, vx >>
+                            vc_s, vval, vx_, vc, vb_d, vx_d, vp_d, vc_, vcls, 
+                            vrl_d, va_d, vb_de, vx_de, vdels, vdocs, vf_, 
+                            vp_de, vtodo, vkeepl, vmarked, ve, vp_p, vf_p, 
+                            vver, vp_g, vf_g, vx_g, vp_del, vf, vx_del, 
+                            vp_delm, vp, vc_r, vrl, va, vb, vx >>
 
 m8(self) == /\ pc[self] = "m8"
             /\ vb_de' = [vb_de EXCEPT ![self] = cref[vc_[self]].has /\ cref[vc_[self]].pids = <<>>]
@@ -1769,11 +1878,11 @@ m8(self) == /\ pc[self] = "m8"
             /\ UNCHANGED << obj, pref, cref, doc, mark, keep, locked, waitq, 
                             woken, result, rdata, stack, vtb_, vid_, vtb, vid, 
                             vp_, vc_t, va_, vb_, vout, vmade, vrp, vrl_, vp_s, 
-                            vc_s, vx_, vc, vb_d, vx_d, vp_d, vc_, vrl_d, va_d, 
-                            vx_de, vdels, vdocs, vf_, vp_de, vtodo, vkeepl, 
-                            vmarked, ve, vp_p, vf_p, vver, vp_g, vf_g, vx_g, 
-                            vp_del, vf, vx_del, vp_delm, vp, vc_r, vrl, va, vb, 
-                            vx >>
+                            vc_s, vval, vx_, vc, vb_d, vx_d, vp_d, vc_, vrl_d, 
+                            va_d, vx_de, vdels, vdocs, vf_, vp_de, vtodo, 
+                            vkeepl, vmarked, ve, vp_p, vf_p, vver, vp_g, vf_g, 
+                            vx_g, vp_del, vf, vx_del, vp_delm, vp, vc_r, vrl, 
+                            va, vb, vx >>
 
 m8b(self) == /\ pc[self] = "m8b"
              /\ IF vb_de[self]
@@ -1782,10 +1891,10 @@ m8b(self) == /\ pc[self] = "m8b"
              /\ UNCHANGED << obj, pref, cref, doc, mark, keep, locked, waitq, 
                              woken, ev, result, rdata, stack, vtb_, vid_, vtb, 
                              vid, vp_, vc_t, va_, vb_, vout, vmade, vrp, vrl_, 
-                             vp_s, vc_s, vx_, vc, vb_d, vx_d, vp_d, vc_, vcls, 
-                             vrl_d, va_d, vb_de, vx_de, vdels, vdocs, vf_, 
-                             vp_de, vtodo, vkeepl, vmarked, ve, vp_p, vf_p, 
-                             vver, vp_g, vf_g, vx_g, vp_del, vf, vx_del, 
+                             vp_s, vc_s, vval, vx_, vc, vb_d, vx_d, vp_d, vc_, 
+                             vcls, vrl_d, va_d, vb_de, vx_de, vdels, vdocs, 
+                             vf_, vp_de, vtodo, vkeepl, vmarked, ve, vp_p, 
+                             vf_p, vver, vp_g, vf_g, vx_g, vp_del, vf, vx_del, 
                              vp_delm, vp, vc_r, vrl, va, vb, vx >>
 
 m9(self) == /\ pc[self] = "m9"
@@ -1794,11 +1903,11 @@ m9(self) == /\ pc[self] = "m9"
             /\ UNCHANGED << obj, pref, cref, doc, mark, keep, locked, waitq, 
                             woken, result, rdata, stack, vtb_, vid_, vtb, vid, 
                             vp_, vc_t, va_, vb_, vout, vmade, vrp, vrl_, vp_s, 
-                            vc_s, vx_, vc, vb_d, vx_d, vp_d, vc_, vcls, vrl_d, 
-                            va_d, vb_de, vx_de, vdels, vdocs, vf_, vp_de, 
-                            vtodo, vkeepl, vmarked, ve, vp_p, vf_p, vver, vp_g, 
-                            vf_g, vx_g, vp_del, vf, vx_del, vp_delm, vp, vc_r, 
-                            vrl, va, vb, vx >>
+                            vc_s, vval, vx_, vc, vb_d, vx_d, vp_d, vc_, vcls, 
+                            vrl_d, va_d, vb_de, vx_de, vdels, vdocs, vf_, 
+                            vp_de, vtodo, vkeepl, vmarked, ve, vp_p, vf_p, 
+                            vver, vp_g, vf_g, vx_g, vp_del, vf, vx_del, 
+                            vp_delm, vp, vc_r, vrl, va, vb, vx >>
 
 m10(self) == /\ pc[self] = "m10"
              /\ IF ~cref[vc_[self]].has
@@ -1815,11 +1924,12 @@ m10(self) == /\ pc[self] = "m10"
                         /\ vcls' = vcls
              /\ UNCHANGED << obj, pref, doc, locked, waitq, woken, result, 
                              rdata, stack, vtb_, vid_, vtb, vid, vp_, vc_t, 
-                             va_, vb_, vout, vmade, vrp, vrl_, vp_s, vc_s, vx_, 
-                             vc, vb_d, vx_d, vp_d, vc_, vrl_d, va_d, vb_de, 
-                             vx_de, vdocs, vf_, vp_de, vtodo, vkeepl, vmarked, 
-                             ve, vp_p, vf_p, vver, vp_g, vf_g, vx_g, vp_del, 
-                             vf, vx_del, vp_delm, vp, vc_r, vrl, va, vb, vx >>
+                             va_, vb_, vout, vmade, vrp, vrl_, vp_s, vc_s, 
+                             vval, vx_, vc, vb_d, vx_d, vp_d, vc_, vrl_d, va_d, 
+                             vb_de, vx_de, vdocs, vf_, vp_de, vtodo, vkeepl, 
+                             vmarked, ve, vp_p, vf_p, vver, vp_g, vf_g, vx_g, 
+                             vp_del, vf, vx_del, vp_delm, vp, vc_r, vrl, va, 
+                             vb, vx >>
 
 m11(self) == /\ pc[self] = "m11"
              /\ ev' = Ev(self, "stat", P("objdel", vc_[self]), NoPath, FN(P("objdel", vc_[self]) \in mark))
@@ -1827,11 +1937,11 @@ m11(self) == /\ pc[self] = "m11"
              /\ UNCHANGED << obj, pref, cref, doc, mark, keep, locked, waitq, 
                              woken, result, rdata, stack, vtb_, vid_, vtb, vid, 
                              vp_, vc_t, va_, vb_, vout, vmade, vrp, vrl_, vp_s, 
-                             vc_s, vx_, vc, vb_d, vx_d, vp_d, vc_, vcls, vrl_d, 
-                             va_d, vb_de, vx_de, vdels, vdocs, vf_, vp_de, 
-                             vtodo, vkeepl, vmarked, ve, vp_p, vf_p, vver, 
-                             vp_g, vf_g, vx_g, vp_del, vf, vx_del, vp_delm, vp, 
-                             vc_r, vrl, va, vb, vx >>
+                             vc_s, vval, vx_, vc, vb_d, vx_d, vp_d, vc_, vcls, 
+                             vrl_d, va_d, vb_de, vx_de, vdels, vdocs, vf_, 
+                             vp_de, vtodo, vkeepl, vmarked, ve, vp_p, vf_p, 
+                             vver, vp_g, vf_g, vx_g, vp_del, vf, vx_del, 
+                             vp_delm, vp, vc_r, vrl, va, vb, vx >>
 
 m12(self) == /\ pc[self] = "m12"
              /\ IF obj[vc_[self]] # "ok"
@@ -1848,11 +1958,11 @@ m12(self) == /\ pc[self] = "m12"
              /\ UNCHANGED << pref, cref, doc, keep, locked, waitq, woken, 
                              result, rdata, stack, vtb_, vid_, vtb, vid, vp_, 
                              vc_t, va_, vb_, vout, vmade, vrp, vrl_, vp_s, 
-                             vc_s, vx_, vc, vb_d, vx_d, vp_d, vc_, vrl_d, va_d, 
-                             vb_de, vx_de, vdocs, vf_, vp_de, vtodo, vkeepl, 
-                             vmarked, ve, vp_p, vf_p, vver, vp_g, vf_g, vx_g, 
-                             vp_del, vf, vx_del, vp_delm, vp, vc_r, vrl, va, 
-                             vb, vx >>
+                             vc_s, vval, vx_, vc, vb_d, vx_d, vp_d, vc_, vrl_d, 
+                             va_d, vb_de, vx_de, vdocs, vf_, vp_de, vtodo, 
+                             vkeepl, vmarked, ve, vp_p, vf_p, vver, vp_g, vf_g, 
+                             vx_g, vp_del, vf, vx_del, vp_delm, vp, vc_r, vrl, 
+                             va, vb, vx >>
 
 m13(self) == /\ pc[self] = "m13"
              /\ IF vdels[self] # {}
@@ -1866,11 +1976,11 @@ m13(self) == /\ pc[self] = "m13"
              /\ UNCHANGED << obj, pref, cref, doc, keep, locked, waitq, woken, 
                              result, rdata, stack, vtb_, vid_, vtb, vid, vp_, 
                              vc_t, va_, vb_, vout, vmade, vrp, vrl_, vp_s, 
-                             vc_s, vx_, vc, vb_d, vx_d, vp_d, vc_, vcls, vrl_d, 
-                             va_d, vb_de, vx_de, vdocs, vf_, vp_de, vtodo, 
-                             vkeepl, vmarked, ve, vp_p, vf_p, vver, vp_g, vf_g, 
-                             vx_g, vp_del, vf, vx_del, vp_delm, vp, vc_r, vrl, 
-                             va, vb, vx >>
+                             vc_s, vval, vx_, vc, vb_d, vx_d, vp_d, vc_, vcls, 
+                             vrl_d, va_d, vb_de, vx_de, vdocs, vf_, vp_de, 
+                             vtodo, vkeepl, vmarked, ve, vp_p, vf_p, vver, 
+                             vp_g, vf_g, vx_g, vp_del, vf, vx_del, vp_delm, vp, 
+                             vc_r, vrl, va, vb, vx >>
 
 m14(self) == /\ pc[self] = "m14"
              /\ /\ stack' = [stack EXCEPT ![self] = << [ procedure |->  "delmeta_all",
@@ -1890,10 +2000,10 @@ m14(self) == /\ pc[self] = "m14"
              /\ UNCHANGED << obj, pref, cref, doc, mark, keep, locked, waitq, 
                              woken, ev, result, rdata, vtb_, vid_, vtb, vid, 
                              vp_, vc_t, va_, vb_, vout, vmade, vrp, vrl_, vp_s, 
-                             vc_s, vx_, vc, vb_d, vx_d, vp_d, vc_, vcls, vrl_d, 
-                             va_d, vb_de, vx_de, vdels, vdocs, vf_, vp_p, vf_p, 
-                             vver, vp_g, vf_g, vx_g, vp_del, vf, vx_del, 
-                             vp_delm, vp, vc_r, vrl, va, vb, vx >>
+                             vc_s, vval, vx_, vc, vb_d, vx_d, vp_d, vc_, vcls, 
+                             vrl_d, va_d, vb_de, vx_de, vdels, vdocs, vf_, 
+                             vp_p, vf_p, vver, vp_g, vf_g, vx_g, vp_del, vf, 
+                             vx_del, vp_delm, vp, vc_r, vrl, va, vb, vx >>
 
 mrel(self) == /\ pc[self] = "mrel"
               /\ /\ stack' = [stack EXCEPT ![self] = << [ procedure |->  "release",
@@ -1907,11 +2017,11 @@ mrel(self) == /\ pc[self] = "mrel"
               /\ UNCHANGED << obj, pref, cref, doc, mark, keep, locked, waitq, 
                               woken, ev, result, rdata, vtb_, vid_, vp_, vc_t, 
                               va_, vb_, vout, vmade, vrp, vrl_, vp_s, vc_s, 
-                              vx_, vc, vb_d, vx_d, vp_d, vc_, vcls, vrl_d, 
-                              va_d, vb_de, vx_de, vdels, vdocs, vf_, vp_de, 
-                              vtodo, vkeepl, vmarked, ve, vp_p, vf_p, vver, 
-                              vp_g, vf_g, vx_g, vp_del, vf, vx_del, vp_delm, 
-                              vp, vc_r, vrl, va, vb, vx >>
+                              vval, vx_, vc, vb_d, vx_d, vp_d, vc_, vcls, 
+                              vrl_d, va_d, vb_de, vx_de, vdels, vdocs, vf_, 
+                              vp_de, vtodo, vkeepl, vmarked, ve, vp_p, vf_p, 
+                              vver, vp_g, vf_g, vx_g, vp_del, vf, vx_del, 
+                              vp_delm, vp, vc_r, vrl, va, vb, vx >>
 
 orphan(self) == /\ pc[self] = "orphan"
                 /\ ev' = Ev(self, "stat", P("pidrefdel", vp_d[self]), NoPath, FN(P("pidrefdel", vp_d[self]) \in mark))
@@ -1919,9 +2029,9 @@ orphan(self) == /\ pc[self] = "orphan"
                 /\ UNCHANGED << obj, pref, cref, doc, mark, keep, locked, 
                                 waitq, woken, result, rdata, stack, vtb_, vid_, 
                                 vtb, vid, vp_, vc_t, va_, vb_, vout, vmade, 
-                                vrp, vrl_, vp_s, vc_s, vx_, vc, vb_d, vx_d, 
-                                vp_d, vc_, vcls, vrl_d, va_d, vb_de, vx_de, 
-                                vdels, vdocs, vf_, vp_de, vtodo, vkeepl, 
+                                vrp, vrl_, vp_s, vc_s, vval, vx_, vc, vb_d, 
+                                vx_d, vp_d, vc_, vcls, vrl_d, va_d, vb_de, 
+                                vx_de, vdels, vdocs, vf_, vp_de, vtodo, vkeepl, 
                                 vmarked, ve, vp_p, vf_p, vver, vp_g, vf_g, 
                                 vx_g, vp_del, vf, vx_del, vp_delm, vp, vc_r, 
                                 vrl, va, vb, vx >>
@@ -1939,11 +2049,12 @@ o2(self) == /\ pc[self] = "o2"
                        /\ vcls' = vcls
             /\ UNCHANGED << obj, cref, doc, keep, locked, waitq, woken, result, 
                             rdata, stack, vtb_, vid_, vtb, vid, vp_, vc_t, va_, 
-                            vb_, vout, vmade, vrp, vrl_, vp_s, vc_s, vx_, vc, 
-                            vb_d, vx_d, vp_d, vc_, vrl_d, va_d, vb_de, vx_de, 
-                            vdels, vdocs, vf_, vp_de, vtodo, vkeepl, vmarked, 
-                            ve, vp_p, vf_p, vver, vp_g, vf_g, vx_g, vp_del, vf, 
-                            vx_del, vp_delm, vp, vc_r, vrl, va, vb, vx >>
+                            vb_, vout, vmade, vrp, vrl_, vp_s, vc_s, vval, vx_, 
+                            vc, vb_d, vx_d, vp_d, vc_, vrl_d, va_d, vb_de, 
+                            vx_de, vdels, vdocs, vf_, vp_de, vtodo, vkeepl, 
+                            vmarked, ve, vp_p, vf_p, vver, vp_g, vf_g, vx_g, 
+                            vp_del, vf, vx_del, vp_delm, vp, vc_r, vrl, va, vb, 
+                            vx >>
 
 o3(self) == /\ pc[self] = "o3"
             /\ /\ stack' = [stack EXCEPT ![self] = << [ procedure |->  "delmeta_all",
@@ -1963,9 +2074,9 @@ o3(self) == /\ pc[self] = "o3"
             /\ UNCHANGED << obj, pref, cref, doc, mark, keep, locked, waitq, 
                             woken, ev, result, rdata, vtb_, vid_, vtb, vid, 
                             vp_, vc_t, va_, vb_, vout, vmade, vrp, vrl_, vp_s, 
-                            vc_s, vx_, vc, vb_d, vx_d, vp_d, vc_, vcls, vrl_d, 
-                            va_d, vb_de, vx_de, vdels, vdocs, vf_, vp_p, vf_p, 
-                            vver, vp_g, vf_g, vx_g, vp_del, vf, vx_del, 
+                            vc_s, vval, vx_, vc, vb_d, vx_d, vp_d, vc_, vcls, 
+                            vrl_d, va_d, vb_de, vx_de, vdels, vdocs, vf_, vp_p, 
+                            vf_p, vver, vp_g, vf_g, vx_g, vp_del, vf, vx_del, 
                             vp_delm, vp, vc_r, vrl, va, vb, vx >>
 
 o4(self) == /\ pc[self] = "o4"
@@ -1975,11 +2086,11 @@ o4(self) == /\ pc[self] = "o4"
             /\ UNCHANGED << obj, pref, cref, doc, keep, locked, waitq, woken, 
                             result, rdata, stack, vtb_, vid_, vtb, vid, vp_, 
                             vc_t, va_, vb_, vout, vmade, vrp, vrl_, vp_s, vc_s, 
-                            vx_, vc, vb_d, vx_d, vp_d, vc_, vcls, vrl_d, va_d, 
-                            vb_de, vx_de, vdels, vdocs, vf_, vp_de, vtodo, 
-                            vkeepl, vmarked, ve, vp_p, vf_p, vver, vp_g, vf_g, 
-                            vx_g, vp_del, vf, vx_del, vp_delm, vp, vc_r, vrl, 
-                            va, vb, vx >>
+                            vval, vx_, vc, vb_d, vx_d, vp_d, vc_, vcls, vrl_d, 
+                            va_d, vb_de, vx_de, vdels, vdocs, vf_, vp_de, 
+                            vtodo, vkeepl, vmarked, ve, vp_p, vf_p, vver, vp_g, 
+                            vf_g, vx_g, vp_del, vf, vx_del, vp_delm, vp, vc_r, 
+                            vrl, va, vb, vx >>
 
 missing(self) == /\ pc[self] = "missing"
                  /\ ev' = Ev(self, "stat", P("obj", vc_[self]), NoPath, FN(obj[vc_[self]] = "ok"))
@@ -1987,9 +2098,9 @@ missing(self) == /\ pc[self] = "missing"
                  /\ UNCHANGED << obj, pref, cref, doc, mark, keep, locked, 
                                  waitq, woken, result, rdata, stack, vtb_, 
                                  vid_, vtb, vid, vp_, vc_t, va_, vb_, vout, 
-                                 vmade, vrp, vrl_, vp_s, vc_s, vx_, vc, vb_d, 
-                                 vx_d, vp_d, vc_, vcls, vrl_d, va_d, vb_de, 
-                                 vx_de, vdels, vdocs, vf_, vp_de, vtodo, 
+                                 vmade, vrp, vrl_, vp_s, vc_s, vval, vx_, vc, 
+                                 vb_d, vx_d, vp_d, vc_, vcls, vrl_d, va_d, 
+                                 vb_de, vx_de, vdels, vdocs, vf_, vp_de, vtodo, 
                                  vkeepl, vmarked, ve, vp_p, vf_p, vver, vp_g, 
                                  vf_g, vx_g, vp_del, vf, vx_del, vp_delm, vp, 
                                  vc_r, vrl, va, vb, vx >>
@@ -2007,7 +2118,7 @@ x1(self) == /\ pc[self] = "x1"
             /\ UNCHANGED << obj, pref, cref, doc, mark, keep, locked, waitq, 
                             woken, result, rdata, stack, vtb_, vid_, vtb, vid, 
                             vp_, vc_t, va_, vb_, vout, vmade, vrp, vrl_, vp_s, 
-                            vc_s, vx_, vc, vb_d, vx_d, vp_d, vrl_d, va_d, 
+                            vc_s, vval, vx_, vc, vb_d, vx_d, vp_d, vrl_d, va_d, 
                             vb_de, vx_de, vdels, vdocs, vf_, vp_de, vtodo, 
                             vkeepl, vmarked, ve, vp_p, vf_p, vver, vp_g, vf_g, 
                             vx_g, vp_del, vf, vx_del, vp_delm, vp, vc_r, vrl, 
@@ -2019,11 +2130,11 @@ x2(self) == /\ pc[self] = "x2"
             /\ UNCHANGED << obj, pref, cref, doc, mark, keep, locked, waitq, 
                             woken, result, rdata, stack, vtb_, vid_, vtb, vid, 
                             vp_, vc_t, va_, vb_, vout, vmade, vrp, vrl_, vp_s, 
-                            vc_s, vx_, vc, vb_d, vx_d, vp_d, vc_, vcls, vrl_d, 
-                            va_d, vb_de, vx_de, vdels, vdocs, vf_, vp_de, 
-                            vtodo, vkeepl, vmarked, ve, vp_p, vf_p, vver, vp_g, 
-                            vf_g, vx_g, vp_del, vf, vx_del, vp_delm, vp, vc_r, 
-                            vrl, va, vb, vx >>
+                            vc_s, vval, vx_, vc, vb_d, vx_d, vp_d, vc_, vcls, 
+                            vrl_d, va_d, vb_de, vx_de, vdels, vdocs, vf_, 
+                            vp_de, vtodo, vkeepl, vmarked, ve, vp_p, vf_p, 
+                            vver, vp_g, vf_g, vx_g, vp_del, vf, vx_del, 
+                            vp_delm, vp, vc_r, vrl, va, vb, vx >>
 
 x3(self) == /\ pc[self] = "x3"
             /\ IF pref[vp_d[self]] = None
@@ -2038,11 +2149,12 @@ x3(self) == /\ pc[self] = "x3"
                        /\ vcls' = vcls
             /\ UNCHANGED << obj, cref, doc, keep, locked, waitq, woken, result, 
                             rdata, stack, vtb_, vid_, vtb, vid, vp_, vc_t, va_, 
-                            vb_, vout, vmade, vrp, vrl_, vp_s, vc_s, vx_, vc, 
-                            vb_d, vx_d, vp_d, vc_, vrl_d, va_d, vb_de, vx_de, 
-                            vdels, vdocs, vf_, vp_de, vtodo, vkeepl, vmarked, 
-                            ve, vp_p, vf_p, vver, vp_g, vf_g, vx_g, vp_del, vf, 
-                            vx_del, vp_delm, vp, vc_r, vrl, va, vb, vx >>
+                            vb_, vout, vmade, vrp, vrl_, vp_s, vc_s, vval, vx_, 
+                            vc, vb_d, vx_d, vp_d, vc_, vrl_d, va_d, vb_de, 
+                            vx_de, vdels, vdocs, vf_, vp_de, vtodo, vkeepl, 
+                            vmarked, ve, vp_p, vf_p, vver, vp_g, vf_g, vx_g, 
+                            vp_del, vf, vx_del, vp_delm, vp, vc_r, vrl, va, vb, 
+                            vx >>
 
 x4(self) == /\ pc[self] = "x4"
             /\ /\ stack' = [stack EXCEPT ![self] = << [ procedure |->  "claim",
@@ -2055,12 +2167,12 @@ x4(self) == /\ pc[self] = "x4"
             /\ pc' = [pc EXCEPT ![self] = "cl1"]
             /\ UNCHANGED << obj, pref, cref, doc, mark, keep, locked, waitq, 
                             woken, ev, result, rdata, vtb, vid, vp_, vc_t, va_, 
-                            vb_, vout, vmade, vrp, vrl_, vp_s, vc_s, vx_, vc, 
-                            vb_d, vx_d, vp_d, vc_, vcls, vrl_d, va_d, vb_de, 
-                            vx_de, vdels, vdocs, vf_, vp_de, vtodo, vkeepl, 
-                            vmarked, ve, vp_p, vf_p, vver, vp_g, vf_g, vx_g, 
-                            vp_del, vf, vx_del, vp_delm, vp, vc_r, vrl, va, vb, 
-                            vx >>
+                            vb_, vout, vmade, vrp, vrl_, vp_s, vc_s, vval, vx_, 
+                            vc, vb_d, vx_d, vp_d, vc_, vcls, vrl_d, va_d, 
+                            vb_de, vx_de, vdels, vdocs, vf_, vp_de, vtodo, 
+                            vkeepl, vmarked, ve, vp_p, vf_p, vver, vp_g, vf_g, 
+                            vx_g, vp_del, vf, vx_del, vp_delm, vp, vc_r, vrl, 
+                            va, vb, vx >>
 
 x5(self) == /\ pc[self] = "x5"
             /\ IF ~cref[vc_[self]].has
@@ -2075,11 +2187,11 @@ x5(self) == /\ pc[self] = "x5"
             /\ UNCHANGED << obj, pref, cref, doc, mark, keep, locked, waitq, 
                             woken, result, rdata, stack, vtb_, vid_, vtb, vid, 
                             vp_, vc_t, va_, vb_, vout, vmade, vrp, vrl_, vp_s, 
-                            vc_s, vx_, vc, vb_d, vx_d, vp_d, vc_, va_d, vb_de, 
-                            vx_de, vdels, vdocs, vf_, vp_de, vtodo, vkeepl, 
-                            vmarked, ve, vp_p, vf_p, vver, vp_g, vf_g, vx_g, 
-                            vp_del, vf, vx_del, vp_delm, vp, vc_r, vrl, va, vb, 
-                            vx >>
+                            vc_s, vval, vx_, vc, vb_d, vx_d, vp_d, vc_, va_d, 
+                            vb_de, vx_de, vdels, vdocs, vf_, vp_de, vtodo, 
+                            vkeepl, vmarked, ve, vp_p, vf_p, vver, vp_g, vf_g, 
+                            vx_g, vp_del, vf, vx_del, vp_delm, vp, vc_r, vrl, 
+                            va, vb, vx >>
 
 x6(self) == /\ pc[self] = "x6"
             /\ IF InSeq(vp_d[self], vrl_d[self])
@@ -2095,11 +2207,11 @@ x6(self) == /\ pc[self] = "x6"
             /\ UNCHANGED << obj, pref, cref, doc, mark, keep, locked, waitq, 
                             woken, result, rdata, stack, vtb_, vid_, vtb, vid, 
                             vp_, vc_t, va_, vb_, vout, vmade, vrp, vrl_, vp_s, 
-                            vc_s, vx_, vc, vb_d, vx_d, vp_d, vc_, vrl_d, va_d, 
-                            vx_de, vdels, vdocs, vf_, vp_de, vtodo, vkeepl, 
-                            vmarked, ve, vp_p, vf_p, vver, vp_g, vf_g, vx_g, 
-                            vp_del, vf, vx_del, vp_delm, vp, vc_r, vrl, va, vb, 
-                            vx >>
+                            vc_s, vval, vx_, vc, vb_d, vx_d, vp_d, vc_, vrl_d, 
+                            va_d, vx_de, vdels, vdocs, vf_, vp_de, vtodo, 
+                            vkeepl, vmarked, ve, vp_p, vf_p, vver, vp_g, vf_g, 
+                            vx_g, vp_del, vf, vx_del, vp_delm, vp, vc_r, vrl, 
+                            va, vb, vx >>
 
 x7(self) == /\ pc[self] = "x7"
             /\ IF ~cref[vc_[self]].has
@@ -2114,11 +2226,11 @@ x7(self) == /\ pc[self] = "x7"
             /\ UNCHANGED << obj, pref, cref, doc, mark, keep, locked, waitq, 
                             woken, result, rdata, stack, vtb_, vid_, vtb, vid, 
                             vp_, vc_t, va_, vb_, vout, vmade, vrp, vrl_, vp_s, 
-                            vc_s, vx_, vc, vb_d, vx_d, vp_d, vc_, va_d, vb_de, 
-                            vx_de, vdels, vdocs, vf_, vp_de, vtodo, vkeepl, 
-                            vmarked, ve, vp_p, vf_p, vver, vp_g, vf_g, vx_g, 
-                            vp_del, vf, vx_del, vp_delm, vp, vc_r, vrl, va, vb, 
-                            vx >>
+                            vc_s, vval, vx_, vc, vb_d, vx_d, vp_d, vc_, va_d, 
+                            vb_de, vx_de, vdels, vdocs, vf_, vp_de, vtodo, 
+                            vkeepl, vmarked, ve, vp_p, vf_p, vver, vp_g, vf_g, 
+                            vx_g, vp_del, vf, vx_del, vp_delm, vp, vc_r, vrl, 
+                            va, vb, vx >>
 
 x8(self) == /\ pc[self] = "x8"
             /\ cref' = [cref EXCEPT ![vc_[self]] = List(Without(vrl_d[self], vp_d[self]))]
@@ -2127,11 +2239,11 @@ x8(self) == /\ pc[self] = "x8"
             /\ UNCHANGED << obj, pref, doc, mark, keep, locked, waitq, woken, 
                             result, rdata, stack, vtb_, vid_, vtb, vid, vp_, 
                             vc_t, va_, vb_, vout, vmade, vrp, vrl_, vp_s, vc_s, 
-                            vx_, vc, vb_d, vx_d, vp_d, vc_, vcls, vrl_d, va_d, 
-                            vb_de, vx_de, vdels, vdocs, vf_, vp_de, vtodo, 
-                            vkeepl, vmarked, ve, vp_p, vf_p, vver, vp_g, vf_g, 
-                            vx_g, vp_del, vf, vx_del, vp_delm, vp, vc_r, vrl, 
-                            va, vb, vx >>
+                            vval, vx_, vc, vb_d, vx_d, vp_d, vc_, vcls, vrl_d, 
+                            va_d, vb_de, vx_de, vdels, vdocs, vf_, vp_de, 
+                            vtodo, vkeepl, vmarked, ve, vp_p, vf_p, vver, vp_g, 
+                            vf_g, vx_g, vp_del, vf, vx_del, vp_delm, vp, vc_r, 
+                            vrl, va, vb, vx >>
 
 x9(self) == /\ pc[self] = "x9"
             /\ ev' = Ev(self, "truncate", P("cidref", vc_[self]), NoPath, "ok")
@@ -2139,11 +2251,11 @@ x9(self) == /\ pc[self] = "x9"
             /\ UNCHANGED << obj, pref, cref, doc, mark, keep, locked, waitq, 
                             woken, result, rdata, stack, vtb_, vid_, vtb, vid, 
                             vp_, vc_t, va_, vb_, vout, vmade, vrp, vrl_, vp_s, 
-                            vc_s, vx_, vc, vb_d, vx_d, vp_d, vc_, vcls, vrl_d, 
-                            va_d, vb_de, vx_de, vdels, vdocs, vf_, vp_de, 
-                            vtodo, vkeepl, vmarked, ve, vp_p, vf_p, vver, vp_g, 
-                            vf_g, vx_g, vp_del, vf, vx_del, vp_delm, vp, vc_r, 
-                            vrl, va, vb, vx >>
+                            vc_s, vval, vx_, vc, vb_d, vx_d, vp_d, vc_, vcls, 
+                            vrl_d, va_d, vb_de, vx_de, vdels, vdocs, vf_, 
+                            vp_de, vtodo, vkeepl, vmarked, ve, vp_p, vf_p, 
+                            vver, vp_g, vf_g, vx_g, vp_del, vf, vx_del, 
+                            vp_delm, vp, vc_r, vrl, va, vb, vx >>
 
 x10(self) == /\ pc[self] = "x10"
              /\ vb_de' = [vb_de EXCEPT ![self] = cref[vc_[self]].has /\ cref[vc_[self]].pids = <<>>]
@@ -2156,11 +2268,11 @@ x10(self) == /\ pc[self] = "x10"
              /\ UNCHANGED << obj, pref, cref, doc, mark, keep, locked, waitq, 
                              woken, result, rdata, stack, vtb_, vid_, vtb, vid, 
                              vp_, vc_t, va_, vb_, vout, vmade, vrp, vrl_, vp_s, 
-                             vc_s, vx_, vc, vb_d, vx_d, vp_d, vc_, vrl_d, va_d, 
-                             vx_de, vdels, vdocs, vf_, vp_de, vtodo, vkeepl, 
-                             vmarked, ve, vp_p, vf_p, vver, vp_g, vf_g, vx_g, 
-                             vp_del, vf, vx_del, vp_delm, vp, vc_r, vrl, va, 
-                             vb, vx >>
+                             vc_s, vval, vx_, vc, vb_d, vx_d, vp_d, vc_, vrl_d, 
+                             va_d, vx_de, vdels, vdocs, vf_, vp_de, vtodo, 
+                             vkeepl, vmarked, ve, vp_p, vf_p, vver, vp_g, vf_g, 
+                             vx_g, vp_del, vf, vx_del, vp_delm, vp, vc_r, vrl, 
+                             va, vb, vx >>
 
 x10b(self) == /\ pc[self] = "x10b"
               /\ IF vb_de[self]
@@ -2169,10 +2281,10 @@ x10b(self) == /\ pc[self] = "x10b"
               /\ UNCHANGED << obj, pref, cref, doc, mark, keep, locked, waitq, 
                               woken, ev, result, rdata, stack, vtb_, vid_, vtb, 
                               vid, vp_, vc_t, va_, vb_, vout, vmade, vrp, vrl_, 
-                              vp_s, vc_s, vx_, vc, vb_d, vx_d, vp_d, vc_, vcls, 
-                              vrl_d, va_d, vb_de, vx_de, vdels, vdocs, vf_, 
-                              vp_de, vtodo, vkeepl, vmarked, ve, vp_p, vf_p, 
-                              vver, vp_g, vf_g, vx_g, vp_del, vf, vx_del, 
+                              vp_s, vc_s, vval, vx_, vc, vb_d, vx_d, vp_d, vc_, 
+                              vcls, vrl_d, va_d, vb_de, vx_de, vdels, vdocs, 
+                              vf_, vp_de, vtodo, vkeepl, vmarked, ve, vp_p, 
+                              vf_p, vver, vp_g, vf_g, vx_g, vp_del, vf, vx_del, 
                               vp_delm, vp, vc_r, vrl, va, vb, vx >>
 
 x11(self) == /\ pc[self] = "x11"
@@ -2181,11 +2293,11 @@ x11(self) == /\ pc[self] = "x11"
              /\ UNCHANGED << obj, pref, cref, doc, mark, keep, locked, waitq, 
                              woken, result, rdata, stack, vtb_, vid_, vtb, vid, 
                              vp_, vc_t, va_, vb_, vout, vmade, vrp, vrl_, vp_s, 
-                             vc_s, vx_, vc, vb_d, vx_d, vp_d, vc_, vcls, vrl_d, 
-                             va_d, vb_de, vx_de, vdels, vdocs, vf_, vp_de, 
-                             vtodo, vkeepl, vmarked, ve, vp_p, vf_p, vver, 
-                             vp_g, vf_g, vx_g, vp_del, vf, vx_del, vp_delm, vp, 
-                             vc_r, vrl, va, vb, vx >>
+                             vc_s, vval, vx_, vc, vb_d, vx_d, vp_d, vc_, vcls, 
+                             vrl_d, va_d, vb_de, vx_de, vdels, vdocs, vf_, 
+                             vp_de, vtodo, vkeepl, vmarked, ve, vp_p, vf_p, 
+                             vver, vp_g, vf_g, vx_g, vp_del, vf, vx_del, 
+                             vp_delm, vp, vc_r, vrl, va, vb, vx >>
 
 x12(self) == /\ pc[self] = "x12"
              /\ IF ~cref[vc_[self]].has
@@ -2201,11 +2313,11 @@ x12(self) == /\ pc[self] = "x12"
              /\ UNCHANGED << obj, pref, doc, keep, locked, waitq, woken, 
                              result, rdata, stack, vtb_, vid_, vtb, vid, vp_, 
                              vc_t, va_, vb_, vout, vmade, vrp, vrl_, vp_s, 
-                             vc_s, vx_, vc, vb_d, vx_d, vp_d, vc_, vrl_d, va_d, 
-                             vb_de, vx_de, vdels, vdocs, vf_, vp_de, vtodo, 
-                             vkeepl, vmarked, ve, vp_p, vf_p, vver, vp_g, vf_g, 
-                             vx_g, vp_del, vf, vx_del, vp_delm, vp, vc_r, vrl, 
-                             va, vb, vx >>
+                             vc_s, vval, vx_, vc, vb_d, vx_d, vp_d, vc_, vrl_d, 
+                             va_d, vb_de, vx_de, vdels, vdocs, vf_, vp_de, 
+                             vtodo, vkeepl, vmarked, ve, vp_p, vf_p, vver, 
+                             vp_g, vf_g, vx_g, vp_del, vf, vx_del, vp_delm, vp, 
+                             vc_r, vrl, va, vb, vx >>
 
 xrel(self) == /\ pc[self] = "xrel"
               /\ /\ stack' = [stack EXCEPT ![self] = << [ procedure |->  "release",
@@ -2219,11 +2331,11 @@ xrel(self) == /\ pc[self] = "xrel"
               /\ UNCHANGED << obj, pref, cref, doc, mark, keep, locked, waitq, 
                               woken, ev, result, rdata, vtb_, vid_, vp_, vc_t, 
                               va_, vb_, vout, vmade, vrp, vrl_, vp_s, vc_s, 
-                              vx_, vc, vb_d, vx_d, vp_d, vc_, vcls, vrl_d, 
-                              va_d, vb_de, vx_de, vdels, vdocs, vf_, vp_de, 
-                              vtodo, vkeepl, vmarked, ve, vp_p, vf_p, vver, 
-                              vp_g, vf_g, vx_g, vp_del, vf, vx_del, vp_delm, 
-                              vp, vc_r, vrl, va, vb, vx >>
+                              vval, vx_, vc, vb_d, vx_d, vp_d, vc_, vcls, 
+                              vrl_d, va_d, vb_de, vx_de, vdels, vdocs, vf_, 
+                              vp_de, vtodo, vkeepl, vmarked, ve, vp_p, vf_p, 
+                              vver, vp_g, vf_g, vx_g, vp_del, vf, vx_del, 
+                              vp_delm, vp, vc_r, vrl, va, vb, vx >>
 
 x13(self) == /\ pc[self] = "x13"
              /\ IF vcls[self] = "ioerror"
@@ -2232,10 +2344,10 @@ x13(self) == /\ pc[self] = "x13"
              /\ UNCHANGED << obj, pref, cref, doc, mark, keep, locked, waitq, 
                              woken, ev, result, rdata, stack, vtb_, vid_, vtb, 
                              vid, vp_, vc_t, va_, vb_, vout, vmade, vrp, vrl_, 
-                             vp_s, vc_s, vx_, vc, vb_d, vx_d, vp_d, vc_, vcls, 
-                             vrl_d, va_d, vb_de, vx_de, vdels, vdocs, vf_, 
-                             vp_de, vtodo, vkeepl, vmarked, ve, vp_p, vf_p, 
-                             vver, vp_g, vf_g, vx_g, vp_del, vf, vx_del, 
+                             vp_s, vc_s, vval, vx_, vc, vb_d, vx_d, vp_d, vc_, 
+                             vcls, vrl_d, va_d, vb_de, vx_de, vdels, vdocs, 
+                             vf_, vp_de, vtodo, vkeepl, vmarked, ve, vp_p, 
+                             vf_p, vver, vp_g, vf_g, vx_g, vp_del, vf, vx_del, 
                              vp_delm, vp, vc_r, vrl, va, vb, vx >>
 
 x14(self) == /\ pc[self] = "x14"
@@ -2256,10 +2368,10 @@ x14(self) == /\ pc[self] = "x14"
              /\ UNCHANGED << obj, pref, cref, doc, mark, keep, locked, waitq, 
                              woken, ev, result, rdata, vtb_, vid_, vtb, vid, 
                              vp_, vc_t, va_, vb_, vout, vmade, vrp, vrl_, vp_s, 
-                             vc_s, vx_, vc, vb_d, vx_d, vp_d, vc_, vcls, vrl_d, 
-                             va_d, vb_de, vx_de, vdels, vdocs, vf_, vp_p, vf_p, 
-                             vver, vp_g, vf_g, vx_g, vp_del, vf, vx_del, 
-                             vp_delm, vp, vc_r, vrl, va, vb, vx >>
+                             vc_s, vval, vx_, vc, vb_d, vx_d, vp_d, vc_, vcls, 
+                             vrl_d, va_d, vb_de, vx_de, vdels, vdocs, vf_, 
+                             vp_p, vf_p, vver, vp_g, vf_g, vx_g, vp_del, vf, 
+                             vx_del, vp_delm, vp, vc_r, vrl, va, vb, vx >>
 
 x15(self) == /\ pc[self] = "x15"
              /\ mark' = mark \ {P("pidrefdel", vp_d[self])}
@@ -2268,11 +2380,11 @@ x15(self) == /\ pc[self] = "x15"
              /\ UNCHANGED << obj, pref, cref, doc, keep, locked, waitq, woken, 
                              result, rdata, stack, vtb_, vid_, vtb, vid, vp_, 
                              vc_t, va_, vb_, vout, vmade, vrp, vrl_, vp_s, 
-                             vc_s, vx_, vc, vb_d, vx_d, vp_d, vc_, vcls, vrl_d, 
-                             va_d, vb_de, vx_de, vdels, vdocs, vf_, vp_de, 
-                             vtodo, vkeepl, vmarked, ve, vp_p, vf_p, vver, 
-                             vp_g, vf_g, vx_g, vp_del, vf, vx_del, vp_delm, vp, 
-                             vc_r, vrl, va, vb, vx >>
+                             vc_s, vval, vx_, vc, vb_d, vx_d, vp_d, vc_, vcls, 
+                             vrl_d, va_d, vb_de, vx_de, vdels, vdocs, vf_, 
+                             vp_de, vtodo, vkeepl, vmarked, ve, vp_p, vf_p, 
+                             vver, vp_g, vf_g, vx_g, vp_del, vf, vx_del, 
+                             vp_delm, vp, vc_r, vrl, va, vb, vx >>
 
 x16(self) == /\ pc[self] = "x16"
              /\ IF P("cidrefdel", vc_[self]) \in mark
@@ -2284,11 +2396,11 @@ x16(self) == /\ pc[self] = "x16"
              /\ UNCHANGED << obj, pref, cref, doc, keep, locked, waitq, woken, 
                              result, rdata, stack, vtb_, vid_, vtb, vid, vp_, 
                              vc_t, va_, vb_, vout, vmade, vrp, vrl_, vp_s, 
-                             vc_s, vx_, vc, vb_d, vx_d, vp_d, vc_, vcls, vrl_d, 
-                             va_d, vb_de, vx_de, vdels, vdocs, vf_, vp_de, 
-                             vtodo, vkeepl, vmarked, ve, vp_p, vf_p, vver, 
-                             vp_g, vf_g, vx_g, vp_del, vf, vx_del, vp_delm, vp, 
-                             vc_r, vrl, va, vb, vx >>
+                             vc_s, vval, vx_, vc, vb_d, vx_d, vp_d, vc_, vcls, 
+                             vrl_d, va_d, vb_de, vx_de, vdels, vdocs, vf_, 
+                             vp_de, vtodo, vkeepl, vmarked, ve, vp_p, vf_p, 
+                             vver, vp_g, vf_g, vx_g, vp_del, vf, vx_del, 
+                             vp_delm, vp, vc_r, vrl, va, vb, vx >>
 
 dfin(self) == /\ pc[self] = "dfin"
               /\ /\ stack' = [stack EXCEPT ![self] = << [ procedure |->  "release",
@@ -2302,11 +2414,11 @@ dfin(self) == /\ pc[self] = "dfin"
               /\ UNCHANGED << obj, pref, cref, doc, mark, keep, locked, waitq, 
                               woken, ev, result, rdata, vtb_, vid_, vp_, vc_t, 
                               va_, vb_, vout, vmade, vrp, vrl_, vp_s, vc_s, 
-                              vx_, vc, vb_d, vx_d, vp_d, vc_, vcls, vrl_d, 
-                              va_d, vb_de, vx_de, vdels, vdocs, vf_, vp_de, 
-                              vtodo, vkeepl, vmarked, ve, vp_p, vf_p, vver, 
-                              vp_g, vf_g, vx_g, vp_del, vf, vx_del, vp_delm, 
-                              vp, vc_r, vrl, va, vb, vx >>
+                              vval, vx_, vc, vb_d, vx_d, vp_d, vc_, vcls, 
+                              vrl_d, va_d, vb_de, vx_de, vdels, vdocs, vf_, 
+                              vp_de, vtodo, vkeepl, vmarked, ve, vp_p, vf_p, 
+                              vver, vp_g, vf_g, vx_g, vp_del, vf, vx_del, 
+                              vp_delm, vp, vc_r, vrl, va, vb, vx >>
 
 d8(self) == /\ pc[self] = "d8"
             /\ /\ stack' = [stack EXCEPT ![self] = << [ procedure |->  "release",
@@ -2319,8 +2431,8 @@ d8(self) == /\ pc[self] = "d8"
             /\ pc' = [pc EXCEPT ![self] = "rl1"]
             /\ UNCHANGED << obj, pref, cref, doc, mark, keep, locked, waitq, 
                             woken, ev, result, rdata, vtb_, vid_, vp_, vc_t, 
-                            va_, vb_, vout, vmade, vrp, vrl_, vp_s, vc_s, vx_, 
-                            vc, vb_d, vx_d, vp_d, vc_, vcls, vrl_d, va_d, 
+                            va_, vb_, vout, vmade, vrp, vrl_, vp_s, vc_s, vval, 
+                            vx_, vc, vb_d, vx_d, vp_d, vc_, vcls, vrl_d, va_d, 
                             vb_de, vx_de, vdels, vdocs, vf_, vp_de, vtodo, 
                             vkeepl, vmarked, ve, vp_p, vf_p, vver, vp_g, vf_g, 
                             vx_g, vp_del, vf, vx_del, vp_delm, vp, vc_r, vrl, 
@@ -2342,9 +2454,9 @@ d9(self) == /\ pc[self] = "d9"
             /\ stack' = [stack EXCEPT ![self] = Tail(stack[self])]
             /\ UNCHANGED << obj, pref, cref, doc, mark, keep, locked, waitq, 
                             woken, ev, rdata, vtb_, vid_, vtb, vid, vp_, vc_t, 
-                            va_, vb_, vout, vmade, vrp, vrl_, vp_s, vc_s, vx_, 
-                            vc, vb_d, vx_d, vp_de, vtodo, vkeepl, vmarked, ve, 
-                            vp_p, vf_p, vver, vp_g, vf_g, vx_g, vp_del, vf, 
+                            va_, vb_, vout, vmade, vrp, vrl_, vp_s, vc_s, vval, 
+                            vx_, vc, vb_d, vx_d, vp_de, vtodo, vkeepl, vmarked, 
+                            ve, vp_p, vf_p, vver, vp_g, vf_g, vx_g, vp_del, vf, 
                             vx_del, vp_delm, vp, vc_r, vrl, va, vb, vx >>
 
 delete(self) == d1(self) \/ d2(self) \/ f1(self) \/ f2(self) \/ f3(self)
@@ -2369,9 +2481,9 @@ dm1(self) == /\ pc[self] = "dm1"
              /\ UNCHANGED << obj, pref, cref, doc, mark, keep, locked, waitq, 
                              woken, ev, result, rdata, stack, vtb_, vid_, vtb, 
                              vid, vp_, vc_t, va_, vb_, vout, vmade, vrp, vrl_, 
-                             vp_s, vc_s, vx_, vc, vb_d, vx_d, vp_d, vc_, vcls, 
-                             vrl_d, va_d, vb_de, vx_de, vdels, vdocs, vf_, 
-                             vp_de, vkeepl, vmarked, ve, vp_p, vf_p, vver, 
+                             vp_s, vc_s, vval, vx_, vc, vb_d, vx_d, vp_d, vc_, 
+                             vcls, vrl_d, va_d, vb_de, vx_de, vdels, vdocs, 
+                             vf_, vp_de, vkeepl, vmarked, ve, vp_p, vf_p, vver, 
                              vp_g, vf_g, vx_g, vp_del, vf, vx_del, vp_delm, vp, 
                              vc_r, vrl, va, vb, vx >>
 
@@ -2386,11 +2498,11 @@ dm2(self) == /\ pc[self] = "dm2"
              /\ UNCHANGED << obj, pref, cref, doc, mark, keep, locked, waitq, 
                              woken, ev, result, rdata, stack, vtb_, vid_, vtb, 
                              vid, vp_, vc_t, va_, vb_, vout, vmade, vrp, vrl_, 
-                             vp_s, vc_s, vx_, vc, vb_d, vx_d, vp_d, vc_, vcls, 
-                             vrl_d, va_d, vb_de, vx_de, vdels, vdocs, vf_, 
-                             vp_de, vkeepl, vmarked, vp_p, vf_p, vver, vp_g, 
-                             vf_g, vx_g, vp_del, vf, vx_del, vp_delm, vp, vc_r, 
-                             vrl, va, vb, vx >>
+                             vp_s, vc_s, vval, vx_, vc, vb_d, vx_d, vp_d, vc_, 
+                             vcls, vrl_d, va_d, vb_de, vx_de, vdels, vdocs, 
+                             vf_, vp_de, vkeepl, vmarked, vp_p, vf_p, vver, 
+                             vp_g, vf_g, vx_g, vp_del, vf, vx_del, vp_delm, vp, 
+                             vc_r, vrl, va, vb, vx >>
 
 dm3(self) == /\ pc[self] = "dm3"
              /\ IF Here(ve[self][1], vp_de[self], ve[self][2])
@@ -2402,11 +2514,11 @@ dm3(self) == /\ pc[self] = "dm3"
              /\ UNCHANGED << obj, pref, cref, doc, mark, keep, locked, waitq, 
                              woken, result, rdata, stack, vtb_, vid_, vtb, vid, 
                              vp_, vc_t, va_, vb_, vout, vmade, vrp, vrl_, vp_s, 
-                             vc_s, vx_, vc, vb_d, vx_d, vp_d, vc_, vcls, vrl_d, 
-                             va_d, vb_de, vx_de, vdels, vdocs, vf_, vp_de, 
-                             vtodo, vmarked, ve, vp_p, vf_p, vver, vp_g, vf_g, 
-                             vx_g, vp_del, vf, vx_del, vp_delm, vp, vc_r, vrl, 
-                             va, vb, vx >>
+                             vc_s, vval, vx_, vc, vb_d, vx_d, vp_d, vc_, vcls, 
+                             vrl_d, va_d, vb_de, vx_de, vdels, vdocs, vf_, 
+                             vp_de, vtodo, vmarked, ve, vp_p, vf_p, vver, vp_g, 
+                             vf_g, vx_g, vp_del, vf, vx_del, vp_delm, vp, vc_r, 
+                             vrl, va, vb, vx >>
 
 dm4(self) == /\ pc[self] = "dm4"
              /\ IF vkeepl[self] # {}
@@ -2419,11 +2531,11 @@ dm4(self) == /\ pc[self] = "dm4"
              /\ UNCHANGED << obj, pref, cref, doc, mark, keep, locked, waitq, 
                              woken, ev, result, rdata, stack, vtb_, vid_, vtb, 
                              vid, vp_, vc_t, va_, vb_, vout, vmade, vrp, vrl_, 
-                             vp_s, vc_s, vx_, vc, vb_d, vx_d, vp_d, vc_, vcls, 
-                             vrl_d, va_d, vb_de, vx_de, vdels, vdocs, vf_, 
-                             vp_de, vtodo, vmarked, vp_p, vf_p, vver, vp_g, 
-                             vf_g, vx_g, vp_del, vf, vx_del, vp_delm, vp, vc_r, 
-                             vrl, va, vb, vx >>
+                             vp_s, vc_s, vval, vx_, vc, vb_d, vx_d, vp_d, vc_, 
+                             vcls, vrl_d, va_d, vb_de, vx_de, vdels, vdocs, 
+                             vf_, vp_de, vtodo, vmarked, vp_p, vf_p, vver, 
+                             vp_g, vf_g, vx_g, vp_del, vf, vx_del, vp_delm, vp, 
+                             vc_r, vrl, va, vb, vx >>
 
 dm5(self) == /\ pc[self] = "dm5"
              /\ /\ stack' = [stack EXCEPT ![self] = << [ procedure |->  "claim",
@@ -2436,12 +2548,12 @@ dm5(self) == /\ pc[self] = "dm5"
              /\ pc' = [pc EXCEPT ![self] = "cl1"]
              /\ UNCHANGED << obj, pref, cref, doc, mark, keep, locked, waitq, 
                              woken, ev, result, rdata, vtb, vid, vp_, vc_t, 
-                             va_, vb_, vout, vmade, vrp, vrl_, vp_s, vc_s, vx_, 
-                             vc, vb_d, vx_d, vp_d, vc_, vcls, vrl_d, va_d, 
-                             vb_de, vx_de, vdels, vdocs, vf_, vp_de, vtodo, 
-                             vkeepl, vmarked, ve, vp_p, vf_p, vver, vp_g, vf_g, 
-                             vx_g, vp_del, vf, vx_del, vp_delm, vp, vc_r, vrl, 
-                             va, vb, vx >>
+                             va_, vb_, vout, vmade, vrp, vrl_, vp_s, vc_s, 
+                             vval, vx_, vc, vb_d, vx_d, vp_d, vc_, vcls, vrl_d, 
+                             va_d, vb_de, vx_de, vdels, vdocs, vf_, vp_de, 
+                             vtodo, vkeepl, vmarked, ve, vp_p, vf_p, vver, 
+                             vp_g, vf_g, vx_g, vp_del, vf, vx_del, vp_delm, vp, 
+                             vc_r, vrl, va, vb, vx >>
 
 dm6(self) == /\ pc[self] = "dm6"
              /\ ev' = Ev(self, "stat", P(NextKind(ve[self][1]), vp_de[self] \o "/" \o ve[self][2]), NoPath,
@@ -2450,11 +2562,11 @@ dm6(self) == /\ pc[self] = "dm6"
              /\ UNCHANGED << obj, pref, cref, doc, mark, keep, locked, waitq, 
                              woken, result, rdata, stack, vtb_, vid_, vtb, vid, 
                              vp_, vc_t, va_, vb_, vout, vmade, vrp, vrl_, vp_s, 
-                             vc_s, vx_, vc, vb_d, vx_d, vp_d, vc_, vcls, vrl_d, 
-                             va_d, vb_de, vx_de, vdels, vdocs, vf_, vp_de, 
-                             vtodo, vkeepl, vmarked, ve, vp_p, vf_p, vver, 
-                             vp_g, vf_g, vx_g, vp_del, vf, vx_del, vp_delm, vp, 
-                             vc_r, vrl, va, vb, vx >>
+                             vc_s, vval, vx_, vc, vb_d, vx_d, vp_d, vc_, vcls, 
+                             vrl_d, va_d, vb_de, vx_de, vdels, vdocs, vf_, 
+                             vp_de, vtodo, vkeepl, vmarked, ve, vp_p, vf_p, 
+                             vver, vp_g, vf_g, vx_g, vp_del, vf, vx_del, 
+                             vp_delm, vp, vc_r, vrl, va, vb, vx >>
 
 dm7(self) == /\ pc[self] = "dm7"
              /\ IF Here(ve[self][1], vp_de[self], ve[self][2])
@@ -2471,11 +2583,11 @@ dm7(self) == /\ pc[self] = "dm7"
              /\ UNCHANGED << obj, pref, cref, keep, locked, waitq, woken, 
                              result, rdata, stack, vtb_, vid_, vtb, vid, vp_, 
                              vc_t, va_, vb_, vout, vmade, vrp, vrl_, vp_s, 
-                             vc_s, vx_, vc, vb_d, vx_d, vp_d, vc_, vcls, vrl_d, 
-                             va_d, vb_de, vx_de, vdels, vdocs, vf_, vp_de, 
-                             vtodo, vkeepl, vmarked, ve, vp_p, vf_p, vver, 
-                             vp_g, vf_g, vx_g, vp_del, vf, vx_del, vp_delm, vp, 
-                             vc_r, vrl, va, vb, vx >>
+                             vc_s, vval, vx_, vc, vb_d, vx_d, vp_d, vc_, vcls, 
+                             vrl_d, va_d, vb_de, vx_de, vdels, vdocs, vf_, 
+                             vp_de, vtodo, vkeepl, vmarked, ve, vp_p, vf_p, 
+                             vver, vp_g, vf_g, vx_g, vp_del, vf, vx_del, 
+                             vp_delm, vp, vc_r, vrl, va, vb, vx >>
 
 dm7b(self) == /\ pc[self] = "dm7b"
               /\ mark' = (mark \cup {P(NextKind(ve[self][1]), vp_de[self] \o "/" \o ve[self][2])})
@@ -2485,7 +2597,7 @@ dm7b(self) == /\ pc[self] = "dm7b"
               /\ UNCHANGED << obj, pref, cref, doc, keep, locked, waitq, woken, 
                               result, rdata, stack, vtb_, vid_, vtb, vid, vp_, 
                               vc_t, va_, vb_, vout, vmade, vrp, vrl_, vp_s, 
-                              vc_s, vx_, vc, vb_d, vx_d, vp_d, vc_, vcls, 
+                              vc_s, vval, vx_, vc, vb_d, vx_d, vp_d, vc_, vcls, 
                               vrl_d, va_d, vb_de, vx_de, vdels, vdocs, vf_, 
                               vp_de, vtodo, vkeepl, ve, vp_p, vf_p, vver, vp_g, 
                               vf_g, vx_g, vp_del, vf, vx_del, vp_delm, vp, 
@@ -2497,11 +2609,11 @@ mf1(self) == /\ pc[self] = "mf1"
              /\ UNCHANGED << obj, pref, cref, doc, mark, keep, locked, waitq, 
                              woken, result, rdata, stack, vtb_, vid_, vtb, vid, 
                              vp_, vc_t, va_, vb_, vout, vmade, vrp, vrl_, vp_s, 
-                             vc_s, vx_, vc, vb_d, vx_d, vp_d, vc_, vcls, vrl_d, 
-                             va_d, vb_de, vx_de, vdels, vdocs, vf_, vp_de, 
-                             vtodo, vkeepl, vmarked, ve, vp_p, vf_p, vver, 
-                             vp_g, vf_g, vx_g, vp_del, vf, vx_del, vp_delm, vp, 
-                             vc_r, vrl, va, vb, vx >>
+                             vc_s, vval, vx_, vc, vb_d, vx_d, vp_d, vc_, vcls, 
+                             vrl_d, va_d, vb_de, vx_de, vdels, vdocs, vf_, 
+                             vp_de, vtodo, vkeepl, vmarked, ve, vp_p, vf_p, 
+                             vver, vp_g, vf_g, vx_g, vp_del, vf, vx_del, 
+                             vp_delm, vp, vc_r, vrl, va, vb, vx >>
 
 mf2(self) == /\ pc[self] = "mf2"
              /\ ev' = Ev(self, "stat", P(ve[self][1], vp_de[self] \o "/" \o ve[self][2]), NoPath, FN(Here(ve[self][1], vp_de[self], ve[self][2])))
@@ -2509,11 +2621,11 @@ mf2(self) == /\ pc[self] = "mf2"
              /\ UNCHANGED << obj, pref, cref, doc, mark, keep, locked, waitq, 
                              woken, result, rdata, stack, vtb_, vid_, vtb, vid, 
                              vp_, vc_t, va_, vb_, vout, vmade, vrp, vrl_, vp_s, 
-                             vc_s, vx_, vc, vb_d, vx_d, vp_d, vc_, vcls, vrl_d, 
-                             va_d, vb_de, vx_de, vdels, vdocs, vf_, vp_de, 
-                             vtodo, vkeepl, vmarked, ve, vp_p, vf_p, vver, 
-                             vp_g, vf_g, vx_g, vp_del, vf, vx_del, vp_delm, vp, 
-                             vc_r, vrl, va, vb, vx >>
+                             vc_s, vval, vx_, vc, vb_d, vx_d, vp_d, vc_, vcls, 
+                             vrl_d, va_d, vb_de, vx_de, vdels, vdocs, vf_, 
+                             vp_de, vtodo, vkeepl, vmarked, ve, vp_p, vf_p, 
+                             vver, vp_g, vf_g, vx_g, vp_del, vf, vx_del, 
+                             vp_delm, vp, vc_r, vrl, va, vb, vx >>
 
 mf3(self) == /\ pc[self] = "mf3"
              /\ ev' = Ev(self, "stat", P(NextKind(ve[self][1]), vp_de[self] \o "/" \o ve[self][2]), NoPath,
@@ -2522,11 +2634,11 @@ mf3(self) == /\ pc[self] = "mf3"
              /\ UNCHANGED << obj, pref, cref, doc, mark, keep, locked, waitq, 
                              woken, result, rdata, stack, vtb_, vid_, vtb, vid, 
                              vp_, vc_t, va_, vb_, vout, vmade, vrp, vrl_, vp_s, 
-                             vc_s, vx_, vc, vb_d, vx_d, vp_d, vc_, vcls, vrl_d, 
-                             va_d, vb_de, vx_de, vdels, vdocs, vf_, vp_de, 
-                             vtodo, vkeepl, vmarked, ve, vp_p, vf_p, vver, 
-                             vp_g, vf_g, vx_g, vp_del, vf, vx_del, vp_delm, vp, 
-                             vc_r, vrl, va, vb, vx >>
+                             vc_s, vval, vx_, vc, vb_d, vx_d, vp_d, vc_, vcls, 
+                             vrl_d, va_d, vb_de, vx_de, vdels, vdocs, vf_, 
+                             vp_de, vtodo, vkeepl, vmarked, ve, vp_p, vf_p, 
+                             vver, vp_g, vf_g, vx_g, vp_del, vf, vx_del, 
+                             vp_delm, vp, vc_r, vrl, va, vb, vx >>
 
 mf4(self) == /\ pc[self] = "mf4"
              /\ ev' = Ev(self, "stat", P(ve[self][1], vp_de[self] \o "/" \o ve[self][2]), NoPath, FN(Here(ve[self][1], vp_de[self], ve[self][2])))
@@ -2534,11 +2646,11 @@ mf4(self) == /\ pc[self] = "mf4"
              /\ UNCHANGED << obj, pref, cref, doc, mark, keep, locked, waitq, 
                              woken, result, rdata, stack, vtb_, vid_, vtb, vid, 
                              vp_, vc_t, va_, vb_, vout, vmade, vrp, vrl_, vp_s, 
-                             vc_s, vx_, vc, vb_d, vx_d, vp_d, vc_, vcls, vrl_d, 
-                             va_d, vb_de, vx_de, vdels, vdocs, vf_, vp_de, 
-                             vtodo, vkeepl, vmarked, ve, vp_p, vf_p, vver, 
-                             vp_g, vf_g, vx_g, vp_del, vf, vx_del, vp_delm, vp, 
-                             vc_r, vrl, va, vb, vx >>
+                             vc_s, vval, vx_, vc, vb_d, vx_d, vp_d, vc_, vcls, 
+                             vrl_d, va_d, vb_de, vx_de, vdels, vdocs, vf_, 
+                             vp_de, vtodo, vkeepl, vmarked, ve, vp_p, vf_p, 
+                             vver, vp_g, vf_g, vx_g, vp_del, vf, vx_del, 
+                             vp_delm, vp, vc_r, vrl, va, vb, vx >>
 
 mf5(self) == /\ pc[self] = "mf5"
              /\ ev' = Ev(self, "stat", P(ve[self][1], vp_de[self] \o "/" \o ve[self][2]), NoPath, FN(Here(ve[self][1], vp_de[self], ve[self][2])))
@@ -2546,11 +2658,11 @@ mf5(self) == /\ pc[self] = "mf5"
              /\ UNCHANGED << obj, pref, cref, doc, mark, keep, locked, waitq, 
                              woken, result, rdata, stack, vtb_, vid_, vtb, vid, 
                              vp_, vc_t, va_, vb_, vout, vmade, vrp, vrl_, vp_s, 
-                             vc_s, vx_, vc, vb_d, vx_d, vp_d, vc_, vcls, vrl_d, 
-                             va_d, vb_de, vx_de, vdels, vdocs, vf_, vp_de, 
-                             vtodo, vkeepl, vmarked, ve, vp_p, vf_p, vver, 
-                             vp_g, vf_g, vx_g, vp_del, vf, vx_del, vp_delm, vp, 
-                             vc_r, vrl, va, vb, vx >>
+                             vc_s, vval, vx_, vc, vb_d, vx_d, vp_d, vc_, vcls, 
+                             vrl_d, va_d, vb_de, vx_de, vdels, vdocs, vf_, 
+                             vp_de, vtodo, vkeepl, vmarked, ve, vp_p, vf_p, 
+                             vver, vp_g, vf_g, vx_g, vp_del, vf, vx_del, 
+                             vp_delm, vp, vc_r, vrl, va, vb, vx >>
 
 mf6(self) == /\ pc[self] = "mf6"
              /\ ev' = Ev(self, "stat", P(NextKind(ve[self][1]), vp_de[self] \o "/" \o ve[self][2]), NoPath,
@@ -2559,11 +2671,11 @@ mf6(self) == /\ pc[self] = "mf6"
              /\ UNCHANGED << obj, pref, cref, doc, mark, keep, locked, waitq, 
                              woken, result, rdata, stack, vtb_, vid_, vtb, vid, 
                              vp_, vc_t, va_, vb_, vout, vmade, vrp, vrl_, vp_s, 
-                             vc_s, vx_, vc, vb_d, vx_d, vp_d, vc_, vcls, vrl_d, 
-                             va_d, vb_de, vx_de, vdels, vdocs, vf_, vp_de, 
-                             vtodo, vkeepl, vmarked, ve, vp_p, vf_p, vver, 
-                             vp_g, vf_g, vx_g, vp_del, vf, vx_del, vp_delm, vp, 
-                             vc_r, vrl, va, vb, vx >>
+                             vc_s, vval, vx_, vc, vb_d, vx_d, vp_d, vc_, vcls, 
+                             vrl_d, va_d, vb_de, vx_de, vdels, vdocs, vf_, 
+                             vp_de, vtodo, vkeepl, vmarked, ve, vp_p, vf_p, 
+                             vver, vp_g, vf_g, vx_g, vp_del, vf, vx_del, 
+                             vp_delm, vp, vc_r, vrl, va, vb, vx >>
 
 mf7(self) == /\ pc[self] = "mf7"
              /\ IF ve[self][1] = "doc"
@@ -2574,11 +2686,11 @@ mf7(self) == /\ pc[self] = "mf7"
              /\ UNCHANGED << obj, pref, cref, doc, mark, keep, locked, waitq, 
                              woken, result, rdata, stack, vtb_, vid_, vtb, vid, 
                              vp_, vc_t, va_, vb_, vout, vmade, vrp, vrl_, vp_s, 
-                             vc_s, vx_, vc, vb_d, vx_d, vp_d, vc_, vcls, vrl_d, 
-                             va_d, vb_de, vx_de, vdels, vdocs, vf_, vp_de, 
-                             vtodo, vkeepl, vmarked, ve, vp_p, vf_p, vver, 
-                             vp_g, vf_g, vx_g, vp_del, vf, vx_del, vp_delm, vp, 
-                             vc_r, vrl, va, vb, vx >>
+                             vc_s, vval, vx_, vc, vb_d, vx_d, vp_d, vc_, vcls, 
+                             vrl_d, va_d, vb_de, vx_de, vdels, vdocs, vf_, 
+                             vp_de, vtodo, vkeepl, vmarked, ve, vp_p, vf_p, 
+                             vver, vp_g, vf_g, vx_g, vp_del, vf, vx_del, 
+                             vp_delm, vp, vc_r, vrl, va, vb, vx >>
 
 dm8(self) == /\ pc[self] = "dm8"
              /\ /\ stack' = [stack EXCEPT ![self] = << [ procedure |->  "release",
@@ -2591,12 +2703,12 @@ dm8(self) == /\ pc[self] = "dm8"
              /\ pc' = [pc EXCEPT ![self] = "rl1"]
              /\ UNCHANGED << obj, pref, cref, doc, mark, keep, locked, waitq, 
                              woken, ev, result, rdata, vtb_, vid_, vp_, vc_t, 
-                             va_, vb_, vout, vmade, vrp, vrl_, vp_s, vc_s, vx_, 
-                             vc, vb_d, vx_d, vp_d, vc_, vcls, vrl_d, va_d, 
-                             vb_de, vx_de, vdels, vdocs, vf_, vp_de, vtodo, 
-                             vkeepl, vmarked, ve, vp_p, vf_p, vver, vp_g, vf_g, 
-                             vx_g, vp_del, vf, vx_del, vp_delm, vp, vc_r, vrl, 
-                             va, vb, vx >>
+                             va_, vb_, vout, vmade, vrp, vrl_, vp_s, vc_s, 
+                             vval, vx_, vc, vb_d, vx_d, vp_d, vc_, vcls, vrl_d, 
+                             va_d, vb_de, vx_de, vdels, vdocs, vf_, vp_de, 
+                             vtodo, vkeepl, vmarked, ve, vp_p, vf_p, vver, 
+                             vp_g, vf_g, vx_g, vp_del, vf, vx_del, vp_delm, vp, 
+                             vc_r, vrl, va, vb, vx >>
 
 dm9(self) == /\ pc[self] = "dm9"
              /\ IF vmarked[self] # {}
@@ -2609,9 +2721,9 @@ dm9(self) == /\ pc[self] = "dm9"
              /\ UNCHANGED << obj, pref, cref, doc, mark, keep, locked, waitq, 
                              woken, ev, result, rdata, stack, vtb_, vid_, vtb, 
                              vid, vp_, vc_t, va_, vb_, vout, vmade, vrp, vrl_, 
-                             vp_s, vc_s, vx_, vc, vb_d, vx_d, vp_d, vc_, vcls, 
-                             vrl_d, va_d, vb_de, vx_de, vdels, vdocs, vf_, 
-                             vp_de, vtodo, vkeepl, vp_p, vf_p, vver, vp_g, 
+                             vp_s, vc_s, vval, vx_, vc, vb_d, vx_d, vp_d, vc_, 
+                             vcls, vrl_d, va_d, vb_de, vx_de, vdels, vdocs, 
+                             vf_, vp_de, vtodo, vkeepl, vp_p, vf_p, vver, vp_g, 
                              vf_g, vx_g, vp_del, vf, vx_del, vp_delm, vp, vc_r, 
                              vrl, va, vb, vx >>
 
@@ -2625,7 +2737,7 @@ dm10(self) == /\ pc[self] = "dm10"
               /\ UNCHANGED << obj, pref, cref, doc, keep, locked, waitq, woken, 
                               result, rdata, stack, vtb_, vid_, vtb, vid, vp_, 
                               vc_t, va_, vb_, vout, vmade, vrp, vrl_, vp_s, 
-                              vc_s, vx_, vc, vb_d, vx_d, vp_d, vc_, vcls, 
+                              vc_s, vval, vx_, vc, vb_d, vx_d, vp_d, vc_, vcls, 
                               vrl_d, va_d, vb_de, vx_de, vdels, vdocs, vf_, 
                               vp_de, vtodo, vkeepl, vmarked, ve, vp_p, vf_p, 
                               vver, vp_g, vf_g, vx_g, vp_del, vf, vx_del, 
@@ -2642,10 +2754,10 @@ dm11(self) == /\ pc[self] = "dm11"
               /\ UNCHANGED << obj, pref, cref, doc, mark, keep, locked, waitq, 
                               woken, ev, result, rdata, vtb_, vid_, vtb, vid, 
                               vp_, vc_t, va_, vb_, vout, vmade, vrp, vrl_, 
-                              vp_s, vc_s, vx_, vc, vb_d, vx_d, vp_d, vc_, vcls, 
-                              vrl_d, va_d, vb_de, vx_de, vdels, vdocs, vf_, 
-                              vp_p, vf_p, vver, vp_g, vf_g, vx_g, vp_del, vf, 
-                              vx_del, vp_delm, vp, vc_r, vrl, va, vb, vx >>
+                              vp_s, vc_s, vval, vx_, vc, vb_d, vx_d, vp_d, vc_, 
+                              vcls, vrl_d, va_d, vb_de, vx_de, vdels, vdocs, 
+                              vf_, vp_p, vf_p, vver, vp_g, vf_g, vx_g, vp_del, 
+                              vf, vx_del, vp_delm, vp, vc_r, vrl, va, vb, vx >>
 
 delmeta_all(self) == dm1(self) \/ dm2(self) \/ dm3(self) \/ dm4(self)
                         \/ dm5(self) \/ dm6(self) \/ dm7(self)
@@ -2665,12 +2777,12 @@ pm1(self) == /\ pc[self] = "pm1"
              /\ pc' = [pc EXCEPT ![self] = "cl1"]
              /\ UNCHANGED << obj, pref, cref, doc, mark, keep, locked, waitq, 
                              woken, ev, result, rdata, vtb, vid, vp_, vc_t, 
-                             va_, vb_, vout, vmade, vrp, vrl_, vp_s, vc_s, vx_, 
-                             vc, vb_d, vx_d, vp_d, vc_, vcls, vrl_d, va_d, 
-                             vb_de, vx_de, vdels, vdocs, vf_, vp_de, vtodo, 
-                             vkeepl, vmarked, ve, vp_p, vf_p, vver, vp_g, vf_g, 
-                             vx_g, vp_del, vf, vx_del, vp_delm, vp, vc_r, vrl, 
-                             va, vb, vx >>
+                             va_, vb_, vout, vmade, vrp, vrl_, vp_s, vc_s, 
+                             vval, vx_, vc, vb_d, vx_d, vp_d, vc_, vcls, vrl_d, 
+                             va_d, vb_de, vx_de, vdels, vdocs, vf_, vp_de, 
+                             vtodo, vkeepl, vmarked, ve, vp_p, vf_p, vver, 
+                             vp_g, vf_g, vx_g, vp_del, vf, vx_del, vp_delm, vp, 
+                             vc_r, vrl, va, vb, vx >>
 
 pm2(self) == /\ pc[self] = "pm2"
              /\ ev' = Ev(self, "stat", P("doc", vp_p[self] \o "/" \o vf_p[self]), NoPath, FN(doc[vp_p[self]][vf_p[self]] # None))
@@ -2678,11 +2790,11 @@ pm2(self) == /\ pc[self] = "pm2"
              /\ UNCHANGED << obj, pref, cref, doc, mark, keep, locked, waitq, 
                              woken, result, rdata, stack, vtb_, vid_, vtb, vid, 
                              vp_, vc_t, va_, vb_, vout, vmade, vrp, vrl_, vp_s, 
-                             vc_s, vx_, vc, vb_d, vx_d, vp_d, vc_, vcls, vrl_d, 
-                             va_d, vb_de, vx_de, vdels, vdocs, vf_, vp_de, 
-                             vtodo, vkeepl, vmarked, ve, vp_p, vf_p, vver, 
-                             vp_g, vf_g, vx_g, vp_del, vf, vx_del, vp_delm, vp, 
-                             vc_r, vrl, va, vb, vx >>
+                             vc_s, vval, vx_, vc, vb_d, vx_d, vp_d, vc_, vcls, 
+                             vrl_d, va_d, vb_de, vx_de, vdels, vdocs, vf_, 
+                             vp_de, vtodo, vkeepl, vmarked, ve, vp_p, vf_p, 
+                             vver, vp_g, vf_g, vx_g, vp_del, vf, vx_del, 
+                             vp_delm, vp, vc_r, vrl, va, vb, vx >>
 
 pm3(self) == /\ pc[self] = "pm3"
              /\ doc' = [doc EXCEPT ![vp_p[self]][vf_p[self]] = vver[self]]
@@ -2691,11 +2803,11 @@ pm3(self) == /\ pc[self] = "pm3"
              /\ UNCHANGED << obj, pref, cref, mark, keep, locked, waitq, woken, 
                              result, rdata, stack, vtb_, vid_, vtb, vid, vp_, 
                              vc_t, va_, vb_, vout, vmade, vrp, vrl_, vp_s, 
-                             vc_s, vx_, vc, vb_d, vx_d, vp_d, vc_, vcls, vrl_d, 
-                             va_d, vb_de, vx_de, vdels, vdocs, vf_, vp_de, 
-                             vtodo, vkeepl, vmarked, ve, vp_p, vf_p, vver, 
-                             vp_g, vf_g, vx_g, vp_del, vf, vx_del, vp_delm, vp, 
-                             vc_r, vrl, va, vb, vx >>
+                             vc_s, vval, vx_, vc, vb_d, vx_d, vp_d, vc_, vcls, 
+                             vrl_d, va_d, vb_de, vx_de, vdels, vdocs, vf_, 
+                             vp_de, vtodo, vkeepl, vmarked, ve, vp_p, vf_p, 
+                             vver, vp_g, vf_g, vx_g, vp_del, vf, vx_del, 
+                             vp_delm, vp, vc_r, vrl, va, vb, vx >>
 
 pm4(self) == /\ pc[self] = "pm4"
              /\ /\ stack' = [stack EXCEPT ![self] = << [ procedure |->  "release",
@@ -2708,12 +2820,12 @@ pm4(self) == /\ pc[self] = "pm4"
              /\ pc' = [pc EXCEPT ![self] = "rl1"]
              /\ UNCHANGED << obj, pref, cref, doc, mark, keep, locked, waitq, 
                              woken, ev, result, rdata, vtb_, vid_, vp_, vc_t, 
-                             va_, vb_, vout, vmade, vrp, vrl_, vp_s, vc_s, vx_, 
-                             vc, vb_d, vx_d, vp_d, vc_, vcls, vrl_d, va_d, 
-                             vb_de, vx_de, vdels, vdocs, vf_, vp_de, vtodo, 
-                             vkeepl, vmarked, ve, vp_p, vf_p, vver, vp_g, vf_g, 
-                             vx_g, vp_del, vf, vx_del, vp_delm, vp, vc_r, vrl, 
-                             va, vb, vx >>
+                             va_, vb_, vout, vmade, vrp, vrl_, vp_s, vc_s, 
+                             vval, vx_, vc, vb_d, vx_d, vp_d, vc_, vcls, vrl_d, 
+                             va_d, vb_de, vx_de, vdels, vdocs, vf_, vp_de, 
+                             vtodo, vkeepl, vmarked, ve, vp_p, vf_p, vver, 
+                             vp_g, vf_g, vx_g, vp_del, vf, vx_del, vp_delm, vp, 
+                             vc_r, vrl, va, vb, vx >>
 
 pm5(self) == /\ pc[self] = "pm5"
              /\ result' = [result EXCEPT ![self] = "ok"]
@@ -2724,11 +2836,12 @@ pm5(self) == /\ pc[self] = "pm5"
              /\ stack' = [stack EXCEPT ![self] = Tail(stack[self])]
              /\ UNCHANGED << obj, pref, cref, doc, mark, keep, locked, waitq, 
                              woken, ev, rdata, vtb_, vid_, vtb, vid, vp_, vc_t, 
-                             va_, vb_, vout, vmade, vrp, vrl_, vp_s, vc_s, vx_, 
-                             vc, vb_d, vx_d, vp_d, vc_, vcls, vrl_d, va_d, 
-                             vb_de, vx_de, vdels, vdocs, vf_, vp_de, vtodo, 
-                             vkeepl, vmarked, ve, vp_g, vf_g, vx_g, vp_del, vf, 
-                             vx_del, vp_delm, vp, vc_r, vrl, va, vb, vx >>
+                             va_, vb_, vout, vmade, vrp, vrl_, vp_s, vc_s, 
+                             vval, vx_, vc, vb_d, vx_d, vp_d, vc_, vcls, vrl_d, 
+                             va_d, vb_de, vx_de, vdels, vdocs, vf_, vp_de, 
+                             vtodo, vkeepl, vmarked, ve, vp_g, vf_g, vx_g, 
+                             vp_del, vf, vx_del, vp_delm, vp, vc_r, vrl, va, 
+                             vb, vx >>
 
 putmeta(self) == pm1(self) \/ pm2(self) \/ pm3(self) \/ pm4(self)
                     \/ pm5(self)
@@ -2744,11 +2857,11 @@ gm1(self) == /\ pc[self] = "gm1"
              /\ UNCHANGED << obj, pref, cref, doc, mark, keep, locked, waitq, 
                              woken, rdata, stack, vtb_, vid_, vtb, vid, vp_, 
                              vc_t, va_, vb_, vout, vmade, vrp, vrl_, vp_s, 
-                             vc_s, vx_, vc, vb_d, vx_d, vp_d, vc_, vcls, vrl_d, 
-                             va_d, vb_de, vx_de, vdels, vdocs, vf_, vp_de, 
-                             vtodo, vkeepl, vmarked, ve, vp_p, vf_p, vver, 
-                             vp_g, vf_g, vp_del, vf, vx_del, vp_delm, vp, vc_r, 
-                             vrl, va, vb, vx >>
+                             vc_s, vval, vx_, vc, vb_d, vx_d, vp_d, vc_, vcls, 
+                             vrl_d, va_d, vb_de, vx_de, vdels, vdocs, vf_, 
+                             vp_de, vtodo, vkeepl, vmarked, ve, vp_p, vf_p, 
+                             vver, vp_g, vf_g, vp_del, vf, vx_del, vp_delm, vp, 
+                             vc_r, vrl, va, vb, vx >>
 
 gm2(self) == /\ pc[self] = "gm2"
              /\ vx_g' = [vx_g EXCEPT ![self] = doc[vp_g[self]][vf_g[self]] # None]
@@ -2761,11 +2874,11 @@ gm2(self) == /\ pc[self] = "gm2"
              /\ UNCHANGED << obj, pref, cref, doc, mark, keep, locked, waitq, 
                              woken, rdata, stack, vtb_, vid_, vtb, vid, vp_, 
                              vc_t, va_, vb_, vout, vmade, vrp, vrl_, vp_s, 
-                             vc_s, vx_, vc, vb_d, vx_d, vp_d, vc_, vcls, vrl_d, 
-                             va_d, vb_de, vx_de, vdels, vdocs, vf_, vp_de, 
-                             vtodo, vkeepl, vmarked, ve, vp_p, vf_p, vver, 
-                             vp_g, vf_g, vp_del, vf, vx_del, vp_delm, vp, vc_r, 
-                             vrl, va, vb, vx >>
+                             vc_s, vval, vx_, vc, vb_d, vx_d, vp_d, vc_, vcls, 
+                             vrl_d, va_d, vb_de, vx_de, vdels, vdocs, vf_, 
+                             vp_de, vtodo, vkeepl, vmarked, ve, vp_p, vf_p, 
+                             vver, vp_g, vf_g, vp_del, vf, vx_del, vp_delm, vp, 
+                             vc_r, vrl, va, vb, vx >>
 
 gm3(self) == /\ pc[self] = "gm3"
              /\ IF doc[vp_g[self]][vf_g[self]] = None
@@ -2778,12 +2891,12 @@ gm3(self) == /\ pc[self] = "gm3"
              /\ pc' = [pc EXCEPT ![self] = "gm4"]
              /\ UNCHANGED << obj, pref, cref, doc, mark, keep, locked, waitq, 
                              woken, stack, vtb_, vid_, vtb, vid, vp_, vc_t, 
-                             va_, vb_, vout, vmade, vrp, vrl_, vp_s, vc_s, vx_, 
-                             vc, vb_d, vx_d, vp_d, vc_, vcls, vrl_d, va_d, 
-                             vb_de, vx_de, vdels, vdocs, vf_, vp_de, vtodo, 
-                             vkeepl, vmarked, ve, vp_p, vf_p, vver, vp_g, vf_g, 
-                             vx_g, vp_del, vf, vx_del, vp_delm, vp, vc_r, vrl, 
-                             va, vb, vx >>
+                             va_, vb_, vout, vmade, vrp, vrl_, vp_s, vc_s, 
+                             vval, vx_, vc, vb_d, vx_d, vp_d, vc_, vcls, vrl_d, 
+                             va_d, vb_de, vx_de, vdels, vdocs, vf_, vp_de, 
+                             vtodo, vkeepl, vmarked, ve, vp_p, vf_p, vver, 
+                             vp_g, vf_g, vx_g, vp_del, vf, vx_del, vp_delm, vp, 
+                             vc_r, vrl, va, vb, vx >>
 
 gm4(self) == /\ pc[self] = "gm4"
              /\ pc' = [pc EXCEPT ![self] = Head(stack[self]).pc]
@@ -2794,11 +2907,11 @@ gm4(self) == /\ pc[self] = "gm4"
              /\ UNCHANGED << obj, pref, cref, doc, mark, keep, locked, waitq, 
                              woken, ev, result, rdata, vtb_, vid_, vtb, vid, 
                              vp_, vc_t, va_, vb_, vout, vmade, vrp, vrl_, vp_s, 
-                             vc_s, vx_, vc, vb_d, vx_d, vp_d, vc_, vcls, vrl_d, 
-                             va_d, vb_de, vx_de, vdels, vdocs, vf_, vp_de, 
-                             vtodo, vkeepl, vmarked, ve, vp_p, vf_p, vver, 
-                             vp_del, vf, vx_del, vp_delm, vp, vc_r, vrl, va, 
-                             vb, vx >>
+                             vc_s, vval, vx_, vc, vb_d, vx_d, vp_d, vc_, vcls, 
+                             vrl_d, va_d, vb_de, vx_de, vdels, vdocs, vf_, 
+                             vp_de, vtodo, vkeepl, vmarked, ve, vp_p, vf_p, 
+                             vver, vp_del, vf, vx_del, vp_delm, vp, vc_r, vrl, 
+                             va, vb, vx >>
 
 getmeta(self) == gm1(self) \/ gm2(self) \/ gm3(self) \/ gm4(self)
 
@@ -2813,12 +2926,12 @@ do1(self) == /\ pc[self] = "do1"
              /\ pc' = [pc EXCEPT ![self] = "cl1"]
              /\ UNCHANGED << obj, pref, cref, doc, mark, keep, locked, waitq, 
                              woken, ev, result, rdata, vtb, vid, vp_, vc_t, 
-                             va_, vb_, vout, vmade, vrp, vrl_, vp_s, vc_s, vx_, 
-                             vc, vb_d, vx_d, vp_d, vc_, vcls, vrl_d, va_d, 
-                             vb_de, vx_de, vdels, vdocs, vf_, vp_de, vtodo, 
-                             vkeepl, vmarked, ve, vp_p, vf_p, vver, vp_g, vf_g, 
-                             vx_g, vp_del, vf, vx_del, vp_delm, vp, vc_r, vrl, 
-                             va, vb, vx >>
+                             va_, vb_, vout, vmade, vrp, vrl_, vp_s, vc_s, 
+                             vval, vx_, vc, vb_d, vx_d, vp_d, vc_, vcls, vrl_d, 
+                             va_d, vb_de, vx_de, vdels, vdocs, vf_, vp_de, 
+                             vtodo, vkeepl, vmarked, ve, vp_p, vf_p, vver, 
+                             vp_g, vf_g, vx_g, vp_del, vf, vx_del, vp_delm, vp, 
+                             vc_r, vrl, va, vb, vx >>
 
 do2(self) == /\ pc[self] = "do2"
              /\ vx_del' = [vx_del EXCEPT ![self] = doc[vp_del[self]][vf[self]] # None]
@@ -2829,11 +2942,11 @@ do2(self) == /\ pc[self] = "do2"
              /\ UNCHANGED << obj, pref, cref, doc, mark, keep, locked, waitq, 
                              woken, result, rdata, stack, vtb_, vid_, vtb, vid, 
                              vp_, vc_t, va_, vb_, vout, vmade, vrp, vrl_, vp_s, 
-                             vc_s, vx_, vc, vb_d, vx_d, vp_d, vc_, vcls, vrl_d, 
-                             va_d, vb_de, vx_de, vdels, vdocs, vf_, vp_de, 
-                             vtodo, vkeepl, vmarked, ve, vp_p, vf_p, vver, 
-                             vp_g, vf_g, vx_g, vp_del, vf, vp_delm, vp, vc_r, 
-                             vrl, va, vb, vx >>
+                             vc_s, vval, vx_, vc, vb_d, vx_d, vp_d, vc_, vcls, 
+                             vrl_d, va_d, vb_de, vx_de, vdels, vdocs, vf_, 
+                             vp_de, vtodo, vkeepl, vmarked, ve, vp_p, vf_p, 
+                             vver, vp_g, vf_g, vx_g, vp_del, vf, vp_delm, vp, 
+                             vc_r, vrl, va, vb, vx >>
 
 do3(self) == /\ pc[self] = "do3"
              /\ IF doc[vp_del[self]][vf[self]] = None
@@ -2846,12 +2959,12 @@ do3(self) == /\ pc[self] = "do3"
              /\ pc' = [pc EXCEPT ![self] = "do5"]
              /\ UNCHANGED << obj, pref, cref, mark, keep, locked, waitq, woken, 
                              rdata, stack, vtb_, vid_, vtb, vid, vp_, vc_t, 
-                             va_, vb_, vout, vmade, vrp, vrl_, vp_s, vc_s, vx_, 
-                             vc, vb_d, vx_d, vp_d, vc_, vcls, vrl_d, va_d, 
-                             vb_de, vx_de, vdels, vdocs, vf_, vp_de, vtodo, 
-                             vkeepl, vmarked, ve, vp_p, vf_p, vver, vp_g, vf_g, 
-                             vx_g, vp_del, vf, vx_del, vp_delm, vp, vc_r, vrl, 
-                             va, vb, vx >>
+                             va_, vb_, vout, vmade, vrp, vrl_, vp_s, vc_s, 
+                             vval, vx_, vc, vb_d, vx_d, vp_d, vc_, vcls, vrl_d, 
+                             va_d, vb_de, vx_de, vdels, vdocs, vf_, vp_de, 
+                             vtodo, vkeepl, vmarked, ve, vp_p, vf_p, vver, 
+                             vp_g, vf_g, vx_g, vp_del, vf, vx_del, vp_delm, vp, 
+                             vc_r, vrl, va, vb, vx >>
 
 do4(self) == /\ pc[self] = "do4"
              /\ ev' = Ev(self, "stat", P("doc", vp_del[self] \o "/" \o vf[self]), NoPath, FN(doc[vp_del[self]][vf[self]] # None))
@@ -2859,11 +2972,11 @@ do4(self) == /\ pc[self] = "do4"
              /\ UNCHANGED << obj, pref, cref, doc, mark, keep, locked, waitq, 
                              woken, result, rdata, stack, vtb_, vid_, vtb, vid, 
                              vp_, vc_t, va_, vb_, vout, vmade, vrp, vrl_, vp_s, 
-                             vc_s, vx_, vc, vb_d, vx_d, vp_d, vc_, vcls, vrl_d, 
-                             va_d, vb_de, vx_de, vdels, vdocs, vf_, vp_de, 
-                             vtodo, vkeepl, vmarked, ve, vp_p, vf_p, vver, 
-                             vp_g, vf_g, vx_g, vp_del, vf, vx_del, vp_delm, vp, 
-                             vc_r, vrl, va, vb, vx >>
+                             vc_s, vval, vx_, vc, vb_d, vx_d, vp_d, vc_, vcls, 
+                             vrl_d, va_d, vb_de, vx_de, vdels, vdocs, vf_, 
+                             vp_de, vtodo, vkeepl, vmarked, ve, vp_p, vf_p, 
+                             vver, vp_g, vf_g, vx_g, vp_del, vf, vx_del, 
+                             vp_delm, vp, vc_r, vrl, va, vb, vx >>
 
 do5(self) == /\ pc[self] = "do5"
              /\ /\ stack' = [stack EXCEPT ![self] = << [ procedure |->  "release",
@@ -2876,12 +2989,12 @@ do5(self) == /\ pc[self] = "do5"
              /\ pc' = [pc EXCEPT ![self] = "rl1"]
              /\ UNCHANGED << obj, pref, cref, doc, mark, keep, locked, waitq, 
                              woken, ev, result, rdata, vtb_, vid_, vp_, vc_t, 
-                             va_, vb_, vout, vmade, vrp, vrl_, vp_s, vc_s, vx_, 
-                             vc, vb_d, vx_d, vp_d, vc_, vcls, vrl_d, va_d, 
-                             vb_de, vx_de, vdels, vdocs, vf_, vp_de, vtodo, 
-                             vkeepl, vmarked, ve, vp_p, vf_p, vver, vp_g, vf_g, 
-                             vx_g, vp_del, vf, vx_del, vp_delm, vp, vc_r, vrl, 
-                             va, vb, vx >>
+                             va_, vb_, vout, vmade, vrp, vrl_, vp_s, vc_s, 
+                             vval, vx_, vc, vb_d, vx_d, vp_d, vc_, vcls, vrl_d, 
+                             va_d, vb_de, vx_de, vdels, vdocs, vf_, vp_de, 
+                             vtodo, vkeepl, vmarked, ve, vp_p, vf_p, vver, 
+                             vp_g, vf_g, vx_g, vp_del, vf, vx_del, vp_delm, vp, 
+                             vc_r, vrl, va, vb, vx >>
 
 do6(self) == /\ pc[self] = "do6"
              /\ IF result[self] = "-"
@@ -2895,11 +3008,12 @@ do6(self) == /\ pc[self] = "do6"
              /\ stack' = [stack EXCEPT ![self] = Tail(stack[self])]
              /\ UNCHANGED << obj, pref, cref, doc, mark, keep, locked, waitq, 
                              woken, ev, rdata, vtb_, vid_, vtb, vid, vp_, vc_t, 
-                             va_, vb_, vout, vmade, vrp, vrl_, vp_s, vc_s, vx_, 
-                             vc, vb_d, vx_d, vp_d, vc_, vcls, vrl_d, va_d, 
-                             vb_de, vx_de, vdels, vdocs, vf_, vp_de, vtodo, 
-                             vkeepl, vmarked, ve, vp_p, vf_p, vver, vp_g, vf_g, 
-                             vx_g, vp_delm, vp, vc_r, vrl, va, vb, vx >>
+                             va_, vb_, vout, vmade, vrp, vrl_, vp_s, vc_s, 
+                             vval, vx_, vc, vb_d, vx_d, vp_d, vc_, vcls, vrl_d, 
+                             va_d, vb_de, vx_de, vdels, vdocs, vf_, vp_de, 
+                             vtodo, vkeepl, vmarked, ve, vp_p, vf_p, vver, 
+                             vp_g, vf_g, vx_g, vp_delm, vp, vc_r, vrl, va, vb, 
+                             vx >>
 
 delmeta_one(self) == do1(self) \/ do2(self) \/ do3(self) \/ do4(self)
                         \/ do5(self) \/ do6(self)
@@ -2922,10 +3036,10 @@ dt1(self) == /\ pc[self] = "dt1"
              /\ UNCHANGED << obj, pref, cref, doc, mark, keep, locked, waitq, 
                              woken, ev, result, rdata, vtb_, vid_, vtb, vid, 
                              vp_, vc_t, va_, vb_, vout, vmade, vrp, vrl_, vp_s, 
-                             vc_s, vx_, vc, vb_d, vx_d, vp_d, vc_, vcls, vrl_d, 
-                             va_d, vb_de, vx_de, vdels, vdocs, vf_, vp_p, vf_p, 
-                             vver, vp_g, vf_g, vx_g, vp_del, vf, vx_del, 
-                             vp_delm, vp, vc_r, vrl, va, vb, vx >>
+                             vc_s, vval, vx_, vc, vb_d, vx_d, vp_d, vc_, vcls, 
+                             vrl_d, va_d, vb_de, vx_de, vdels, vdocs, vf_, 
+                             vp_p, vf_p, vver, vp_g, vf_g, vx_g, vp_del, vf, 
+                             vx_del, vp_delm, vp, vc_r, vrl, va, vb, vx >>
 
 dt2(self) == /\ pc[self] = "dt2"
              /\ result' = [result EXCEPT ![self] = "ok"]
@@ -2934,12 +3048,12 @@ dt2(self) == /\ pc[self] = "dt2"
              /\ stack' = [stack EXCEPT ![self] = Tail(stack[self])]
              /\ UNCHANGED << obj, pref, cref, doc, mark, keep, locked, waitq, 
                              woken, ev, rdata, vtb_, vid_, vtb, vid, vp_, vc_t, 
-                             va_, vb_, vout, vmade, vrp, vrl_, vp_s, vc_s, vx_, 
-                             vc, vb_d, vx_d, vp_d, vc_, vcls, vrl_d, va_d, 
-                             vb_de, vx_de, vdels, vdocs, vf_, vp_de, vtodo, 
-                             vkeepl, vmarked, ve, vp_p, vf_p, vver, vp_g, vf_g, 
-                             vx_g, vp_del, vf, vx_del, vp, vc_r, vrl, va, vb, 
-                             vx >>
+                             va_, vb_, vout, vmade, vrp, vrl_, vp_s, vc_s, 
+                             vval, vx_, vc, vb_d, vx_d, vp_d, vc_, vcls, vrl_d, 
+                             va_d, vb_de, vx_de, vdels, vdocs, vf_, vp_de, 
+                             vtodo, vkeepl, vmarked, ve, vp_p, vf_p, vver, 
+                             vp_g, vf_g, vx_g, vp_del, vf, vx_del, vp, vc_r, 
+                             vrl, va, vb, vx >>
 
 delmeta_top(self) == dt1(self) \/ dt2(self)
 
@@ -2954,11 +3068,11 @@ r1(self) == /\ pc[self] = "r1"
             /\ UNCHANGED << obj, pref, cref, doc, mark, keep, locked, waitq, 
                             woken, rdata, stack, vtb_, vid_, vtb, vid, vp_, 
                             vc_t, va_, vb_, vout, vmade, vrp, vrl_, vp_s, vc_s, 
-                            vx_, vc, vb_d, vx_d, vp_d, vc_, vcls, vrl_d, va_d, 
-                            vb_de, vx_de, vdels, vdocs, vf_, vp_de, vtodo, 
-                            vkeepl, vmarked, ve, vp_p, vf_p, vver, vp_g, vf_g, 
-                            vx_g, vp_del, vf, vx_del, vp_delm, vp, vc_r, vrl, 
-                            vb, vx >>
+                            vval, vx_, vc, vb_d, vx_d, vp_d, vc_, vcls, vrl_d, 
+                            va_d, vb_de, vx_de, vdels, vdocs, vf_, vp_de, 
+                            vtodo, vkeepl, vmarked, ve, vp_p, vf_p, vver, vp_g, 
+                            vf_g, vx_g, vp_del, vf, vx_del, vp_delm, vp, vc_r, 
+                            vrl, vb, vx >>
 
 r2(self) == /\ pc[self] = "r2"
             /\ IF pref[vp[self]] = None
@@ -2973,11 +3087,11 @@ r2(self) == /\ pc[self] = "r2"
             /\ UNCHANGED << obj, pref, cref, doc, mark, keep, locked, waitq, 
                             woken, rdata, stack, vtb_, vid_, vtb, vid, vp_, 
                             vc_t, va_, vb_, vout, vmade, vrp, vrl_, vp_s, vc_s, 
-                            vx_, vc, vb_d, vx_d, vp_d, vc_, vcls, vrl_d, va_d, 
-                            vb_de, vx_de, vdels, vdocs, vf_, vp_de, vtodo, 
-                            vkeepl, vmarked, ve, vp_p, vf_p, vver, vp_g, vf_g, 
-                            vx_g, vp_del, vf, vx_del, vp_delm, vp, vrl, va, vb, 
-                            vx >>
+                            vval, vx_, vc, vb_d, vx_d, vp_d, vc_, vcls, vrl_d, 
+                            va_d, vb_de, vx_de, vdels, vdocs, vf_, vp_de, 
+                            vtodo, vkeepl, vmarked, ve, vp_p, vf_p, vver, vp_g, 
+                            vf_g, vx_g, vp_del, vf, vx_del, vp_delm, vp, vrl, 
+                            va, vb, vx >>
 
 r3(self) == /\ pc[self] = "r3"
             /\ vb' = [vb EXCEPT ![self] = cref[vc_r[self]].has]
@@ -2990,11 +3104,11 @@ r3(self) == /\ pc[self] = "r3"
             /\ UNCHANGED << obj, pref, cref, doc, mark, keep, locked, waitq, 
                             woken, rdata, stack, vtb_, vid_, vtb, vid, vp_, 
                             vc_t, va_, vb_, vout, vmade, vrp, vrl_, vp_s, vc_s, 
-                            vx_, vc, vb_d, vx_d, vp_d, vc_, vcls, vrl_d, va_d, 
-                            vb_de, vx_de, vdels, vdocs, vf_, vp_de, vtodo, 
-                            vkeepl, vmarked, ve, vp_p, vf_p, vver, vp_g, vf_g, 
-                            vx_g, vp_del, vf, vx_del, vp_delm, vp, vc_r, vrl, 
-                            va, vx >>
+                            vval, vx_, vc, vb_d, vx_d, vp_d, vc_, vcls, vrl_d, 
+                            va_d, vb_de, vx_de, vdels, vdocs, vf_, vp_de, 
+                            vtodo, vkeepl, vmarked, ve, vp_p, vf_p, vver, vp_g, 
+                            vf_g, vx_g, vp_del, vf, vx_del, vp_delm, vp, vc_r, 
+                            vrl, va, vx >>
 
 r4(self) == /\ pc[self] = "r4"
             /\ IF ~cref[vc_r[self]].has
@@ -3009,11 +3123,11 @@ r4(self) == /\ pc[self] = "r4"
             /\ UNCHANGED << obj, pref, cref, doc, mark, keep, locked, waitq, 
                             woken, rdata, stack, vtb_, vid_, vtb, vid, vp_, 
                             vc_t, va_, vb_, vout, vmade, vrp, vrl_, vp_s, vc_s, 
-                            vx_, vc, vb_d, vx_d, vp_d, vc_, vcls, vrl_d, va_d, 
-                            vb_de, vx_de, vdels, vdocs, vf_, vp_de, vtodo, 
-                            vkeepl, vmarked, ve, vp_p, vf_p, vver, vp_g, vf_g, 
-                            vx_g, vp_del, vf, vx_del, vp_delm, vp, vc_r, va, 
-                            vb, vx >>
+                            vval, vx_, vc, vb_d, vx_d, vp_d, vc_, vcls, vrl_d, 
+                            va_d, vb_de, vx_de, vdels, vdocs, vf_, vp_de, 
+                            vtodo, vkeepl, vmarked, ve, vp_p, vf_p, vver, vp_g, 
+                            vf_g, vx_g, vp_del, vf, vx_del, vp_delm, vp, vc_r, 
+                            va, vb, vx >>
 
 r5(self) == /\ pc[self] = "r5"
             /\ IF ~InSeq(vp[self], vrl[self])
@@ -3024,11 +3138,11 @@ r5(self) == /\ pc[self] = "r5"
             /\ UNCHANGED << obj, pref, cref, doc, mark, keep, locked, waitq, 
                             woken, ev, rdata, stack, vtb_, vid_, vtb, vid, vp_, 
                             vc_t, va_, vb_, vout, vmade, vrp, vrl_, vp_s, vc_s, 
-                            vx_, vc, vb_d, vx_d, vp_d, vc_, vcls, vrl_d, va_d, 
-                            vb_de, vx_de, vdels, vdocs, vf_, vp_de, vtodo, 
-                            vkeepl, vmarked, ve, vp_p, vf_p, vver, vp_g, vf_g, 
-                            vx_g, vp_del, vf, vx_del, vp_delm, vp, vc_r, vrl, 
-                            va, vb, vx >>
+                            vval, vx_, vc, vb_d, vx_d, vp_d, vc_, vcls, vrl_d, 
+                            va_d, vb_de, vx_de, vdels, vdocs, vf_, vp_de, 
+                            vtodo, vkeepl, vmarked, ve, vp_p, vf_p, vver, vp_g, 
+                            vf_g, vx_g, vp_del, vf, vx_del, vp_delm, vp, vc_r, 
+                            vrl, va, vb, vx >>
 
 r6(self) == /\ pc[self] = "r6"
             /\ vx' = [vx EXCEPT ![self] = obj[vc_r[self]] = "ok"]
@@ -3039,11 +3153,11 @@ r6(self) == /\ pc[self] = "r6"
             /\ UNCHANGED << obj, pref, cref, doc, mark, keep, locked, waitq, 
                             woken, result, rdata, stack, vtb_, vid_, vtb, vid, 
                             vp_, vc_t, va_, vb_, vout, vmade, vrp, vrl_, vp_s, 
-                            vc_s, vx_, vc, vb_d, vx_d, vp_d, vc_, vcls, vrl_d, 
-                            va_d, vb_de, vx_de, vdels, vdocs, vf_, vp_de, 
-                            vtodo, vkeepl, vmarked, ve, vp_p, vf_p, vver, vp_g, 
-                            vf_g, vx_g, vp_del, vf, vx_del, vp_delm, vp, vc_r, 
-                            vrl, va, vb >>
+                            vc_s, vval, vx_, vc, vb_d, vx_d, vp_d, vc_, vcls, 
+                            vrl_d, va_d, vb_de, vx_de, vdels, vdocs, vf_, 
+                            vp_de, vtodo, vkeepl, vmarked, ve, vp_p, vf_p, 
+                            vver, vp_g, vf_g, vx_g, vp_del, vf, vx_del, 
+                            vp_delm, vp, vc_r, vrl, va, vb >>
 
 r6b(self) == /\ pc[self] = "r6b"
              /\ ev' = Ev(self, "stat", P("obj", vc_r[self]), NoPath, FN(obj[vc_r[self]] = "ok"))
@@ -3052,11 +3166,11 @@ r6b(self) == /\ pc[self] = "r6b"
              /\ UNCHANGED << obj, pref, cref, doc, mark, keep, locked, waitq, 
                              woken, rdata, stack, vtb_, vid_, vtb, vid, vp_, 
                              vc_t, va_, vb_, vout, vmade, vrp, vrl_, vp_s, 
-                             vc_s, vx_, vc, vb_d, vx_d, vp_d, vc_, vcls, vrl_d, 
-                             va_d, vb_de, vx_de, vdels, vdocs, vf_, vp_de, 
-                             vtodo, vkeepl, vmarked, ve, vp_p, vf_p, vver, 
-                             vp_g, vf_g, vx_g, vp_del, vf, vx_del, vp_delm, vp, 
-                             vc_r, vrl, va, vb, vx >>
+                             vc_s, vval, vx_, vc, vb_d, vx_d, vp_d, vc_, vcls, 
+                             vrl_d, va_d, vb_de, vx_de, vdels, vdocs, vf_, 
+                             vp_de, vtodo, vkeepl, vmarked, ve, vp_p, vf_p, 
+                             vver, vp_g, vf_g, vx_g, vp_del, vf, vx_del, 
+                             vp_delm, vp, vc_r, vrl, va, vb, vx >>
 
 r7(self) == /\ pc[self] = "r7"
             /\ vx' = [vx EXCEPT ![self] = obj[vc_r[self]] = "ok"]
@@ -3067,11 +3181,11 @@ r7(self) == /\ pc[self] = "r7"
             /\ UNCHANGED << obj, pref, cref, doc, mark, keep, locked, waitq, 
                             woken, result, rdata, stack, vtb_, vid_, vtb, vid, 
                             vp_, vc_t, va_, vb_, vout, vmade, vrp, vrl_, vp_s, 
-                            vc_s, vx_, vc, vb_d, vx_d, vp_d, vc_, vcls, vrl_d, 
-                            va_d, vb_de, vx_de, vdels, vdocs, vf_, vp_de, 
-                            vtodo, vkeepl, vmarked, ve, vp_p, vf_p, vver, vp_g, 
-                            vf_g, vx_g, vp_del, vf, vx_del, vp_delm, vp, vc_r, 
-                            vrl, va, vb >>
+                            vc_s, vval, vx_, vc, vb_d, vx_d, vp_d, vc_, vcls, 
+                            vrl_d, va_d, vb_de, vx_de, vdels, vdocs, vf_, 
+                            vp_de, vtodo, vkeepl, vmarked, ve, vp_p, vf_p, 
+                            vver, vp_g, vf_g, vx_g, vp_del, vf, vx_del, 
+                            vp_delm, vp, vc_r, vrl, va, vb >>
 
 r7b(self) == /\ pc[self] = "r7b"
              /\ ev' = Ev(self, "stat", P("obj", vc_r[self]), NoPath, FN(obj[vc_r[self]] = "ok"))
@@ -3080,11 +3194,11 @@ r7b(self) == /\ pc[self] = "r7b"
              /\ UNCHANGED << obj, pref, cref, doc, mark, keep, locked, waitq, 
                              woken, rdata, stack, vtb_, vid_, vtb, vid, vp_, 
                              vc_t, va_, vb_, vout, vmade, vrp, vrl_, vp_s, 
-                             vc_s, vx_, vc, vb_d, vx_d, vp_d, vc_, vcls, vrl_d, 
-                             va_d, vb_de, vx_de, vdels, vdocs, vf_, vp_de, 
-                             vtodo, vkeepl, vmarked, ve, vp_p, vf_p, vver, 
-                             vp_g, vf_g, vx_g, vp_del, vf, vx_del, vp_delm, vp, 
-                             vc_r, vrl, va, vb, vx >>
+                             vc_s, vval, vx_, vc, vb_d, vx_d, vp_d, vc_, vcls, 
+                             vrl_d, va_d, vb_de, vx_de, vdels, vdocs, vf_, 
+                             vp_de, vtodo, vkeepl, vmarked, ve, vp_p, vf_p, 
+                             vver, vp_g, vf_g, vx_g, vp_del, vf, vx_del, 
+                             vp_delm, vp, vc_r, vrl, va, vb, vx >>
 
 r8(self) == /\ pc[self] = "r8"
             /\ ev' = Ev(self, "stat", P("doc", vp[self] \o "/" \o DefaultNs), NoPath, FN(doc[vp[self]][DefaultNs] # None))
@@ -3092,11 +3206,11 @@ r8(self) == /\ pc[self] = "r8"
             /\ UNCHANGED << obj, pref, cref, doc, mark, keep, locked, waitq, 
                             woken, result, rdata, stack, vtb_, vid_, vtb, vid, 
                             vp_, vc_t, va_, vb_, vout, vmade, vrp, vrl_, vp_s, 
-                            vc_s, vx_, vc, vb_d, vx_d, vp_d, vc_, vcls, vrl_d, 
-                            va_d, vb_de, vx_de, vdels, vdocs, vf_, vp_de, 
-                            vtodo, vkeepl, vmarked, ve, vp_p, vf_p, vver, vp_g, 
-                            vf_g, vx_g, vp_del, vf, vx_del, vp_delm, vp, vc_r, 
-                            vrl, va, vb, vx >>
+                            vc_s, vval, vx_, vc, vb_d, vx_d, vp_d, vc_, vcls, 
+                            vrl_d, va_d, vb_de, vx_de, vdels, vdocs, vf_, 
+                            vp_de, vtodo, vkeepl, vmarked, ve, vp_p, vf_p, 
+                            vver, vp_g, vf_g, vx_g, vp_del, vf, vx_del, 
+                            vp_delm, vp, vc_r, vrl, va, vb, vx >>
 
 r9(self) == /\ pc[self] = "r9"
             /\ vx' = [vx EXCEPT ![self] = obj[vc_r[self]] = "ok"]
@@ -3107,11 +3221,11 @@ r9(self) == /\ pc[self] = "r9"
             /\ UNCHANGED << obj, pref, cref, doc, mark, keep, locked, waitq, 
                             woken, result, rdata, stack, vtb_, vid_, vtb, vid, 
                             vp_, vc_t, va_, vb_, vout, vmade, vrp, vrl_, vp_s, 
-                            vc_s, vx_, vc, vb_d, vx_d, vp_d, vc_, vcls, vrl_d, 
-                            va_d, vb_de, vx_de, vdels, vdocs, vf_, vp_de, 
-                            vtodo, vkeepl, vmarked, ve, vp_p, vf_p, vver, vp_g, 
-                            vf_g, vx_g, vp_del, vf, vx_del, vp_delm, vp, vc_r, 
-                            vrl, va, vb >>
+                            vc_s, vval, vx_, vc, vb_d, vx_d, vp_d, vc_, vcls, 
+                            vrl_d, va_d, vb_de, vx_de, vdels, vdocs, vf_, 
+                            vp_de, vtodo, vkeepl, vmarked, ve, vp_p, vf_p, 
+                            vver, vp_g, vf_g, vx_g, vp_del, vf, vx_del, 
+                            vp_delm, vp, vc_r, vrl, va, vb >>
 
 r9b(self) == /\ pc[self] = "r9b"
              /\ ev' = Ev(self, "stat", P("obj", vc_r[self]), NoPath, FN(obj[vc_r[self]] = "ok"))
@@ -3120,11 +3234,11 @@ r9b(self) == /\ pc[self] = "r9b"
              /\ UNCHANGED << obj, pref, cref, doc, mark, keep, locked, waitq, 
                              woken, rdata, stack, vtb_, vid_, vtb, vid, vp_, 
                              vc_t, va_, vb_, vout, vmade, vrp, vrl_, vp_s, 
-                             vc_s, vx_, vc, vb_d, vx_d, vp_d, vc_, vcls, vrl_d, 
-                             va_d, vb_de, vx_de, vdels, vdocs, vf_, vp_de, 
-                             vtodo, vkeepl, vmarked, ve, vp_p, vf_p, vver, 
-                             vp_g, vf_g, vx_g, vp_del, vf, vx_del, vp_delm, vp, 
-                             vc_r, vrl, va, vb, vx >>
+                             vc_s, vval, vx_, vc, vb_d, vx_d, vp_d, vc_, vcls, 
+                             vrl_d, va_d, vb_de, vx_de, vdels, vdocs, vf_, 
+                             vp_de, vtodo, vkeepl, vmarked, ve, vp_p, vf_p, 
+                             vver, vp_g, vf_g, vx_g, vp_del, vf, vx_del, 
+                             vp_delm, vp, vc_r, vrl, va, vb, vx >>
 
 r10(self) == /\ pc[self] = "r10"
              /\ IF obj[vc_r[self]] # "ok"
@@ -3137,12 +3251,12 @@ r10(self) == /\ pc[self] = "r10"
              /\ pc' = [pc EXCEPT ![self] = "r12"]
              /\ UNCHANGED << obj, pref, cref, doc, mark, keep, locked, waitq, 
                              woken, stack, vtb_, vid_, vtb, vid, vp_, vc_t, 
-                             va_, vb_, vout, vmade, vrp, vrl_, vp_s, vc_s, vx_, 
-                             vc, vb_d, vx_d, vp_d, vc_, vcls, vrl_d, va_d, 
-                             vb_de, vx_de, vdels, vdocs, vf_, vp_de, vtodo, 
-                             vkeepl, vmarked, ve, vp_p, vf_p, vver, vp_g, vf_g, 
-                             vx_g, vp_del, vf, vx_del, vp_delm, vp, vc_r, vrl, 
-                             va, vb, vx >>
+                             va_, vb_, vout, vmade, vrp, vrl_, vp_s, vc_s, 
+                             vval, vx_, vc, vb_d, vx_d, vp_d, vc_, vcls, vrl_d, 
+                             va_d, vb_de, vx_de, vdels, vdocs, vf_, vp_de, 
+                             vtodo, vkeepl, vmarked, ve, vp_p, vf_p, vver, 
+                             vp_g, vf_g, vx_g, vp_del, vf, vx_del, vp_delm, vp, 
+                             vc_r, vrl, va, vb, vx >>
 
 r12(self) == /\ pc[self] = "r12"
              /\ pc' = [pc EXCEPT ![self] = Head(stack[self]).pc]
@@ -3156,10 +3270,11 @@ r12(self) == /\ pc[self] = "r12"
              /\ UNCHANGED << obj, pref, cref, doc, mark, keep, locked, waitq, 
                              woken, ev, result, rdata, vtb_, vid_, vtb, vid, 
                              vp_, vc_t, va_, vb_, vout, vmade, vrp, vrl_, vp_s, 
-                             vc_s, vx_, vc, vb_d, vx_d, vp_d, vc_, vcls, vrl_d, 
-                             va_d, vb_de, vx_de, vdels, vdocs, vf_, vp_de, 
-                             vtodo, vkeepl, vmarked, ve, vp_p, vf_p, vver, 
-                             vp_g, vf_g, vx_g, vp_del, vf, vx_del, vp_delm >>
+                             vc_s, vval, vx_, vc, vb_d, vx_d, vp_d, vc_, vcls, 
+                             vrl_d, va_d, vb_de, vx_de, vdels, vdocs, vf_, 
+                             vp_de, vtodo, vkeepl, vmarked, ve, vp_p, vf_p, 
+                             vver, vp_g, vf_g, vx_g, vp_del, vf, vx_del, 
+                             vp_delm >>
 
 retrieve(self) == r1(self) \/ r2(self) \/ r3(self) \/ r4(self) \/ r5(self)
                      \/ r6(self) \/ r6b(self) \/ r7(self) \/ r7b(self)
@@ -3172,10 +3287,12 @@ run(self) == /\ pc[self] = "run"
                                                                     pc        |->  "fin",
                                                                     vx_       |->  vx_[self],
                                                                     vp_s      |->  vp_s[self],
-                                                                    vc_s      |->  vc_s[self] ] >>
+                                                                    vc_s      |->  vc_s[self],
+                                                                    vval      |->  vval[self] ] >>
                                                                 \o stack[self]]
                            /\ vc_s' = [vc_s EXCEPT ![self] = Job[self].c]
                            /\ vp_s' = [vp_s EXCEPT ![self] = Job[self].pid]
+                           /\ vval' = [vval EXCEPT ![self] = Job[self].val]
                         /\ vx_' = [vx_ EXCEPT ![self] = FALSE]
                         /\ pc' = [pc EXCEPT ![self] = "st1"]
                         /\ UNCHANGED << result, vp_, vc_t, va_, vb_, vout, 
@@ -3189,10 +3306,12 @@ run(self) == /\ pc[self] = "run"
                                                                                pc        |->  "fin",
                                                                                vx_       |->  vx_[self],
                                                                                vp_s      |->  vp_s[self],
-                                                                               vc_s      |->  vc_s[self] ] >>
+                                                                               vc_s      |->  vc_s[self],
+                                                                               vval      |->  vval[self] ] >>
                                                                            \o stack[self]]
                                       /\ vc_s' = [vc_s EXCEPT ![self] = Job[self].c]
                                       /\ vp_s' = [vp_s EXCEPT ![self] = "-"]
+                                      /\ vval' = [vval EXCEPT ![self] = "none"]
                                    /\ vx_' = [vx_ EXCEPT ![self] = FALSE]
                                    /\ pc' = [pc EXCEPT ![self] = "st1"]
                                    /\ UNCHANGED << result, vp_, vc_t, va_, vb_, 
@@ -3434,7 +3553,7 @@ run(self) == /\ pc[self] = "run"
                                               /\ UNCHANGED << vp_, vc_t, va_, 
                                                               vb_, vout, vmade, 
                                                               vrp, vrl_ >>
-                                   /\ UNCHANGED << vp_s, vc_s, vx_ >>
+                                   /\ UNCHANGED << vp_s, vc_s, vval, vx_ >>
              /\ UNCHANGED << obj, pref, cref, doc, mark, keep, locked, waitq, 
                              woken, ev, rdata, vtb_, vid_, vtb, vid, vp_de, 
                              vtodo, vkeepl, vmarked, ve >>
@@ -3445,10 +3564,10 @@ fin(self) == /\ pc[self] = "fin"
              /\ UNCHANGED << obj, pref, cref, doc, mark, keep, locked, waitq, 
                              woken, ev, result, rdata, stack, vtb_, vid_, vtb, 
                              vid, vp_, vc_t, va_, vb_, vout, vmade, vrp, vrl_, 
-                             vp_s, vc_s, vx_, vc, vb_d, vx_d, vp_d, vc_, vcls, 
-                             vrl_d, va_d, vb_de, vx_de, vdels, vdocs, vf_, 
-                             vp_de, vtodo, vkeepl, vmarked, ve, vp_p, vf_p, 
-                             vver, vp_g, vf_g, vx_g, vp_del, vf, vx_del, 
+                             vp_s, vc_s, vval, vx_, vc, vb_d, vx_d, vp_d, vc_, 
+                             vcls, vrl_d, va_d, vb_de, vx_de, vdels, vdocs, 
+                             vf_, vp_de, vtodo, vkeepl, vmarked, ve, vp_p, 
+                             vf_p, vver, vp_g, vf_g, vx_g, vp_del, vf, vx_del, 
                              vp_delm, vp, vc_r, vrl, va, vb, vx >>
 
 proc(self) == run(self) \/ fin(self)
